@@ -28,329 +28,361 @@ variable {K : Type} [Field K] [LinearOrder K]
 
 
 set_option maxHeartbeats 4000000 in
-/-- `grad_euler_i_general_11`: backprop `gy_0_0` = forward derivative `ty_0_0` -/
-theorem grad_euler_i_general_11_gy_0_0  (f : K → K → K → K) (f_d1 : K → K → K → K) (f_d2 : K → K → K → K) (g : K → K → K → K) (g_d1 : K → K → K → K) (g_d2 : K → K → K → K) (t0 t2 dt y0_0_0 theta v_0_0 dW0_0_0 dW1_0_0 : K) :
-    Gen.grad_euler_i_general_11_gy_0_0 f f_d1 f_d2 g g_d1 g_d2 t0 t2 dt y0_0_0 theta v_0_0 dW0_0_0 dW1_0_0 = Gen.grad_euler_i_general_11_ty_0_0 f f_d1 f_d2 g g_d1 g_d2 t0 t2 dt y0_0_0 theta v_0_0 dW0_0_0 dW1_0_0 := by
-  simp only [Gen.grad_euler_i_general_11_gy_0_0, Gen.grad_euler_i_general_11_ty_0_0]
-  generalize Gen.grad_euler_i_general_11_f_d1_b39c2b677c13 f f_d1 f_d2 g g_d1 g_d2 t0 t2 dt y0_0_0 theta v_0_0 dW0_0_0 dW1_0_0 = a0
-  generalize Gen.grad_euler_i_general_11_f_d1_c5cd2284f49d f f_d1 f_d2 g g_d1 g_d2 t0 t2 dt y0_0_0 theta v_0_0 dW0_0_0 dW1_0_0 = a1
-  generalize Gen.grad_euler_i_general_11_g_d1_a2931f36efaa f f_d1 f_d2 g g_d1 g_d2 t0 t2 dt y0_0_0 theta v_0_0 dW0_0_0 dW1_0_0 = a2
-  generalize Gen.grad_euler_i_general_11_g_d1_ddd0c5e556e2 f f_d1 f_d2 g g_d1 g_d2 t0 t2 dt y0_0_0 theta v_0_0 dW0_0_0 dW1_0_0 = a3
+/-- `gradp_euler_i_additive_11`: backprop `gth` = forward derivative `tth` -/
+theorem gradp_euler_i_additive_11_gth  (f : K → K → K → K) (f_d1 : K → K → K → K) (f_d2 : K → K → K → K) (g : K → K → K) (g_d1 : K → K → K) (t0 t2 dt y0_0_0 theta v_0_0 dW0_0_0 dW1_0_0 : K) :
+    Gen.gradp_euler_i_additive_11_gth f f_d1 f_d2 g g_d1 t0 t2 dt y0_0_0 theta v_0_0 dW0_0_0 dW1_0_0 = Gen.gradp_euler_i_additive_11_tth f f_d1 f_d2 g g_d1 t0 t2 dt y0_0_0 theta v_0_0 dW0_0_0 dW1_0_0 := by
+  simp only [Gen.gradp_euler_i_additive_11_gth, Gen.gradp_euler_i_additive_11_tth]
+  generalize Gen.gradp_euler_i_additive_11_f_d1_9c7524f038aa f f_d1 f_d2 g g_d1 t0 t2 dt y0_0_0 theta v_0_0 dW0_0_0 dW1_0_0 = a0
+  generalize Gen.gradp_euler_i_additive_11_f_d2_4894b01bac57 f f_d1 f_d2 g g_d1 t0 t2 dt y0_0_0 theta v_0_0 dW0_0_0 dW1_0_0 = a1
+  generalize Gen.gradp_euler_i_additive_11_f_d2_75ad011491cf f f_d1 f_d2 g g_d1 t0 t2 dt y0_0_0 theta v_0_0 dW0_0_0 dW1_0_0 = a2
+  generalize Gen.gradp_euler_i_additive_11_g_d1_39aaf857762f f f_d1 f_d2 g g_d1 t0 t2 dt y0_0_0 theta v_0_0 dW0_0_0 dW1_0_0 = a3
+  generalize Gen.gradp_euler_i_additive_11_g_d1_3d49352567ba f f_d1 f_d2 g g_d1 t0 t2 dt y0_0_0 theta v_0_0 dW0_0_0 dW1_0_0 = a4
   ring
 
 set_option maxHeartbeats 4000000 in
-/-- `grad_euler_i_general_11`: backprop `gth` = forward derivative `tth` -/
-theorem grad_euler_i_general_11_gth  (f : K → K → K → K) (f_d1 : K → K → K → K) (f_d2 : K → K → K → K) (g : K → K → K → K) (g_d1 : K → K → K → K) (g_d2 : K → K → K → K) (t0 t2 dt y0_0_0 theta v_0_0 dW0_0_0 dW1_0_0 : K) :
-    Gen.grad_euler_i_general_11_gth f f_d1 f_d2 g g_d1 g_d2 t0 t2 dt y0_0_0 theta v_0_0 dW0_0_0 dW1_0_0 = Gen.grad_euler_i_general_11_tth f f_d1 f_d2 g g_d1 g_d2 t0 t2 dt y0_0_0 theta v_0_0 dW0_0_0 dW1_0_0 := by
-  simp only [Gen.grad_euler_i_general_11_gth, Gen.grad_euler_i_general_11_tth]
-  generalize Gen.grad_euler_i_general_11_f_d1_c5cd2284f49d f f_d1 f_d2 g g_d1 g_d2 t0 t2 dt y0_0_0 theta v_0_0 dW0_0_0 dW1_0_0 = a0
-  generalize Gen.grad_euler_i_general_11_f_d2_75ad011491cf f f_d1 f_d2 g g_d1 g_d2 t0 t2 dt y0_0_0 theta v_0_0 dW0_0_0 dW1_0_0 = a1
-  generalize Gen.grad_euler_i_general_11_f_d2_f2902e1bab85 f f_d1 f_d2 g g_d1 g_d2 t0 t2 dt y0_0_0 theta v_0_0 dW0_0_0 dW1_0_0 = a2
-  generalize Gen.grad_euler_i_general_11_g_d1_a2931f36efaa f f_d1 f_d2 g g_d1 g_d2 t0 t2 dt y0_0_0 theta v_0_0 dW0_0_0 dW1_0_0 = a3
-  generalize Gen.grad_euler_i_general_11_g_d2_722b7a6bbfae f f_d1 f_d2 g g_d1 g_d2 t0 t2 dt y0_0_0 theta v_0_0 dW0_0_0 dW1_0_0 = a4
-  generalize Gen.grad_euler_i_general_11_g_d2_b2655ef31e85 f f_d1 f_d2 g g_d1 g_d2 t0 t2 dt y0_0_0 theta v_0_0 dW0_0_0 dW1_0_0 = a5
+/-- `gradp_milstein_i_diagonal_11`: backprop `gth` = forward derivative `tth` -/
+theorem gradp_milstein_i_diagonal_11_gth  (f : K → K → K → K) (f_d1 : K → K → K → K) (f_d2 : K → K → K → K) (g : K → K → K → K) (g_d1 : K → K → K → K) (g_d11 : K → K → K → K) (g_d12 : K → K → K → K) (g_d2 : K → K → K → K) (t0 t2 dt y0_0_0 theta v_0_0 dW0_0_0 dW1_0_0 : K) :
+    Gen.gradp_milstein_i_diagonal_11_gth f f_d1 f_d2 g g_d1 g_d11 g_d12 g_d2 t0 t2 dt y0_0_0 theta v_0_0 dW0_0_0 dW1_0_0 = Gen.gradp_milstein_i_diagonal_11_tth f f_d1 f_d2 g g_d1 g_d11 g_d12 g_d2 t0 t2 dt y0_0_0 theta v_0_0 dW0_0_0 dW1_0_0 := by
+  simp only [Gen.gradp_milstein_i_diagonal_11_gth, Gen.gradp_milstein_i_diagonal_11_tth]
+  generalize Gen.gradp_milstein_i_diagonal_11_f_d1_489ec9895782 f f_d1 f_d2 g g_d1 g_d11 g_d12 g_d2 t0 t2 dt y0_0_0 theta v_0_0 dW0_0_0 dW1_0_0 = a0
+  generalize Gen.gradp_milstein_i_diagonal_11_f_d2_75ad011491cf f f_d1 f_d2 g g_d1 g_d11 g_d12 g_d2 t0 t2 dt y0_0_0 theta v_0_0 dW0_0_0 dW1_0_0 = a1
+  generalize Gen.gradp_milstein_i_diagonal_11_f_d2_f1a1d483eb7a f f_d1 f_d2 g g_d1 g_d11 g_d12 g_d2 t0 t2 dt y0_0_0 theta v_0_0 dW0_0_0 dW1_0_0 = a2
+  generalize Gen.gradp_milstein_i_diagonal_11_g_70f35061c2d0 f f_d1 f_d2 g g_d1 g_d11 g_d12 g_d2 t0 t2 dt y0_0_0 theta v_0_0 dW0_0_0 dW1_0_0 = a3
+  generalize Gen.gradp_milstein_i_diagonal_11_g_d11_8064c5c39114 f f_d1 f_d2 g g_d1 g_d11 g_d12 g_d2 t0 t2 dt y0_0_0 theta v_0_0 dW0_0_0 dW1_0_0 = a4
+  generalize Gen.gradp_milstein_i_diagonal_11_g_d12_40f4a140374f f f_d1 f_d2 g g_d1 g_d11 g_d12 g_d2 t0 t2 dt y0_0_0 theta v_0_0 dW0_0_0 dW1_0_0 = a5
+  generalize Gen.gradp_milstein_i_diagonal_11_g_d12_f09e45d90827 f f_d1 f_d2 g g_d1 g_d11 g_d12 g_d2 t0 t2 dt y0_0_0 theta v_0_0 dW0_0_0 dW1_0_0 = a6
+  generalize Gen.gradp_milstein_i_diagonal_11_g_d1_ddd0c5e556e2 f f_d1 f_d2 g g_d1 g_d11 g_d12 g_d2 t0 t2 dt y0_0_0 theta v_0_0 dW0_0_0 dW1_0_0 = a7
+  generalize Gen.gradp_milstein_i_diagonal_11_g_d1_f7710a2eb195 f f_d1 f_d2 g g_d1 g_d11 g_d12 g_d2 t0 t2 dt y0_0_0 theta v_0_0 dW0_0_0 dW1_0_0 = a8
+  generalize Gen.gradp_milstein_i_diagonal_11_g_d2_1dbf2324c025 f f_d1 f_d2 g g_d1 g_d11 g_d12 g_d2 t0 t2 dt y0_0_0 theta v_0_0 dW0_0_0 dW1_0_0 = a9
+  generalize Gen.gradp_milstein_i_diagonal_11_g_d2_722b7a6bbfae f f_d1 f_d2 g g_d1 g_d11 g_d12 g_d2 t0 t2 dt y0_0_0 theta v_0_0 dW0_0_0 dW1_0_0 = a10
+  generalize Gen.gradp_milstein_i_diagonal_11_g_db15086d257d f f_d1 f_d2 g g_d1 g_d11 g_d12 g_d2 t0 t2 dt y0_0_0 theta v_0_0 dW0_0_0 dW1_0_0 = a11
   ring
 
 set_option maxHeartbeats 4000000 in
-/-- `grad_milstein_s_diagonal_11`: backprop `gy_0_0` = forward derivative `ty_0_0` -/
-theorem grad_milstein_s_diagonal_11_gy_0_0  (f : K → K → K → K) (f_d1 : K → K → K → K) (f_d2 : K → K → K → K) (g : K → K → K → K) (g_d1 : K → K → K → K) (g_d11 : K → K → K → K) (g_d12 : K → K → K → K) (g_d2 : K → K → K → K) (t0 t2 dt y0_0_0 theta v_0_0 dW0_0_0 dW1_0_0 : K) :
-    Gen.grad_milstein_s_diagonal_11_gy_0_0 f f_d1 f_d2 g g_d1 g_d11 g_d12 g_d2 t0 t2 dt y0_0_0 theta v_0_0 dW0_0_0 dW1_0_0 = Gen.grad_milstein_s_diagonal_11_ty_0_0 f f_d1 f_d2 g g_d1 g_d11 g_d12 g_d2 t0 t2 dt y0_0_0 theta v_0_0 dW0_0_0 dW1_0_0 := by
-  simp only [Gen.grad_milstein_s_diagonal_11_gy_0_0, Gen.grad_milstein_s_diagonal_11_ty_0_0]
-  generalize Gen.grad_milstein_s_diagonal_11_f_d1_b39c2b677c13 f f_d1 f_d2 g g_d1 g_d11 g_d12 g_d2 t0 t2 dt y0_0_0 theta v_0_0 dW0_0_0 dW1_0_0 = a0
-  generalize Gen.grad_milstein_s_diagonal_11_f_d1_d1594caba5a3 f f_d1 f_d2 g g_d1 g_d11 g_d12 g_d2 t0 t2 dt y0_0_0 theta v_0_0 dW0_0_0 dW1_0_0 = a1
-  generalize Gen.grad_milstein_s_diagonal_11_g_91660bdd818e f f_d1 f_d2 g g_d1 g_d11 g_d12 g_d2 t0 t2 dt y0_0_0 theta v_0_0 dW0_0_0 dW1_0_0 = a2
-  generalize Gen.grad_milstein_s_diagonal_11_g_d11_9d3773187952 f f_d1 f_d2 g g_d1 g_d11 g_d12 g_d2 t0 t2 dt y0_0_0 theta v_0_0 dW0_0_0 dW1_0_0 = a3
-  generalize Gen.grad_milstein_s_diagonal_11_g_d11_ac6c316b1b1e f f_d1 f_d2 g g_d1 g_d11 g_d12 g_d2 t0 t2 dt y0_0_0 theta v_0_0 dW0_0_0 dW1_0_0 = a4
-  generalize Gen.grad_milstein_s_diagonal_11_g_d1_1704cf843a85 f f_d1 f_d2 g g_d1 g_d11 g_d12 g_d2 t0 t2 dt y0_0_0 theta v_0_0 dW0_0_0 dW1_0_0 = a5
-  generalize Gen.grad_milstein_s_diagonal_11_g_d1_ddd0c5e556e2 f f_d1 f_d2 g g_d1 g_d11 g_d12 g_d2 t0 t2 dt y0_0_0 theta v_0_0 dW0_0_0 dW1_0_0 = a6
-  generalize Gen.grad_milstein_s_diagonal_11_g_db15086d257d f f_d1 f_d2 g g_d1 g_d11 g_d12 g_d2 t0 t2 dt y0_0_0 theta v_0_0 dW0_0_0 dW1_0_0 = a7
+/-- `grad_milstein_i_scalar_11_gf`: backprop `gth` = forward derivative `tth` -/
+theorem grad_milstein_i_scalar_11_gf_gth (sqrt : K → K) (f : K → K → K → K) (f_d1 : K → K → K → K) (f_d2 : K → K → K → K) (g : K → K → K → K) (g_d1 : K → K → K → K) (g_d2 : K → K → K → K) (t0 t2 dt y0_0_0 theta v_0_0 dW0_0_0 dW1_0_0 : K) :
+    Gen.grad_milstein_i_scalar_11_gf_gth sqrt f f_d1 f_d2 g g_d1 g_d2 t0 t2 dt y0_0_0 theta v_0_0 dW0_0_0 dW1_0_0 = Gen.grad_milstein_i_scalar_11_gf_tth sqrt f f_d1 f_d2 g g_d1 g_d2 t0 t2 dt y0_0_0 theta v_0_0 dW0_0_0 dW1_0_0 := by
+  simp only [Gen.grad_milstein_i_scalar_11_gf_gth, Gen.grad_milstein_i_scalar_11_gf_tth]
+  generalize Gen.grad_milstein_i_scalar_11_gf_f_d1_0d13626a177a sqrt f f_d1 f_d2 g g_d1 g_d2 t0 t2 dt y0_0_0 theta v_0_0 dW0_0_0 dW1_0_0 = a0
+  generalize Gen.grad_milstein_i_scalar_11_gf_f_d2_75ad011491cf sqrt f f_d1 f_d2 g g_d1 g_d2 t0 t2 dt y0_0_0 theta v_0_0 dW0_0_0 dW1_0_0 = a1
+  generalize Gen.grad_milstein_i_scalar_11_gf_f_d2_8f01485f34bd sqrt f f_d1 f_d2 g g_d1 g_d2 t0 t2 dt y0_0_0 theta v_0_0 dW0_0_0 dW1_0_0 = a2
+  generalize Gen.grad_milstein_i_scalar_11_gf_g_d1_02b813f80bf9 sqrt f f_d1 f_d2 g g_d1 g_d2 t0 t2 dt y0_0_0 theta v_0_0 dW0_0_0 dW1_0_0 = a3
+  generalize Gen.grad_milstein_i_scalar_11_gf_g_d1_fcbd887f1bc8 sqrt f f_d1 f_d2 g g_d1 g_d2 t0 t2 dt y0_0_0 theta v_0_0 dW0_0_0 dW1_0_0 = a4
+  generalize Gen.grad_milstein_i_scalar_11_gf_g_d1_fe90e523b752 sqrt f f_d1 f_d2 g g_d1 g_d2 t0 t2 dt y0_0_0 theta v_0_0 dW0_0_0 dW1_0_0 = a5
+  generalize Gen.grad_milstein_i_scalar_11_gf_g_d2_30df7870a577 sqrt f f_d1 f_d2 g g_d1 g_d2 t0 t2 dt y0_0_0 theta v_0_0 dW0_0_0 dW1_0_0 = a6
+  generalize Gen.grad_milstein_i_scalar_11_gf_g_d2_5f1ed0e1d509 sqrt f f_d1 f_d2 g g_d1 g_d2 t0 t2 dt y0_0_0 theta v_0_0 dW0_0_0 dW1_0_0 = a7
+  generalize Gen.grad_milstein_i_scalar_11_gf_g_d2_722b7a6bbfae sqrt f f_d1 f_d2 g g_d1 g_d2 t0 t2 dt y0_0_0 theta v_0_0 dW0_0_0 dW1_0_0 = a8
+  generalize Gen.grad_milstein_i_scalar_11_gf_g_d2_9c51f97a67da sqrt f f_d1 f_d2 g g_d1 g_d2 t0 t2 dt y0_0_0 theta v_0_0 dW0_0_0 dW1_0_0 = a9
   ring
 
 set_option maxHeartbeats 4000000 in
-/-- `grad_milstein_s_diagonal_11`: backprop `gth` = forward derivative `tth` -/
-theorem grad_milstein_s_diagonal_11_gth  (f : K → K → K → K) (f_d1 : K → K → K → K) (f_d2 : K → K → K → K) (g : K → K → K → K) (g_d1 : K → K → K → K) (g_d11 : K → K → K → K) (g_d12 : K → K → K → K) (g_d2 : K → K → K → K) (t0 t2 dt y0_0_0 theta v_0_0 dW0_0_0 dW1_0_0 : K) :
-    Gen.grad_milstein_s_diagonal_11_gth f f_d1 f_d2 g g_d1 g_d11 g_d12 g_d2 t0 t2 dt y0_0_0 theta v_0_0 dW0_0_0 dW1_0_0 = Gen.grad_milstein_s_diagonal_11_tth f f_d1 f_d2 g g_d1 g_d11 g_d12 g_d2 t0 t2 dt y0_0_0 theta v_0_0 dW0_0_0 dW1_0_0 := by
-  simp only [Gen.grad_milstein_s_diagonal_11_gth, Gen.grad_milstein_s_diagonal_11_tth]
-  generalize Gen.grad_milstein_s_diagonal_11_f_d1_d1594caba5a3 f f_d1 f_d2 g g_d1 g_d11 g_d12 g_d2 t0 t2 dt y0_0_0 theta v_0_0 dW0_0_0 dW1_0_0 = a0
-  generalize Gen.grad_milstein_s_diagonal_11_f_d2_19f2c5491e7e f f_d1 f_d2 g g_d1 g_d11 g_d12 g_d2 t0 t2 dt y0_0_0 theta v_0_0 dW0_0_0 dW1_0_0 = a1
-  generalize Gen.grad_milstein_s_diagonal_11_f_d2_75ad011491cf f f_d1 f_d2 g g_d1 g_d11 g_d12 g_d2 t0 t2 dt y0_0_0 theta v_0_0 dW0_0_0 dW1_0_0 = a2
-  generalize Gen.grad_milstein_s_diagonal_11_g_91660bdd818e f f_d1 f_d2 g g_d1 g_d11 g_d12 g_d2 t0 t2 dt y0_0_0 theta v_0_0 dW0_0_0 dW1_0_0 = a3
-  generalize Gen.grad_milstein_s_diagonal_11_g_d11_ac6c316b1b1e f f_d1 f_d2 g g_d1 g_d11 g_d12 g_d2 t0 t2 dt y0_0_0 theta v_0_0 dW0_0_0 dW1_0_0 = a4
-  generalize Gen.grad_milstein_s_diagonal_11_g_d12_40f4a140374f f f_d1 f_d2 g g_d1 g_d11 g_d12 g_d2 t0 t2 dt y0_0_0 theta v_0_0 dW0_0_0 dW1_0_0 = a5
-  generalize Gen.grad_milstein_s_diagonal_11_g_d12_a9aa2e37d5f4 f f_d1 f_d2 g g_d1 g_d11 g_d12 g_d2 t0 t2 dt y0_0_0 theta v_0_0 dW0_0_0 dW1_0_0 = a6
-  generalize Gen.grad_milstein_s_diagonal_11_g_d1_1704cf843a85 f f_d1 f_d2 g g_d1 g_d11 g_d12 g_d2 t0 t2 dt y0_0_0 theta v_0_0 dW0_0_0 dW1_0_0 = a7
-  generalize Gen.grad_milstein_s_diagonal_11_g_d1_ddd0c5e556e2 f f_d1 f_d2 g g_d1 g_d11 g_d12 g_d2 t0 t2 dt y0_0_0 theta v_0_0 dW0_0_0 dW1_0_0 = a8
-  generalize Gen.grad_milstein_s_diagonal_11_g_d2_722b7a6bbfae f f_d1 f_d2 g g_d1 g_d11 g_d12 g_d2 t0 t2 dt y0_0_0 theta v_0_0 dW0_0_0 dW1_0_0 = a9
-  generalize Gen.grad_milstein_s_diagonal_11_g_d2_b13a46e3cda9 f f_d1 f_d2 g g_d1 g_d11 g_d12 g_d2 t0 t2 dt y0_0_0 theta v_0_0 dW0_0_0 dW1_0_0 = a10
-  generalize Gen.grad_milstein_s_diagonal_11_g_db15086d257d f f_d1 f_d2 g g_d1 g_d11 g_d12 g_d2 t0 t2 dt y0_0_0 theta v_0_0 dW0_0_0 dW1_0_0 = a11
+/-- `grad_milstein_i_scalar_11_gf`: backprop `gy_0_0` = forward derivative `ty_0_0` -/
+theorem grad_milstein_i_scalar_11_gf_gy_0_0 (sqrt : K → K) (f : K → K → K → K) (f_d1 : K → K → K → K) (f_d2 : K → K → K → K) (g : K → K → K → K) (g_d1 : K → K → K → K) (g_d2 : K → K → K → K) (t0 t2 dt y0_0_0 theta v_0_0 dW0_0_0 dW1_0_0 : K) :
+    Gen.grad_milstein_i_scalar_11_gf_gy_0_0 sqrt f f_d1 f_d2 g g_d1 g_d2 t0 t2 dt y0_0_0 theta v_0_0 dW0_0_0 dW1_0_0 = Gen.grad_milstein_i_scalar_11_gf_ty_0_0 sqrt f f_d1 f_d2 g g_d1 g_d2 t0 t2 dt y0_0_0 theta v_0_0 dW0_0_0 dW1_0_0 := by
+  simp only [Gen.grad_milstein_i_scalar_11_gf_gy_0_0, Gen.grad_milstein_i_scalar_11_gf_ty_0_0]
+  generalize Gen.grad_milstein_i_scalar_11_gf_f_d1_0d13626a177a sqrt f f_d1 f_d2 g g_d1 g_d2 t0 t2 dt y0_0_0 theta v_0_0 dW0_0_0 dW1_0_0 = a0
+  generalize Gen.grad_milstein_i_scalar_11_gf_f_d1_b39c2b677c13 sqrt f f_d1 f_d2 g g_d1 g_d2 t0 t2 dt y0_0_0 theta v_0_0 dW0_0_0 dW1_0_0 = a1
+  generalize Gen.grad_milstein_i_scalar_11_gf_g_d1_02b813f80bf9 sqrt f f_d1 f_d2 g g_d1 g_d2 t0 t2 dt y0_0_0 theta v_0_0 dW0_0_0 dW1_0_0 = a2
+  generalize Gen.grad_milstein_i_scalar_11_gf_g_d1_ddd0c5e556e2 sqrt f f_d1 f_d2 g g_d1 g_d2 t0 t2 dt y0_0_0 theta v_0_0 dW0_0_0 dW1_0_0 = a3
+  generalize Gen.grad_milstein_i_scalar_11_gf_g_d1_fcbd887f1bc8 sqrt f f_d1 f_d2 g g_d1 g_d2 t0 t2 dt y0_0_0 theta v_0_0 dW0_0_0 dW1_0_0 = a4
+  generalize Gen.grad_milstein_i_scalar_11_gf_g_d1_fe90e523b752 sqrt f f_d1 f_d2 g g_d1 g_d2 t0 t2 dt y0_0_0 theta v_0_0 dW0_0_0 dW1_0_0 = a5
   ring
 
 set_option maxHeartbeats 4000000 in
-/-- `grad_srk_i_additive_11`: backprop `gy_0_0` = forward derivative `ty_0_0` -/
-theorem grad_srk_i_additive_11_gy_0_0  (f : K → K → K → K) (f_d1 : K → K → K → K) (f_d2 : K → K → K → K) (g : K → K → K) (g_d1 : K → K → K) (t0 t2 dt y0_0_0 theta v_0_0 dW0_0_0 dW1_0_0 U0_0_0 U1_0_0 : K) :
-    Gen.grad_srk_i_additive_11_gy_0_0 f f_d1 f_d2 g g_d1 t0 t2 dt y0_0_0 theta v_0_0 dW0_0_0 dW1_0_0 U0_0_0 U1_0_0 = Gen.grad_srk_i_additive_11_ty_0_0 f f_d1 f_d2 g g_d1 t0 t2 dt y0_0_0 theta v_0_0 dW0_0_0 dW1_0_0 U0_0_0 U1_0_0 := by
-  simp only [Gen.grad_srk_i_additive_11_gy_0_0, Gen.grad_srk_i_additive_11_ty_0_0]
-  generalize Gen.grad_srk_i_additive_11_f_d1_545967cf36f9 f f_d1 f_d2 g g_d1 t0 t2 dt y0_0_0 theta v_0_0 dW0_0_0 dW1_0_0 U0_0_0 U1_0_0 = a0
-  generalize Gen.grad_srk_i_additive_11_f_d1_64d33f84f551 f f_d1 f_d2 g g_d1 t0 t2 dt y0_0_0 theta v_0_0 dW0_0_0 dW1_0_0 U0_0_0 U1_0_0 = a1
-  generalize Gen.grad_srk_i_additive_11_f_d1_7cd00cd9dc7c f f_d1 f_d2 g g_d1 t0 t2 dt y0_0_0 theta v_0_0 dW0_0_0 dW1_0_0 U0_0_0 U1_0_0 = a2
-  generalize Gen.grad_srk_i_additive_11_f_d1_9b8e7a820dfa f f_d1 f_d2 g g_d1 t0 t2 dt y0_0_0 theta v_0_0 dW0_0_0 dW1_0_0 U0_0_0 U1_0_0 = a3
+/-- `grad_milstein_s_scalar_11`: backprop `gth` = forward derivative `tth` -/
+theorem grad_milstein_s_scalar_11_gth  (f : K → K → K → K) (f_d1 : K → K → K → K) (f_d2 : K → K → K → K) (g : K → K → K → K) (g_d1 : K → K → K → K) (g_d11 : K → K → K → K) (g_d12 : K → K → K → K) (g_d2 : K → K → K → K) (t0 t2 dt y0_0_0 theta v_0_0 dW0_0_0 dW1_0_0 : K) :
+    Gen.grad_milstein_s_scalar_11_gth f f_d1 f_d2 g g_d1 g_d11 g_d12 g_d2 t0 t2 dt y0_0_0 theta v_0_0 dW0_0_0 dW1_0_0 = Gen.grad_milstein_s_scalar_11_tth f f_d1 f_d2 g g_d1 g_d11 g_d12 g_d2 t0 t2 dt y0_0_0 theta v_0_0 dW0_0_0 dW1_0_0 := by
+  simp only [Gen.grad_milstein_s_scalar_11_gth, Gen.grad_milstein_s_scalar_11_tth]
+  generalize Gen.grad_milstein_s_scalar_11_f_d1_d1594caba5a3 f f_d1 f_d2 g g_d1 g_d11 g_d12 g_d2 t0 t2 dt y0_0_0 theta v_0_0 dW0_0_0 dW1_0_0 = a0
+  generalize Gen.grad_milstein_s_scalar_11_f_d2_19f2c5491e7e f f_d1 f_d2 g g_d1 g_d11 g_d12 g_d2 t0 t2 dt y0_0_0 theta v_0_0 dW0_0_0 dW1_0_0 = a1
+  generalize Gen.grad_milstein_s_scalar_11_f_d2_75ad011491cf f f_d1 f_d2 g g_d1 g_d11 g_d12 g_d2 t0 t2 dt y0_0_0 theta v_0_0 dW0_0_0 dW1_0_0 = a2
+  generalize Gen.grad_milstein_s_scalar_11_g_91660bdd818e f f_d1 f_d2 g g_d1 g_d11 g_d12 g_d2 t0 t2 dt y0_0_0 theta v_0_0 dW0_0_0 dW1_0_0 = a3
+  generalize Gen.grad_milstein_s_scalar_11_g_d11_ac6c316b1b1e f f_d1 f_d2 g g_d1 g_d11 g_d12 g_d2 t0 t2 dt y0_0_0 theta v_0_0 dW0_0_0 dW1_0_0 = a4
+  generalize Gen.grad_milstein_s_scalar_11_g_d12_40f4a140374f f f_d1 f_d2 g g_d1 g_d11 g_d12 g_d2 t0 t2 dt y0_0_0 theta v_0_0 dW0_0_0 dW1_0_0 = a5
+  generalize Gen.grad_milstein_s_scalar_11_g_d12_a9aa2e37d5f4 f f_d1 f_d2 g g_d1 g_d11 g_d12 g_d2 t0 t2 dt y0_0_0 theta v_0_0 dW0_0_0 dW1_0_0 = a6
+  generalize Gen.grad_milstein_s_scalar_11_g_d1_1704cf843a85 f f_d1 f_d2 g g_d1 g_d11 g_d12 g_d2 t0 t2 dt y0_0_0 theta v_0_0 dW0_0_0 dW1_0_0 = a7
+  generalize Gen.grad_milstein_s_scalar_11_g_d1_ddd0c5e556e2 f f_d1 f_d2 g g_d1 g_d11 g_d12 g_d2 t0 t2 dt y0_0_0 theta v_0_0 dW0_0_0 dW1_0_0 = a8
+  generalize Gen.grad_milstein_s_scalar_11_g_d2_722b7a6bbfae f f_d1 f_d2 g g_d1 g_d11 g_d12 g_d2 t0 t2 dt y0_0_0 theta v_0_0 dW0_0_0 dW1_0_0 = a9
+  generalize Gen.grad_milstein_s_scalar_11_g_d2_b13a46e3cda9 f f_d1 f_d2 g g_d1 g_d11 g_d12 g_d2 t0 t2 dt y0_0_0 theta v_0_0 dW0_0_0 dW1_0_0 = a10
+  generalize Gen.grad_milstein_s_scalar_11_g_db15086d257d f f_d1 f_d2 g g_d1 g_d11 g_d12 g_d2 t0 t2 dt y0_0_0 theta v_0_0 dW0_0_0 dW1_0_0 = a11
   ring
 
 set_option maxHeartbeats 4000000 in
-/-- `grad_srk_i_additive_11`: backprop `gth` = forward derivative `tth` -/
-theorem grad_srk_i_additive_11_gth  (f : K → K → K → K) (f_d1 : K → K → K → K) (f_d2 : K → K → K → K) (g : K → K → K) (g_d1 : K → K → K) (t0 t2 dt y0_0_0 theta v_0_0 dW0_0_0 dW1_0_0 U0_0_0 U1_0_0 : K) :
-    Gen.grad_srk_i_additive_11_gth f f_d1 f_d2 g g_d1 t0 t2 dt y0_0_0 theta v_0_0 dW0_0_0 dW1_0_0 U0_0_0 U1_0_0 = Gen.grad_srk_i_additive_11_tth f f_d1 f_d2 g g_d1 t0 t2 dt y0_0_0 theta v_0_0 dW0_0_0 dW1_0_0 U0_0_0 U1_0_0 := by
-  simp only [Gen.grad_srk_i_additive_11_gth, Gen.grad_srk_i_additive_11_tth]
-  generalize Gen.grad_srk_i_additive_11_f_d1_545967cf36f9 f f_d1 f_d2 g g_d1 t0 t2 dt y0_0_0 theta v_0_0 dW0_0_0 dW1_0_0 U0_0_0 U1_0_0 = a0
-  generalize Gen.grad_srk_i_additive_11_f_d1_64d33f84f551 f f_d1 f_d2 g g_d1 t0 t2 dt y0_0_0 theta v_0_0 dW0_0_0 dW1_0_0 U0_0_0 U1_0_0 = a1
-  generalize Gen.grad_srk_i_additive_11_f_d1_9b8e7a820dfa f f_d1 f_d2 g g_d1 t0 t2 dt y0_0_0 theta v_0_0 dW0_0_0 dW1_0_0 U0_0_0 U1_0_0 = a2
-  generalize Gen.grad_srk_i_additive_11_f_d2_30982717492d f f_d1 f_d2 g g_d1 t0 t2 dt y0_0_0 theta v_0_0 dW0_0_0 dW1_0_0 U0_0_0 U1_0_0 = a3
-  generalize Gen.grad_srk_i_additive_11_f_d2_310d86aaeece f f_d1 f_d2 g g_d1 t0 t2 dt y0_0_0 theta v_0_0 dW0_0_0 dW1_0_0 U0_0_0 U1_0_0 = a4
-  generalize Gen.grad_srk_i_additive_11_f_d2_a07465717661 f f_d1 f_d2 g g_d1 t0 t2 dt y0_0_0 theta v_0_0 dW0_0_0 dW1_0_0 U0_0_0 U1_0_0 = a5
-  generalize Gen.grad_srk_i_additive_11_f_d2_ed095023b578 f f_d1 f_d2 g g_d1 t0 t2 dt y0_0_0 theta v_0_0 dW0_0_0 dW1_0_0 U0_0_0 U1_0_0 = a6
-  generalize Gen.grad_srk_i_additive_11_g_d1_844941673c3d f f_d1 f_d2 g g_d1 t0 t2 dt y0_0_0 theta v_0_0 dW0_0_0 dW1_0_0 U0_0_0 U1_0_0 = a7
-  generalize Gen.grad_srk_i_additive_11_g_d1_8e9c9cac2da9 f f_d1 f_d2 g g_d1 t0 t2 dt y0_0_0 theta v_0_0 dW0_0_0 dW1_0_0 U0_0_0 U1_0_0 = a8
-  generalize Gen.grad_srk_i_additive_11_g_d1_d2534fdecd73 f f_d1 f_d2 g g_d1 t0 t2 dt y0_0_0 theta v_0_0 dW0_0_0 dW1_0_0 U0_0_0 U1_0_0 = a9
-  generalize Gen.grad_srk_i_additive_11_g_d1_dcd6717989e1 f f_d1 f_d2 g g_d1 t0 t2 dt y0_0_0 theta v_0_0 dW0_0_0 dW1_0_0 U0_0_0 U1_0_0 = a10
+/-- `grad_milstein_s_scalar_11`: backprop `gy_0_0` = forward derivative `ty_0_0` -/
+theorem grad_milstein_s_scalar_11_gy_0_0  (f : K → K → K → K) (f_d1 : K → K → K → K) (f_d2 : K → K → K → K) (g : K → K → K → K) (g_d1 : K → K → K → K) (g_d11 : K → K → K → K) (g_d12 : K → K → K → K) (g_d2 : K → K → K → K) (t0 t2 dt y0_0_0 theta v_0_0 dW0_0_0 dW1_0_0 : K) :
+    Gen.grad_milstein_s_scalar_11_gy_0_0 f f_d1 f_d2 g g_d1 g_d11 g_d12 g_d2 t0 t2 dt y0_0_0 theta v_0_0 dW0_0_0 dW1_0_0 = Gen.grad_milstein_s_scalar_11_ty_0_0 f f_d1 f_d2 g g_d1 g_d11 g_d12 g_d2 t0 t2 dt y0_0_0 theta v_0_0 dW0_0_0 dW1_0_0 := by
+  simp only [Gen.grad_milstein_s_scalar_11_gy_0_0, Gen.grad_milstein_s_scalar_11_ty_0_0]
+  generalize Gen.grad_milstein_s_scalar_11_f_d1_b39c2b677c13 f f_d1 f_d2 g g_d1 g_d11 g_d12 g_d2 t0 t2 dt y0_0_0 theta v_0_0 dW0_0_0 dW1_0_0 = a0
+  generalize Gen.grad_milstein_s_scalar_11_f_d1_d1594caba5a3 f f_d1 f_d2 g g_d1 g_d11 g_d12 g_d2 t0 t2 dt y0_0_0 theta v_0_0 dW0_0_0 dW1_0_0 = a1
+  generalize Gen.grad_milstein_s_scalar_11_g_91660bdd818e f f_d1 f_d2 g g_d1 g_d11 g_d12 g_d2 t0 t2 dt y0_0_0 theta v_0_0 dW0_0_0 dW1_0_0 = a2
+  generalize Gen.grad_milstein_s_scalar_11_g_d11_9d3773187952 f f_d1 f_d2 g g_d1 g_d11 g_d12 g_d2 t0 t2 dt y0_0_0 theta v_0_0 dW0_0_0 dW1_0_0 = a3
+  generalize Gen.grad_milstein_s_scalar_11_g_d11_ac6c316b1b1e f f_d1 f_d2 g g_d1 g_d11 g_d12 g_d2 t0 t2 dt y0_0_0 theta v_0_0 dW0_0_0 dW1_0_0 = a4
+  generalize Gen.grad_milstein_s_scalar_11_g_d1_1704cf843a85 f f_d1 f_d2 g g_d1 g_d11 g_d12 g_d2 t0 t2 dt y0_0_0 theta v_0_0 dW0_0_0 dW1_0_0 = a5
+  generalize Gen.grad_milstein_s_scalar_11_g_d1_ddd0c5e556e2 f f_d1 f_d2 g g_d1 g_d11 g_d12 g_d2 t0 t2 dt y0_0_0 theta v_0_0 dW0_0_0 dW1_0_0 = a6
+  generalize Gen.grad_milstein_s_scalar_11_g_db15086d257d f f_d1 f_d2 g g_d1 g_d11 g_d12 g_d2 t0 t2 dt y0_0_0 theta v_0_0 dW0_0_0 dW1_0_0 = a7
   ring
 
 set_option maxHeartbeats 4000000 in
-/-- `grad_heun_s_diagonal_11`: backprop `gy_0_0` = forward derivative `ty_0_0` -/
-theorem grad_heun_s_diagonal_11_gy_0_0  (f : K → K → K → K) (f_d1 : K → K → K → K) (f_d2 : K → K → K → K) (g : K → K → K → K) (g_d1 : K → K → K → K) (g_d2 : K → K → K → K) (t0 t2 dt y0_0_0 theta v_0_0 dW0_0_0 dW1_0_0 : K) :
-    Gen.grad_heun_s_diagonal_11_gy_0_0 f f_d1 f_d2 g g_d1 g_d2 t0 t2 dt y0_0_0 theta v_0_0 dW0_0_0 dW1_0_0 = Gen.grad_heun_s_diagonal_11_ty_0_0 f f_d1 f_d2 g g_d1 g_d2 t0 t2 dt y0_0_0 theta v_0_0 dW0_0_0 dW1_0_0 := by
-  simp only [Gen.grad_heun_s_diagonal_11_gy_0_0, Gen.grad_heun_s_diagonal_11_ty_0_0]
-  generalize Gen.grad_heun_s_diagonal_11_f_d1_850996a283cd f f_d1 f_d2 g g_d1 g_d2 t0 t2 dt y0_0_0 theta v_0_0 dW0_0_0 dW1_0_0 = a0
-  generalize Gen.grad_heun_s_diagonal_11_f_d1_a0c409c02ee2 f f_d1 f_d2 g g_d1 g_d2 t0 t2 dt y0_0_0 theta v_0_0 dW0_0_0 dW1_0_0 = a1
-  generalize Gen.grad_heun_s_diagonal_11_f_d1_aa6f717505bc f f_d1 f_d2 g g_d1 g_d2 t0 t2 dt y0_0_0 theta v_0_0 dW0_0_0 dW1_0_0 = a2
-  generalize Gen.grad_heun_s_diagonal_11_f_d1_b39c2b677c13 f f_d1 f_d2 g g_d1 g_d2 t0 t2 dt y0_0_0 theta v_0_0 dW0_0_0 dW1_0_0 = a3
-  generalize Gen.grad_heun_s_diagonal_11_g_d1_32d16569e2d0 f f_d1 f_d2 g g_d1 g_d2 t0 t2 dt y0_0_0 theta v_0_0 dW0_0_0 dW1_0_0 = a4
-  generalize Gen.grad_heun_s_diagonal_11_g_d1_506c676fd130 f f_d1 f_d2 g g_d1 g_d2 t0 t2 dt y0_0_0 theta v_0_0 dW0_0_0 dW1_0_0 = a5
-  generalize Gen.grad_heun_s_diagonal_11_g_d1_6a8c15d1c454 f f_d1 f_d2 g g_d1 g_d2 t0 t2 dt y0_0_0 theta v_0_0 dW0_0_0 dW1_0_0 = a6
-  generalize Gen.grad_heun_s_diagonal_11_g_d1_ddd0c5e556e2 f f_d1 f_d2 g g_d1 g_d2 t0 t2 dt y0_0_0 theta v_0_0 dW0_0_0 dW1_0_0 = a7
+/-- `gradp_srk_i_additive_11`: backprop `gth` = forward derivative `tth` -/
+theorem gradp_srk_i_additive_11_gth  (f : K → K → K → K) (f_d1 : K → K → K → K) (f_d2 : K → K → K → K) (g : K → K → K) (g_d1 : K → K → K) (t0 t2 dt y0_0_0 theta v_0_0 dW0_0_0 dW1_0_0 U0_0_0 U1_0_0 : K) :
+    Gen.gradp_srk_i_additive_11_gth f f_d1 f_d2 g g_d1 t0 t2 dt y0_0_0 theta v_0_0 dW0_0_0 dW1_0_0 U0_0_0 U1_0_0 = Gen.gradp_srk_i_additive_11_tth f f_d1 f_d2 g g_d1 t0 t2 dt y0_0_0 theta v_0_0 dW0_0_0 dW1_0_0 U0_0_0 U1_0_0 := by
+  simp only [Gen.gradp_srk_i_additive_11_gth, Gen.gradp_srk_i_additive_11_tth]
+  generalize Gen.gradp_srk_i_additive_11_f_d1_545967cf36f9 f f_d1 f_d2 g g_d1 t0 t2 dt y0_0_0 theta v_0_0 dW0_0_0 dW1_0_0 U0_0_0 U1_0_0 = a0
+  generalize Gen.gradp_srk_i_additive_11_f_d1_64d33f84f551 f f_d1 f_d2 g g_d1 t0 t2 dt y0_0_0 theta v_0_0 dW0_0_0 dW1_0_0 U0_0_0 U1_0_0 = a1
+  generalize Gen.gradp_srk_i_additive_11_f_d1_9b8e7a820dfa f f_d1 f_d2 g g_d1 t0 t2 dt y0_0_0 theta v_0_0 dW0_0_0 dW1_0_0 U0_0_0 U1_0_0 = a2
+  generalize Gen.gradp_srk_i_additive_11_f_d2_30982717492d f f_d1 f_d2 g g_d1 t0 t2 dt y0_0_0 theta v_0_0 dW0_0_0 dW1_0_0 U0_0_0 U1_0_0 = a3
+  generalize Gen.gradp_srk_i_additive_11_f_d2_310d86aaeece f f_d1 f_d2 g g_d1 t0 t2 dt y0_0_0 theta v_0_0 dW0_0_0 dW1_0_0 U0_0_0 U1_0_0 = a4
+  generalize Gen.gradp_srk_i_additive_11_f_d2_a07465717661 f f_d1 f_d2 g g_d1 t0 t2 dt y0_0_0 theta v_0_0 dW0_0_0 dW1_0_0 U0_0_0 U1_0_0 = a5
+  generalize Gen.gradp_srk_i_additive_11_f_d2_ed095023b578 f f_d1 f_d2 g g_d1 t0 t2 dt y0_0_0 theta v_0_0 dW0_0_0 dW1_0_0 U0_0_0 U1_0_0 = a6
+  generalize Gen.gradp_srk_i_additive_11_g_d1_844941673c3d f f_d1 f_d2 g g_d1 t0 t2 dt y0_0_0 theta v_0_0 dW0_0_0 dW1_0_0 U0_0_0 U1_0_0 = a7
+  generalize Gen.gradp_srk_i_additive_11_g_d1_8e9c9cac2da9 f f_d1 f_d2 g g_d1 t0 t2 dt y0_0_0 theta v_0_0 dW0_0_0 dW1_0_0 U0_0_0 U1_0_0 = a8
+  generalize Gen.gradp_srk_i_additive_11_g_d1_d2534fdecd73 f f_d1 f_d2 g g_d1 t0 t2 dt y0_0_0 theta v_0_0 dW0_0_0 dW1_0_0 U0_0_0 U1_0_0 = a9
+  generalize Gen.gradp_srk_i_additive_11_g_d1_dcd6717989e1 f f_d1 f_d2 g g_d1 t0 t2 dt y0_0_0 theta v_0_0 dW0_0_0 dW1_0_0 U0_0_0 U1_0_0 = a10
   ring
 
 set_option maxHeartbeats 4000000 in
-/-- `grad_heun_s_diagonal_11`: backprop `gth` = forward derivative `tth` -/
-theorem grad_heun_s_diagonal_11_gth  (f : K → K → K → K) (f_d1 : K → K → K → K) (f_d2 : K → K → K → K) (g : K → K → K → K) (g_d1 : K → K → K → K) (g_d2 : K → K → K → K) (t0 t2 dt y0_0_0 theta v_0_0 dW0_0_0 dW1_0_0 : K) :
-    Gen.grad_heun_s_diagonal_11_gth f f_d1 f_d2 g g_d1 g_d2 t0 t2 dt y0_0_0 theta v_0_0 dW0_0_0 dW1_0_0 = Gen.grad_heun_s_diagonal_11_tth f f_d1 f_d2 g g_d1 g_d2 t0 t2 dt y0_0_0 theta v_0_0 dW0_0_0 dW1_0_0 := by
-  simp only [Gen.grad_heun_s_diagonal_11_gth, Gen.grad_heun_s_diagonal_11_tth]
-  generalize Gen.grad_heun_s_diagonal_11_f_d1_850996a283cd f f_d1 f_d2 g g_d1 g_d2 t0 t2 dt y0_0_0 theta v_0_0 dW0_0_0 dW1_0_0 = a0
-  generalize Gen.grad_heun_s_diagonal_11_f_d1_a0c409c02ee2 f f_d1 f_d2 g g_d1 g_d2 t0 t2 dt y0_0_0 theta v_0_0 dW0_0_0 dW1_0_0 = a1
-  generalize Gen.grad_heun_s_diagonal_11_f_d1_aa6f717505bc f f_d1 f_d2 g g_d1 g_d2 t0 t2 dt y0_0_0 theta v_0_0 dW0_0_0 dW1_0_0 = a2
-  generalize Gen.grad_heun_s_diagonal_11_f_d2_75ad011491cf f f_d1 f_d2 g g_d1 g_d2 t0 t2 dt y0_0_0 theta v_0_0 dW0_0_0 dW1_0_0 = a3
-  generalize Gen.grad_heun_s_diagonal_11_f_d2_85fb27cb9ecd f f_d1 f_d2 g g_d1 g_d2 t0 t2 dt y0_0_0 theta v_0_0 dW0_0_0 dW1_0_0 = a4
-  generalize Gen.grad_heun_s_diagonal_11_f_d2_f0ddd094ca46 f f_d1 f_d2 g g_d1 g_d2 t0 t2 dt y0_0_0 theta v_0_0 dW0_0_0 dW1_0_0 = a5
-  generalize Gen.grad_heun_s_diagonal_11_f_d2_f2b7d9350614 f f_d1 f_d2 g g_d1 g_d2 t0 t2 dt y0_0_0 theta v_0_0 dW0_0_0 dW1_0_0 = a6
-  generalize Gen.grad_heun_s_diagonal_11_g_d1_32d16569e2d0 f f_d1 f_d2 g g_d1 g_d2 t0 t2 dt y0_0_0 theta v_0_0 dW0_0_0 dW1_0_0 = a7
-  generalize Gen.grad_heun_s_diagonal_11_g_d1_506c676fd130 f f_d1 f_d2 g g_d1 g_d2 t0 t2 dt y0_0_0 theta v_0_0 dW0_0_0 dW1_0_0 = a8
-  generalize Gen.grad_heun_s_diagonal_11_g_d1_6a8c15d1c454 f f_d1 f_d2 g g_d1 g_d2 t0 t2 dt y0_0_0 theta v_0_0 dW0_0_0 dW1_0_0 = a9
-  generalize Gen.grad_heun_s_diagonal_11_g_d2_02f255630af5 f f_d1 f_d2 g g_d1 g_d2 t0 t2 dt y0_0_0 theta v_0_0 dW0_0_0 dW1_0_0 = a10
-  generalize Gen.grad_heun_s_diagonal_11_g_d2_4079b3c76e81 f f_d1 f_d2 g g_d1 g_d2 t0 t2 dt y0_0_0 theta v_0_0 dW0_0_0 dW1_0_0 = a11
-  generalize Gen.grad_heun_s_diagonal_11_g_d2_46fb04d4bfcb f f_d1 f_d2 g g_d1 g_d2 t0 t2 dt y0_0_0 theta v_0_0 dW0_0_0 dW1_0_0 = a12
-  generalize Gen.grad_heun_s_diagonal_11_g_d2_722b7a6bbfae f f_d1 f_d2 g g_d1 g_d2 t0 t2 dt y0_0_0 theta v_0_0 dW0_0_0 dW1_0_0 = a13
+/-- `gradp_euler_heun_s_additive_11`: backprop `gth` = forward derivative `tth` -/
+theorem gradp_euler_heun_s_additive_11_gth  (f : K → K → K → K) (f_d1 : K → K → K → K) (f_d2 : K → K → K → K) (g : K → K → K) (g_d1 : K → K → K) (t0 t2 dt y0_0_0 theta v_0_0 dW0_0_0 dW1_0_0 : K) :
+    Gen.gradp_euler_heun_s_additive_11_gth f f_d1 f_d2 g g_d1 t0 t2 dt y0_0_0 theta v_0_0 dW0_0_0 dW1_0_0 = Gen.gradp_euler_heun_s_additive_11_tth f f_d1 f_d2 g g_d1 t0 t2 dt y0_0_0 theta v_0_0 dW0_0_0 dW1_0_0 := by
+  simp only [Gen.gradp_euler_heun_s_additive_11_gth, Gen.gradp_euler_heun_s_additive_11_tth]
+  generalize Gen.gradp_euler_heun_s_additive_11_f_d1_2a025112a416 f f_d1 f_d2 g g_d1 t0 t2 dt y0_0_0 theta v_0_0 dW0_0_0 dW1_0_0 = a0
+  generalize Gen.gradp_euler_heun_s_additive_11_f_d2_75ad011491cf f f_d1 f_d2 g g_d1 t0 t2 dt y0_0_0 theta v_0_0 dW0_0_0 dW1_0_0 = a1
+  generalize Gen.gradp_euler_heun_s_additive_11_f_d2_76acf2c8bf43 f f_d1 f_d2 g g_d1 t0 t2 dt y0_0_0 theta v_0_0 dW0_0_0 dW1_0_0 = a2
+  generalize Gen.gradp_euler_heun_s_additive_11_g_d1_098edafcd8e5 f f_d1 f_d2 g g_d1 t0 t2 dt y0_0_0 theta v_0_0 dW0_0_0 dW1_0_0 = a3
+  generalize Gen.gradp_euler_heun_s_additive_11_g_d1_39aaf857762f f f_d1 f_d2 g g_d1 t0 t2 dt y0_0_0 theta v_0_0 dW0_0_0 dW1_0_0 = a4
+  generalize Gen.gradp_euler_heun_s_additive_11_g_d1_3d49352567ba f f_d1 f_d2 g g_d1 t0 t2 dt y0_0_0 theta v_0_0 dW0_0_0 dW1_0_0 = a5
   ring
 
 set_option maxHeartbeats 4000000 in
-/-- `grad_midpoint_s_scalar_11`: backprop `gy_0_0` = forward derivative `ty_0_0` -/
-theorem grad_midpoint_s_scalar_11_gy_0_0  (f : K → K → K → K) (f_d1 : K → K → K → K) (f_d2 : K → K → K → K) (g : K → K → K → K) (g_d1 : K → K → K → K) (g_d2 : K → K → K → K) (t0 t2 dt y0_0_0 theta v_0_0 dW0_0_0 dW1_0_0 : K) :
-    Gen.grad_midpoint_s_scalar_11_gy_0_0 f f_d1 f_d2 g g_d1 g_d2 t0 t2 dt y0_0_0 theta v_0_0 dW0_0_0 dW1_0_0 = Gen.grad_midpoint_s_scalar_11_ty_0_0 f f_d1 f_d2 g g_d1 g_d2 t0 t2 dt y0_0_0 theta v_0_0 dW0_0_0 dW1_0_0 := by
-  simp only [Gen.grad_midpoint_s_scalar_11_gy_0_0, Gen.grad_midpoint_s_scalar_11_ty_0_0]
-  generalize Gen.grad_midpoint_s_scalar_11_f_d1_5ee6dd087015 f f_d1 f_d2 g g_d1 g_d2 t0 t2 dt y0_0_0 theta v_0_0 dW0_0_0 dW1_0_0 = a0
-  generalize Gen.grad_midpoint_s_scalar_11_f_d1_703972b470e0 f f_d1 f_d2 g g_d1 g_d2 t0 t2 dt y0_0_0 theta v_0_0 dW0_0_0 dW1_0_0 = a1
-  generalize Gen.grad_midpoint_s_scalar_11_f_d1_b39c2b677c13 f f_d1 f_d2 g g_d1 g_d2 t0 t2 dt y0_0_0 theta v_0_0 dW0_0_0 dW1_0_0 = a2
-  generalize Gen.grad_midpoint_s_scalar_11_f_d1_ea194427e5d2 f f_d1 f_d2 g g_d1 g_d2 t0 t2 dt y0_0_0 theta v_0_0 dW0_0_0 dW1_0_0 = a3
-  generalize Gen.grad_midpoint_s_scalar_11_g_d1_4cebf89ea8f9 f f_d1 f_d2 g g_d1 g_d2 t0 t2 dt y0_0_0 theta v_0_0 dW0_0_0 dW1_0_0 = a4
-  generalize Gen.grad_midpoint_s_scalar_11_g_d1_6efd91c6bd6e f f_d1 f_d2 g g_d1 g_d2 t0 t2 dt y0_0_0 theta v_0_0 dW0_0_0 dW1_0_0 = a5
-  generalize Gen.grad_midpoint_s_scalar_11_g_d1_76b5237ed2e6 f f_d1 f_d2 g g_d1 g_d2 t0 t2 dt y0_0_0 theta v_0_0 dW0_0_0 dW1_0_0 = a6
-  generalize Gen.grad_midpoint_s_scalar_11_g_d1_ddd0c5e556e2 f f_d1 f_d2 g g_d1 g_d2 t0 t2 dt y0_0_0 theta v_0_0 dW0_0_0 dW1_0_0 = a7
+/-- `gradp_heun_s_diagonal_11`: backprop `gth` = forward derivative `tth` -/
+theorem gradp_heun_s_diagonal_11_gth  (f : K → K → K → K) (f_d1 : K → K → K → K) (f_d2 : K → K → K → K) (g : K → K → K → K) (g_d1 : K → K → K → K) (g_d2 : K → K → K → K) (t0 t2 dt y0_0_0 theta v_0_0 dW0_0_0 dW1_0_0 : K) :
+    Gen.gradp_heun_s_diagonal_11_gth f f_d1 f_d2 g g_d1 g_d2 t0 t2 dt y0_0_0 theta v_0_0 dW0_0_0 dW1_0_0 = Gen.gradp_heun_s_diagonal_11_tth f f_d1 f_d2 g g_d1 g_d2 t0 t2 dt y0_0_0 theta v_0_0 dW0_0_0 dW1_0_0 := by
+  simp only [Gen.gradp_heun_s_diagonal_11_gth, Gen.gradp_heun_s_diagonal_11_tth]
+  generalize Gen.gradp_heun_s_diagonal_11_f_d1_850996a283cd f f_d1 f_d2 g g_d1 g_d2 t0 t2 dt y0_0_0 theta v_0_0 dW0_0_0 dW1_0_0 = a0
+  generalize Gen.gradp_heun_s_diagonal_11_f_d1_a0c409c02ee2 f f_d1 f_d2 g g_d1 g_d2 t0 t2 dt y0_0_0 theta v_0_0 dW0_0_0 dW1_0_0 = a1
+  generalize Gen.gradp_heun_s_diagonal_11_f_d1_aa6f717505bc f f_d1 f_d2 g g_d1 g_d2 t0 t2 dt y0_0_0 theta v_0_0 dW0_0_0 dW1_0_0 = a2
+  generalize Gen.gradp_heun_s_diagonal_11_f_d2_75ad011491cf f f_d1 f_d2 g g_d1 g_d2 t0 t2 dt y0_0_0 theta v_0_0 dW0_0_0 dW1_0_0 = a3
+  generalize Gen.gradp_heun_s_diagonal_11_f_d2_85fb27cb9ecd f f_d1 f_d2 g g_d1 g_d2 t0 t2 dt y0_0_0 theta v_0_0 dW0_0_0 dW1_0_0 = a4
+  generalize Gen.gradp_heun_s_diagonal_11_f_d2_f0ddd094ca46 f f_d1 f_d2 g g_d1 g_d2 t0 t2 dt y0_0_0 theta v_0_0 dW0_0_0 dW1_0_0 = a5
+  generalize Gen.gradp_heun_s_diagonal_11_f_d2_f2b7d9350614 f f_d1 f_d2 g g_d1 g_d2 t0 t2 dt y0_0_0 theta v_0_0 dW0_0_0 dW1_0_0 = a6
+  generalize Gen.gradp_heun_s_diagonal_11_g_d1_32d16569e2d0 f f_d1 f_d2 g g_d1 g_d2 t0 t2 dt y0_0_0 theta v_0_0 dW0_0_0 dW1_0_0 = a7
+  generalize Gen.gradp_heun_s_diagonal_11_g_d1_506c676fd130 f f_d1 f_d2 g g_d1 g_d2 t0 t2 dt y0_0_0 theta v_0_0 dW0_0_0 dW1_0_0 = a8
+  generalize Gen.gradp_heun_s_diagonal_11_g_d1_6a8c15d1c454 f f_d1 f_d2 g g_d1 g_d2 t0 t2 dt y0_0_0 theta v_0_0 dW0_0_0 dW1_0_0 = a9
+  generalize Gen.gradp_heun_s_diagonal_11_g_d2_02f255630af5 f f_d1 f_d2 g g_d1 g_d2 t0 t2 dt y0_0_0 theta v_0_0 dW0_0_0 dW1_0_0 = a10
+  generalize Gen.gradp_heun_s_diagonal_11_g_d2_4079b3c76e81 f f_d1 f_d2 g g_d1 g_d2 t0 t2 dt y0_0_0 theta v_0_0 dW0_0_0 dW1_0_0 = a11
+  generalize Gen.gradp_heun_s_diagonal_11_g_d2_46fb04d4bfcb f f_d1 f_d2 g g_d1 g_d2 t0 t2 dt y0_0_0 theta v_0_0 dW0_0_0 dW1_0_0 = a12
+  generalize Gen.gradp_heun_s_diagonal_11_g_d2_722b7a6bbfae f f_d1 f_d2 g g_d1 g_d2 t0 t2 dt y0_0_0 theta v_0_0 dW0_0_0 dW1_0_0 = a13
   ring
 
 set_option maxHeartbeats 4000000 in
-/-- `grad_midpoint_s_scalar_11`: backprop `gth` = forward derivative `tth` -/
-theorem grad_midpoint_s_scalar_11_gth  (f : K → K → K → K) (f_d1 : K → K → K → K) (f_d2 : K → K → K → K) (g : K → K → K → K) (g_d1 : K → K → K → K) (g_d2 : K → K → K → K) (t0 t2 dt y0_0_0 theta v_0_0 dW0_0_0 dW1_0_0 : K) :
-    Gen.grad_midpoint_s_scalar_11_gth f f_d1 f_d2 g g_d1 g_d2 t0 t2 dt y0_0_0 theta v_0_0 dW0_0_0 dW1_0_0 = Gen.grad_midpoint_s_scalar_11_tth f f_d1 f_d2 g g_d1 g_d2 t0 t2 dt y0_0_0 theta v_0_0 dW0_0_0 dW1_0_0 := by
-  simp only [Gen.grad_midpoint_s_scalar_11_gth, Gen.grad_midpoint_s_scalar_11_tth]
-  generalize Gen.grad_midpoint_s_scalar_11_f_d1_5ee6dd087015 f f_d1 f_d2 g g_d1 g_d2 t0 t2 dt y0_0_0 theta v_0_0 dW0_0_0 dW1_0_0 = a0
-  generalize Gen.grad_midpoint_s_scalar_11_f_d1_703972b470e0 f f_d1 f_d2 g g_d1 g_d2 t0 t2 dt y0_0_0 theta v_0_0 dW0_0_0 dW1_0_0 = a1
-  generalize Gen.grad_midpoint_s_scalar_11_f_d1_ea194427e5d2 f f_d1 f_d2 g g_d1 g_d2 t0 t2 dt y0_0_0 theta v_0_0 dW0_0_0 dW1_0_0 = a2
-  generalize Gen.grad_midpoint_s_scalar_11_f_d2_0b924ab0a277 f f_d1 f_d2 g g_d1 g_d2 t0 t2 dt y0_0_0 theta v_0_0 dW0_0_0 dW1_0_0 = a3
-  generalize Gen.grad_midpoint_s_scalar_11_f_d2_75ad011491cf f f_d1 f_d2 g g_d1 g_d2 t0 t2 dt y0_0_0 theta v_0_0 dW0_0_0 dW1_0_0 = a4
-  generalize Gen.grad_midpoint_s_scalar_11_f_d2_7af3983cc4c0 f f_d1 f_d2 g g_d1 g_d2 t0 t2 dt y0_0_0 theta v_0_0 dW0_0_0 dW1_0_0 = a5
-  generalize Gen.grad_midpoint_s_scalar_11_f_d2_d7cbc9408b90 f f_d1 f_d2 g g_d1 g_d2 t0 t2 dt y0_0_0 theta v_0_0 dW0_0_0 dW1_0_0 = a6
-  generalize Gen.grad_midpoint_s_scalar_11_g_d1_4cebf89ea8f9 f f_d1 f_d2 g g_d1 g_d2 t0 t2 dt y0_0_0 theta v_0_0 dW0_0_0 dW1_0_0 = a7
-  generalize Gen.grad_midpoint_s_scalar_11_g_d1_6efd91c6bd6e f f_d1 f_d2 g g_d1 g_d2 t0 t2 dt y0_0_0 theta v_0_0 dW0_0_0 dW1_0_0 = a8
-  generalize Gen.grad_midpoint_s_scalar_11_g_d1_76b5237ed2e6 f f_d1 f_d2 g g_d1 g_d2 t0 t2 dt y0_0_0 theta v_0_0 dW0_0_0 dW1_0_0 = a9
-  generalize Gen.grad_midpoint_s_scalar_11_g_d2_722b7a6bbfae f f_d1 f_d2 g g_d1 g_d2 t0 t2 dt y0_0_0 theta v_0_0 dW0_0_0 dW1_0_0 = a10
-  generalize Gen.grad_midpoint_s_scalar_11_g_d2_971f06219250 f f_d1 f_d2 g g_d1 g_d2 t0 t2 dt y0_0_0 theta v_0_0 dW0_0_0 dW1_0_0 = a11
-  generalize Gen.grad_midpoint_s_scalar_11_g_d2_e3437f9b71a5 f f_d1 f_d2 g g_d1 g_d2 t0 t2 dt y0_0_0 theta v_0_0 dW0_0_0 dW1_0_0 = a12
-  generalize Gen.grad_midpoint_s_scalar_11_g_d2_ee9a050cb9fa f f_d1 f_d2 g g_d1 g_d2 t0 t2 dt y0_0_0 theta v_0_0 dW0_0_0 dW1_0_0 = a13
+/-- `gradp_heun_s_general_11`: backprop `gth` = forward derivative `tth` -/
+theorem gradp_heun_s_general_11_gth  (f : K → K → K → K) (f_d1 : K → K → K → K) (f_d2 : K → K → K → K) (g : K → K → K → K) (g_d1 : K → K → K → K) (g_d2 : K → K → K → K) (t0 t2 dt y0_0_0 theta v_0_0 dW0_0_0 dW1_0_0 : K) :
+    Gen.gradp_heun_s_general_11_gth f f_d1 f_d2 g g_d1 g_d2 t0 t2 dt y0_0_0 theta v_0_0 dW0_0_0 dW1_0_0 = Gen.gradp_heun_s_general_11_tth f f_d1 f_d2 g g_d1 g_d2 t0 t2 dt y0_0_0 theta v_0_0 dW0_0_0 dW1_0_0 := by
+  simp only [Gen.gradp_heun_s_general_11_gth, Gen.gradp_heun_s_general_11_tth]
+  generalize Gen.gradp_heun_s_general_11_f_d1_850996a283cd f f_d1 f_d2 g g_d1 g_d2 t0 t2 dt y0_0_0 theta v_0_0 dW0_0_0 dW1_0_0 = a0
+  generalize Gen.gradp_heun_s_general_11_f_d1_a0c409c02ee2 f f_d1 f_d2 g g_d1 g_d2 t0 t2 dt y0_0_0 theta v_0_0 dW0_0_0 dW1_0_0 = a1
+  generalize Gen.gradp_heun_s_general_11_f_d1_aa6f717505bc f f_d1 f_d2 g g_d1 g_d2 t0 t2 dt y0_0_0 theta v_0_0 dW0_0_0 dW1_0_0 = a2
+  generalize Gen.gradp_heun_s_general_11_f_d2_75ad011491cf f f_d1 f_d2 g g_d1 g_d2 t0 t2 dt y0_0_0 theta v_0_0 dW0_0_0 dW1_0_0 = a3
+  generalize Gen.gradp_heun_s_general_11_f_d2_85fb27cb9ecd f f_d1 f_d2 g g_d1 g_d2 t0 t2 dt y0_0_0 theta v_0_0 dW0_0_0 dW1_0_0 = a4
+  generalize Gen.gradp_heun_s_general_11_f_d2_f0ddd094ca46 f f_d1 f_d2 g g_d1 g_d2 t0 t2 dt y0_0_0 theta v_0_0 dW0_0_0 dW1_0_0 = a5
+  generalize Gen.gradp_heun_s_general_11_f_d2_f2b7d9350614 f f_d1 f_d2 g g_d1 g_d2 t0 t2 dt y0_0_0 theta v_0_0 dW0_0_0 dW1_0_0 = a6
+  generalize Gen.gradp_heun_s_general_11_g_d1_32d16569e2d0 f f_d1 f_d2 g g_d1 g_d2 t0 t2 dt y0_0_0 theta v_0_0 dW0_0_0 dW1_0_0 = a7
+  generalize Gen.gradp_heun_s_general_11_g_d1_506c676fd130 f f_d1 f_d2 g g_d1 g_d2 t0 t2 dt y0_0_0 theta v_0_0 dW0_0_0 dW1_0_0 = a8
+  generalize Gen.gradp_heun_s_general_11_g_d1_6a8c15d1c454 f f_d1 f_d2 g g_d1 g_d2 t0 t2 dt y0_0_0 theta v_0_0 dW0_0_0 dW1_0_0 = a9
+  generalize Gen.gradp_heun_s_general_11_g_d2_02f255630af5 f f_d1 f_d2 g g_d1 g_d2 t0 t2 dt y0_0_0 theta v_0_0 dW0_0_0 dW1_0_0 = a10
+  generalize Gen.gradp_heun_s_general_11_g_d2_4079b3c76e81 f f_d1 f_d2 g g_d1 g_d2 t0 t2 dt y0_0_0 theta v_0_0 dW0_0_0 dW1_0_0 = a11
+  generalize Gen.gradp_heun_s_general_11_g_d2_46fb04d4bfcb f f_d1 f_d2 g g_d1 g_d2 t0 t2 dt y0_0_0 theta v_0_0 dW0_0_0 dW1_0_0 = a12
+  generalize Gen.gradp_heun_s_general_11_g_d2_722b7a6bbfae f f_d1 f_d2 g g_d1 g_d2 t0 t2 dt y0_0_0 theta v_0_0 dW0_0_0 dW1_0_0 = a13
   ring
 
 set_option maxHeartbeats 4000000 in
-/-- `grad_reversible_heun_s_diagonal_11`: backprop `gy_0_0` = forward derivative `ty_0_0` -/
-theorem grad_reversible_heun_s_diagonal_11_gy_0_0  (f : K → K → K → K) (f_d1 : K → K → K → K) (f_d2 : K → K → K → K) (g : K → K → K → K) (g_d1 : K → K → K → K) (g_d2 : K → K → K → K) (t0 t2 dt y0_0_0 theta v_0_0 dW0_0_0 dW1_0_0 : K) :
-    Gen.grad_reversible_heun_s_diagonal_11_gy_0_0 f f_d1 f_d2 g g_d1 g_d2 t0 t2 dt y0_0_0 theta v_0_0 dW0_0_0 dW1_0_0 = Gen.grad_reversible_heun_s_diagonal_11_ty_0_0 f f_d1 f_d2 g g_d1 g_d2 t0 t2 dt y0_0_0 theta v_0_0 dW0_0_0 dW1_0_0 := by
-  simp only [Gen.grad_reversible_heun_s_diagonal_11_gy_0_0, Gen.grad_reversible_heun_s_diagonal_11_ty_0_0]
-  generalize Gen.grad_reversible_heun_s_diagonal_11_f_d1_668ff2e067df f f_d1 f_d2 g g_d1 g_d2 t0 t2 dt y0_0_0 theta v_0_0 dW0_0_0 dW1_0_0 = a0
-  generalize Gen.grad_reversible_heun_s_diagonal_11_f_d1_7d8b6bbb9a6e f f_d1 f_d2 g g_d1 g_d2 t0 t2 dt y0_0_0 theta v_0_0 dW0_0_0 dW1_0_0 = a1
-  generalize Gen.grad_reversible_heun_s_diagonal_11_f_d1_b39c2b677c13 f f_d1 f_d2 g g_d1 g_d2 t0 t2 dt y0_0_0 theta v_0_0 dW0_0_0 dW1_0_0 = a2
-  generalize Gen.grad_reversible_heun_s_diagonal_11_g_d1_09229750873c f f_d1 f_d2 g g_d1 g_d2 t0 t2 dt y0_0_0 theta v_0_0 dW0_0_0 dW1_0_0 = a3
-  generalize Gen.grad_reversible_heun_s_diagonal_11_g_d1_18d452194dca f f_d1 f_d2 g g_d1 g_d2 t0 t2 dt y0_0_0 theta v_0_0 dW0_0_0 dW1_0_0 = a4
-  generalize Gen.grad_reversible_heun_s_diagonal_11_g_d1_ddd0c5e556e2 f f_d1 f_d2 g g_d1 g_d2 t0 t2 dt y0_0_0 theta v_0_0 dW0_0_0 dW1_0_0 = a5
+/-- `gradp_midpoint_s_scalar_11`: backprop `gth` = forward derivative `tth` -/
+theorem gradp_midpoint_s_scalar_11_gth  (f : K → K → K → K) (f_d1 : K → K → K → K) (f_d2 : K → K → K → K) (g : K → K → K → K) (g_d1 : K → K → K → K) (g_d2 : K → K → K → K) (t0 t2 dt y0_0_0 theta v_0_0 dW0_0_0 dW1_0_0 : K) :
+    Gen.gradp_midpoint_s_scalar_11_gth f f_d1 f_d2 g g_d1 g_d2 t0 t2 dt y0_0_0 theta v_0_0 dW0_0_0 dW1_0_0 = Gen.gradp_midpoint_s_scalar_11_tth f f_d1 f_d2 g g_d1 g_d2 t0 t2 dt y0_0_0 theta v_0_0 dW0_0_0 dW1_0_0 := by
+  simp only [Gen.gradp_midpoint_s_scalar_11_gth, Gen.gradp_midpoint_s_scalar_11_tth]
+  generalize Gen.gradp_midpoint_s_scalar_11_f_d1_5ee6dd087015 f f_d1 f_d2 g g_d1 g_d2 t0 t2 dt y0_0_0 theta v_0_0 dW0_0_0 dW1_0_0 = a0
+  generalize Gen.gradp_midpoint_s_scalar_11_f_d1_703972b470e0 f f_d1 f_d2 g g_d1 g_d2 t0 t2 dt y0_0_0 theta v_0_0 dW0_0_0 dW1_0_0 = a1
+  generalize Gen.gradp_midpoint_s_scalar_11_f_d1_ea194427e5d2 f f_d1 f_d2 g g_d1 g_d2 t0 t2 dt y0_0_0 theta v_0_0 dW0_0_0 dW1_0_0 = a2
+  generalize Gen.gradp_midpoint_s_scalar_11_f_d2_0b924ab0a277 f f_d1 f_d2 g g_d1 g_d2 t0 t2 dt y0_0_0 theta v_0_0 dW0_0_0 dW1_0_0 = a3
+  generalize Gen.gradp_midpoint_s_scalar_11_f_d2_75ad011491cf f f_d1 f_d2 g g_d1 g_d2 t0 t2 dt y0_0_0 theta v_0_0 dW0_0_0 dW1_0_0 = a4
+  generalize Gen.gradp_midpoint_s_scalar_11_f_d2_7af3983cc4c0 f f_d1 f_d2 g g_d1 g_d2 t0 t2 dt y0_0_0 theta v_0_0 dW0_0_0 dW1_0_0 = a5
+  generalize Gen.gradp_midpoint_s_scalar_11_f_d2_d7cbc9408b90 f f_d1 f_d2 g g_d1 g_d2 t0 t2 dt y0_0_0 theta v_0_0 dW0_0_0 dW1_0_0 = a6
+  generalize Gen.gradp_midpoint_s_scalar_11_g_d1_4cebf89ea8f9 f f_d1 f_d2 g g_d1 g_d2 t0 t2 dt y0_0_0 theta v_0_0 dW0_0_0 dW1_0_0 = a7
+  generalize Gen.gradp_midpoint_s_scalar_11_g_d1_6efd91c6bd6e f f_d1 f_d2 g g_d1 g_d2 t0 t2 dt y0_0_0 theta v_0_0 dW0_0_0 dW1_0_0 = a8
+  generalize Gen.gradp_midpoint_s_scalar_11_g_d1_76b5237ed2e6 f f_d1 f_d2 g g_d1 g_d2 t0 t2 dt y0_0_0 theta v_0_0 dW0_0_0 dW1_0_0 = a9
+  generalize Gen.gradp_midpoint_s_scalar_11_g_d2_722b7a6bbfae f f_d1 f_d2 g g_d1 g_d2 t0 t2 dt y0_0_0 theta v_0_0 dW0_0_0 dW1_0_0 = a10
+  generalize Gen.gradp_midpoint_s_scalar_11_g_d2_971f06219250 f f_d1 f_d2 g g_d1 g_d2 t0 t2 dt y0_0_0 theta v_0_0 dW0_0_0 dW1_0_0 = a11
+  generalize Gen.gradp_midpoint_s_scalar_11_g_d2_e3437f9b71a5 f f_d1 f_d2 g g_d1 g_d2 t0 t2 dt y0_0_0 theta v_0_0 dW0_0_0 dW1_0_0 = a12
+  generalize Gen.gradp_midpoint_s_scalar_11_g_d2_ee9a050cb9fa f f_d1 f_d2 g g_d1 g_d2 t0 t2 dt y0_0_0 theta v_0_0 dW0_0_0 dW1_0_0 = a13
   ring
 
 set_option maxHeartbeats 4000000 in
-/-- `grad_reversible_heun_s_diagonal_11`: backprop `gth` = forward derivative `tth` -/
-theorem grad_reversible_heun_s_diagonal_11_gth  (f : K → K → K → K) (f_d1 : K → K → K → K) (f_d2 : K → K → K → K) (g : K → K → K → K) (g_d1 : K → K → K → K) (g_d2 : K → K → K → K) (t0 t2 dt y0_0_0 theta v_0_0 dW0_0_0 dW1_0_0 : K) :
-    Gen.grad_reversible_heun_s_diagonal_11_gth f f_d1 f_d2 g g_d1 g_d2 t0 t2 dt y0_0_0 theta v_0_0 dW0_0_0 dW1_0_0 = Gen.grad_reversible_heun_s_diagonal_11_tth f f_d1 f_d2 g g_d1 g_d2 t0 t2 dt y0_0_0 theta v_0_0 dW0_0_0 dW1_0_0 := by
-  simp only [Gen.grad_reversible_heun_s_diagonal_11_gth, Gen.grad_reversible_heun_s_diagonal_11_tth]
-  generalize Gen.grad_reversible_heun_s_diagonal_11_f_d1_668ff2e067df f f_d1 f_d2 g g_d1 g_d2 t0 t2 dt y0_0_0 theta v_0_0 dW0_0_0 dW1_0_0 = a0
-  generalize Gen.grad_reversible_heun_s_diagonal_11_f_d1_7d8b6bbb9a6e f f_d1 f_d2 g g_d1 g_d2 t0 t2 dt y0_0_0 theta v_0_0 dW0_0_0 dW1_0_0 = a1
-  generalize Gen.grad_reversible_heun_s_diagonal_11_f_d2_75ad011491cf f f_d1 f_d2 g g_d1 g_d2 t0 t2 dt y0_0_0 theta v_0_0 dW0_0_0 dW1_0_0 = a2
-  generalize Gen.grad_reversible_heun_s_diagonal_11_f_d2_aa59138e4563 f f_d1 f_d2 g g_d1 g_d2 t0 t2 dt y0_0_0 theta v_0_0 dW0_0_0 dW1_0_0 = a3
-  generalize Gen.grad_reversible_heun_s_diagonal_11_f_d2_f85d5dcbccb1 f f_d1 f_d2 g g_d1 g_d2 t0 t2 dt y0_0_0 theta v_0_0 dW0_0_0 dW1_0_0 = a4
-  generalize Gen.grad_reversible_heun_s_diagonal_11_g_d1_09229750873c f f_d1 f_d2 g g_d1 g_d2 t0 t2 dt y0_0_0 theta v_0_0 dW0_0_0 dW1_0_0 = a5
-  generalize Gen.grad_reversible_heun_s_diagonal_11_g_d1_18d452194dca f f_d1 f_d2 g g_d1 g_d2 t0 t2 dt y0_0_0 theta v_0_0 dW0_0_0 dW1_0_0 = a6
-  generalize Gen.grad_reversible_heun_s_diagonal_11_g_d2_722b7a6bbfae f f_d1 f_d2 g g_d1 g_d2 t0 t2 dt y0_0_0 theta v_0_0 dW0_0_0 dW1_0_0 = a7
-  generalize Gen.grad_reversible_heun_s_diagonal_11_g_d2_72ad817e521d f f_d1 f_d2 g g_d1 g_d2 t0 t2 dt y0_0_0 theta v_0_0 dW0_0_0 dW1_0_0 = a8
-  generalize Gen.grad_reversible_heun_s_diagonal_11_g_d2_b5ffc99eee28 f f_d1 f_d2 g g_d1 g_d2 t0 t2 dt y0_0_0 theta v_0_0 dW0_0_0 dW1_0_0 = a9
+/-- `gradp_log_ode_s_additive_11`: backprop `gth` = forward derivative `tth` -/
+theorem gradp_log_ode_s_additive_11_gth  (f : K → K → K → K) (f_d1 : K → K → K → K) (f_d2 : K → K → K → K) (g : K → K → K) (g_d1 : K → K → K) (t0 t2 dt y0_0_0 theta v_0_0 dW0_0_0 dW1_0_0 U0_0_0 U1_0_0 A0_0_0_0 A1_0_0_0 : K) :
+    Gen.gradp_log_ode_s_additive_11_gth f f_d1 f_d2 g g_d1 t0 t2 dt y0_0_0 theta v_0_0 dW0_0_0 dW1_0_0 U0_0_0 U1_0_0 A0_0_0_0 A1_0_0_0 = Gen.gradp_log_ode_s_additive_11_tth f f_d1 f_d2 g g_d1 t0 t2 dt y0_0_0 theta v_0_0 dW0_0_0 dW1_0_0 U0_0_0 U1_0_0 A0_0_0_0 A1_0_0_0 := by
+  simp only [Gen.gradp_log_ode_s_additive_11_gth, Gen.gradp_log_ode_s_additive_11_tth]
+  generalize Gen.gradp_log_ode_s_additive_11_f_d1_0d0c9a3077c6 f f_d1 f_d2 g g_d1 t0 t2 dt y0_0_0 theta v_0_0 dW0_0_0 dW1_0_0 U0_0_0 U1_0_0 A0_0_0_0 A1_0_0_0 = a0
+  generalize Gen.gradp_log_ode_s_additive_11_f_d1_e98ae284e0cb f f_d1 f_d2 g g_d1 t0 t2 dt y0_0_0 theta v_0_0 dW0_0_0 dW1_0_0 U0_0_0 U1_0_0 A0_0_0_0 A1_0_0_0 = a1
+  generalize Gen.gradp_log_ode_s_additive_11_f_d1_ff7f21209d68 f f_d1 f_d2 g g_d1 t0 t2 dt y0_0_0 theta v_0_0 dW0_0_0 dW1_0_0 U0_0_0 U1_0_0 A0_0_0_0 A1_0_0_0 = a2
+  generalize Gen.gradp_log_ode_s_additive_11_f_d2_29b33e7b64ab f f_d1 f_d2 g g_d1 t0 t2 dt y0_0_0 theta v_0_0 dW0_0_0 dW1_0_0 U0_0_0 U1_0_0 A0_0_0_0 A1_0_0_0 = a3
+  generalize Gen.gradp_log_ode_s_additive_11_f_d2_75ad011491cf f f_d1 f_d2 g g_d1 t0 t2 dt y0_0_0 theta v_0_0 dW0_0_0 dW1_0_0 U0_0_0 U1_0_0 A0_0_0_0 A1_0_0_0 = a4
+  generalize Gen.gradp_log_ode_s_additive_11_f_d2_9c26a268e4ad f f_d1 f_d2 g g_d1 t0 t2 dt y0_0_0 theta v_0_0 dW0_0_0 dW1_0_0 U0_0_0 U1_0_0 A0_0_0_0 A1_0_0_0 = a5
+  generalize Gen.gradp_log_ode_s_additive_11_f_d2_d17937baee3f f f_d1 f_d2 g g_d1 t0 t2 dt y0_0_0 theta v_0_0 dW0_0_0 dW1_0_0 U0_0_0 U1_0_0 A0_0_0_0 A1_0_0_0 = a6
+  generalize Gen.gradp_log_ode_s_additive_11_g_d1_39aaf857762f f f_d1 f_d2 g g_d1 t0 t2 dt y0_0_0 theta v_0_0 dW0_0_0 dW1_0_0 U0_0_0 U1_0_0 A0_0_0_0 A1_0_0_0 = a7
+  generalize Gen.gradp_log_ode_s_additive_11_g_d1_3d49352567ba f f_d1 f_d2 g g_d1 t0 t2 dt y0_0_0 theta v_0_0 dW0_0_0 dW1_0_0 U0_0_0 U1_0_0 A0_0_0_0 A1_0_0_0 = a8
+  generalize Gen.gradp_log_ode_s_additive_11_g_d1_d6c79566b23d f f_d1 f_d2 g g_d1 t0 t2 dt y0_0_0 theta v_0_0 dW0_0_0 dW1_0_0 U0_0_0 U1_0_0 A0_0_0_0 A1_0_0_0 = a9
+  generalize Gen.gradp_log_ode_s_additive_11_g_d1_e503fc41dafc f f_d1 f_d2 g g_d1 t0 t2 dt y0_0_0 theta v_0_0 dW0_0_0 dW1_0_0 U0_0_0 U1_0_0 A0_0_0_0 A1_0_0_0 = a10
   ring
 
 set_option maxHeartbeats 4000000 in
-/-- `grad_log_ode_s_general_22`: backprop `gy_0_0` = forward derivative `ty_0_0` -/
-theorem grad_log_ode_s_general_22_gy_0_0  (f0 : K → K → K → K → K) (f0_d1 : K → K → K → K → K) (f0_d2 : K → K → K → K → K) (f0_d3 : K → K → K → K → K) (f1 : K → K → K → K → K) (f1_d1 : K → K → K → K → K) (f1_d2 : K → K → K → K → K) (f1_d3 : K → K → K → K → K) (g00 : K → K → K → K → K) (g00_d1 : K → K → K → K → K) (g00_d11 : K → K → K → K → K) (g00_d12 : K → K → K → K → K) (g00_d13 : K → K → K → K → K) (g00_d2 : K → K → K → K → K) (g00_d22 : K → K → K → K → K) (g00_d23 : K → K → K → K → K) (g00_d3 : K → K → K → K → K) (g01 : K → K → K → K → K) (g01_d1 : K → K → K → K → K) (g01_d11 : K → K → K → K → K) (g01_d12 : K → K → K → K → K) (g01_d13 : K → K → K → K → K) (g01_d2 : K → K → K → K → K) (g01_d22 : K → K → K → K → K) (g01_d23 : K → K → K → K → K) (g01_d3 : K → K → K → K → K) (g10 : K → K → K → K → K) (g10_d1 : K → K → K → K → K) (g10_d11 : K → K → K → K → K) (g10_d12 : K → K → K → K → K) (g10_d13 : K → K → K → K → K) (g10_d2 : K → K → K → K → K) (g10_d22 : K → K → K → K → K) (g10_d23 : K → K → K → K → K) (g10_d3 : K → K → K → K → K) (g11 : K → K → K → K → K) (g11_d1 : K → K → K → K → K) (g11_d11 : K → K → K → K → K) (g11_d12 : K → K → K → K → K) (g11_d13 : K → K → K → K → K) (g11_d2 : K → K → K → K → K) (g11_d22 : K → K → K → K → K) (g11_d23 : K → K → K → K → K) (g11_d3 : K → K → K → K → K) (t0 t2 dt y0_0_0 y0_0_1 theta v_0_0 v_0_1 dW0_0_0 dW0_0_1 U0_0_0 U0_0_1 A0_0_0_0 A0_0_0_1 A0_0_1_0 A0_0_1_1 : K) :
-    Gen.grad_log_ode_s_general_22_gy_0_0 f0 f0_d1 f0_d2 f0_d3 f1 f1_d1 f1_d2 f1_d3 g00 g00_d1 g00_d11 g00_d12 g00_d13 g00_d2 g00_d22 g00_d23 g00_d3 g01 g01_d1 g01_d11 g01_d12 g01_d13 g01_d2 g01_d22 g01_d23 g01_d3 g10 g10_d1 g10_d11 g10_d12 g10_d13 g10_d2 g10_d22 g10_d23 g10_d3 g11 g11_d1 g11_d11 g11_d12 g11_d13 g11_d2 g11_d22 g11_d23 g11_d3 t0 t2 dt y0_0_0 y0_0_1 theta v_0_0 v_0_1 dW0_0_0 dW0_0_1 U0_0_0 U0_0_1 A0_0_0_0 A0_0_0_1 A0_0_1_0 A0_0_1_1 = Gen.grad_log_ode_s_general_22_ty_0_0 f0 f0_d1 f0_d2 f0_d3 f1 f1_d1 f1_d2 f1_d3 g00 g00_d1 g00_d11 g00_d12 g00_d13 g00_d2 g00_d22 g00_d23 g00_d3 g01 g01_d1 g01_d11 g01_d12 g01_d13 g01_d2 g01_d22 g01_d23 g01_d3 g10 g10_d1 g10_d11 g10_d12 g10_d13 g10_d2 g10_d22 g10_d23 g10_d3 g11 g11_d1 g11_d11 g11_d12 g11_d13 g11_d2 g11_d22 g11_d23 g11_d3 t0 t2 dt y0_0_0 y0_0_1 theta v_0_0 v_0_1 dW0_0_0 dW0_0_1 U0_0_0 U0_0_1 A0_0_0_0 A0_0_0_1 A0_0_1_0 A0_0_1_1 := by
-  simp only [Gen.grad_log_ode_s_general_22_gy_0_0, Gen.grad_log_ode_s_general_22_ty_0_0]
-  generalize Gen.grad_log_ode_s_general_22_f0_d1_7762e1f68fca f0 f0_d1 f0_d2 f0_d3 f1 f1_d1 f1_d2 f1_d3 g00 g00_d1 g00_d11 g00_d12 g00_d13 g00_d2 g00_d22 g00_d23 g00_d3 g01 g01_d1 g01_d11 g01_d12 g01_d13 g01_d2 g01_d22 g01_d23 g01_d3 g10 g10_d1 g10_d11 g10_d12 g10_d13 g10_d2 g10_d22 g10_d23 g10_d3 g11 g11_d1 g11_d11 g11_d12 g11_d13 g11_d2 g11_d22 g11_d23 g11_d3 t0 t2 dt y0_0_0 y0_0_1 theta v_0_0 v_0_1 dW0_0_0 dW0_0_1 U0_0_0 U0_0_1 A0_0_0_0 A0_0_0_1 A0_0_1_0 A0_0_1_1 = a0
-  generalize Gen.grad_log_ode_s_general_22_f0_d1_96080579f9e2 f0 f0_d1 f0_d2 f0_d3 f1 f1_d1 f1_d2 f1_d3 g00 g00_d1 g00_d11 g00_d12 g00_d13 g00_d2 g00_d22 g00_d23 g00_d3 g01 g01_d1 g01_d11 g01_d12 g01_d13 g01_d2 g01_d22 g01_d23 g01_d3 g10 g10_d1 g10_d11 g10_d12 g10_d13 g10_d2 g10_d22 g10_d23 g10_d3 g11 g11_d1 g11_d11 g11_d12 g11_d13 g11_d2 g11_d22 g11_d23 g11_d3 t0 t2 dt y0_0_0 y0_0_1 theta v_0_0 v_0_1 dW0_0_0 dW0_0_1 U0_0_0 U0_0_1 A0_0_0_0 A0_0_0_1 A0_0_1_0 A0_0_1_1 = a1
-  generalize Gen.grad_log_ode_s_general_22_f0_d2_9891193c3e58 f0 f0_d1 f0_d2 f0_d3 f1 f1_d1 f1_d2 f1_d3 g00 g00_d1 g00_d11 g00_d12 g00_d13 g00_d2 g00_d22 g00_d23 g00_d3 g01 g01_d1 g01_d11 g01_d12 g01_d13 g01_d2 g01_d22 g01_d23 g01_d3 g10 g10_d1 g10_d11 g10_d12 g10_d13 g10_d2 g10_d22 g10_d23 g10_d3 g11 g11_d1 g11_d11 g11_d12 g11_d13 g11_d2 g11_d22 g11_d23 g11_d3 t0 t2 dt y0_0_0 y0_0_1 theta v_0_0 v_0_1 dW0_0_0 dW0_0_1 U0_0_0 U0_0_1 A0_0_0_0 A0_0_0_1 A0_0_1_0 A0_0_1_1 = a2
-  generalize Gen.grad_log_ode_s_general_22_f1_d1_1deef72810c1 f0 f0_d1 f0_d2 f0_d3 f1 f1_d1 f1_d2 f1_d3 g00 g00_d1 g00_d11 g00_d12 g00_d13 g00_d2 g00_d22 g00_d23 g00_d3 g01 g01_d1 g01_d11 g01_d12 g01_d13 g01_d2 g01_d22 g01_d23 g01_d3 g10 g10_d1 g10_d11 g10_d12 g10_d13 g10_d2 g10_d22 g10_d23 g10_d3 g11 g11_d1 g11_d11 g11_d12 g11_d13 g11_d2 g11_d22 g11_d23 g11_d3 t0 t2 dt y0_0_0 y0_0_1 theta v_0_0 v_0_1 dW0_0_0 dW0_0_1 U0_0_0 U0_0_1 A0_0_0_0 A0_0_0_1 A0_0_1_0 A0_0_1_1 = a3
-  generalize Gen.grad_log_ode_s_general_22_f1_d1_d87d0243b310 f0 f0_d1 f0_d2 f0_d3 f1 f1_d1 f1_d2 f1_d3 g00 g00_d1 g00_d11 g00_d12 g00_d13 g00_d2 g00_d22 g00_d23 g00_d3 g01 g01_d1 g01_d11 g01_d12 g01_d13 g01_d2 g01_d22 g01_d23 g01_d3 g10 g10_d1 g10_d11 g10_d12 g10_d13 g10_d2 g10_d22 g10_d23 g10_d3 g11 g11_d1 g11_d11 g11_d12 g11_d13 g11_d2 g11_d22 g11_d23 g11_d3 t0 t2 dt y0_0_0 y0_0_1 theta v_0_0 v_0_1 dW0_0_0 dW0_0_1 U0_0_0 U0_0_1 A0_0_0_0 A0_0_0_1 A0_0_1_0 A0_0_1_1 = a4
-  generalize Gen.grad_log_ode_s_general_22_f1_d2_f5ba8df085b6 f0 f0_d1 f0_d2 f0_d3 f1 f1_d1 f1_d2 f1_d3 g00 g00_d1 g00_d11 g00_d12 g00_d13 g00_d2 g00_d22 g00_d23 g00_d3 g01 g01_d1 g01_d11 g01_d12 g01_d13 g01_d2 g01_d22 g01_d23 g01_d3 g10 g10_d1 g10_d11 g10_d12 g10_d13 g10_d2 g10_d22 g10_d23 g10_d3 g11 g11_d1 g11_d11 g11_d12 g11_d13 g11_d2 g11_d22 g11_d23 g11_d3 t0 t2 dt y0_0_0 y0_0_1 theta v_0_0 v_0_1 dW0_0_0 dW0_0_1 U0_0_0 U0_0_1 A0_0_0_0 A0_0_0_1 A0_0_1_0 A0_0_1_1 = a5
-  generalize Gen.grad_log_ode_s_general_22_g00_9fb370ea77be f0 f0_d1 f0_d2 f0_d3 f1 f1_d1 f1_d2 f1_d3 g00 g00_d1 g00_d11 g00_d12 g00_d13 g00_d2 g00_d22 g00_d23 g00_d3 g01 g01_d1 g01_d11 g01_d12 g01_d13 g01_d2 g01_d22 g01_d23 g01_d3 g10 g10_d1 g10_d11 g10_d12 g10_d13 g10_d2 g10_d22 g10_d23 g10_d3 g11 g11_d1 g11_d11 g11_d12 g11_d13 g11_d2 g11_d22 g11_d23 g11_d3 t0 t2 dt y0_0_0 y0_0_1 theta v_0_0 v_0_1 dW0_0_0 dW0_0_1 U0_0_0 U0_0_1 A0_0_0_0 A0_0_0_1 A0_0_1_0 A0_0_1_1 = a6
-  generalize Gen.grad_log_ode_s_general_22_g00_d11_938651f4d831 f0 f0_d1 f0_d2 f0_d3 f1 f1_d1 f1_d2 f1_d3 g00 g00_d1 g00_d11 g00_d12 g00_d13 g00_d2 g00_d22 g00_d23 g00_d3 g01 g01_d1 g01_d11 g01_d12 g01_d13 g01_d2 g01_d22 g01_d23 g01_d3 g10 g10_d1 g10_d11 g10_d12 g10_d13 g10_d2 g10_d22 g10_d23 g10_d3 g11 g11_d1 g11_d11 g11_d12 g11_d13 g11_d2 g11_d22 g11_d23 g11_d3 t0 t2 dt y0_0_0 y0_0_1 theta v_0_0 v_0_1 dW0_0_0 dW0_0_1 U0_0_0 U0_0_1 A0_0_0_0 A0_0_0_1 A0_0_1_0 A0_0_1_1 = a7
-  generalize Gen.grad_log_ode_s_general_22_g00_d12_569d89c0c3e4 f0 f0_d1 f0_d2 f0_d3 f1 f1_d1 f1_d2 f1_d3 g00 g00_d1 g00_d11 g00_d12 g00_d13 g00_d2 g00_d22 g00_d23 g00_d3 g01 g01_d1 g01_d11 g01_d12 g01_d13 g01_d2 g01_d22 g01_d23 g01_d3 g10 g10_d1 g10_d11 g10_d12 g10_d13 g10_d2 g10_d22 g10_d23 g10_d3 g11 g11_d1 g11_d11 g11_d12 g11_d13 g11_d2 g11_d22 g11_d23 g11_d3 t0 t2 dt y0_0_0 y0_0_1 theta v_0_0 v_0_1 dW0_0_0 dW0_0_1 U0_0_0 U0_0_1 A0_0_0_0 A0_0_0_1 A0_0_1_0 A0_0_1_1 = a8
-  generalize Gen.grad_log_ode_s_general_22_g00_d1_0c1ed2503833 f0 f0_d1 f0_d2 f0_d3 f1 f1_d1 f1_d2 f1_d3 g00 g00_d1 g00_d11 g00_d12 g00_d13 g00_d2 g00_d22 g00_d23 g00_d3 g01 g01_d1 g01_d11 g01_d12 g01_d13 g01_d2 g01_d22 g01_d23 g01_d3 g10 g10_d1 g10_d11 g10_d12 g10_d13 g10_d2 g10_d22 g10_d23 g10_d3 g11 g11_d1 g11_d11 g11_d12 g11_d13 g11_d2 g11_d22 g11_d23 g11_d3 t0 t2 dt y0_0_0 y0_0_1 theta v_0_0 v_0_1 dW0_0_0 dW0_0_1 U0_0_0 U0_0_1 A0_0_0_0 A0_0_0_1 A0_0_1_0 A0_0_1_1 = a9
-  generalize Gen.grad_log_ode_s_general_22_g00_d1_99e549f5f236 f0 f0_d1 f0_d2 f0_d3 f1 f1_d1 f1_d2 f1_d3 g00 g00_d1 g00_d11 g00_d12 g00_d13 g00_d2 g00_d22 g00_d23 g00_d3 g01 g01_d1 g01_d11 g01_d12 g01_d13 g01_d2 g01_d22 g01_d23 g01_d3 g10 g10_d1 g10_d11 g10_d12 g10_d13 g10_d2 g10_d22 g10_d23 g10_d3 g11 g11_d1 g11_d11 g11_d12 g11_d13 g11_d2 g11_d22 g11_d23 g11_d3 t0 t2 dt y0_0_0 y0_0_1 theta v_0_0 v_0_1 dW0_0_0 dW0_0_1 U0_0_0 U0_0_1 A0_0_0_0 A0_0_0_1 A0_0_1_0 A0_0_1_1 = a10
-  generalize Gen.grad_log_ode_s_general_22_g00_d22_e3a0dc158aed f0 f0_d1 f0_d2 f0_d3 f1 f1_d1 f1_d2 f1_d3 g00 g00_d1 g00_d11 g00_d12 g00_d13 g00_d2 g00_d22 g00_d23 g00_d3 g01 g01_d1 g01_d11 g01_d12 g01_d13 g01_d2 g01_d22 g01_d23 g01_d3 g10 g10_d1 g10_d11 g10_d12 g10_d13 g10_d2 g10_d22 g10_d23 g10_d3 g11 g11_d1 g11_d11 g11_d12 g11_d13 g11_d2 g11_d22 g11_d23 g11_d3 t0 t2 dt y0_0_0 y0_0_1 theta v_0_0 v_0_1 dW0_0_0 dW0_0_1 U0_0_0 U0_0_1 A0_0_0_0 A0_0_0_1 A0_0_1_0 A0_0_1_1 = a11
-  generalize Gen.grad_log_ode_s_general_22_g00_d2_42da16d43f61 f0 f0_d1 f0_d2 f0_d3 f1 f1_d1 f1_d2 f1_d3 g00 g00_d1 g00_d11 g00_d12 g00_d13 g00_d2 g00_d22 g00_d23 g00_d3 g01 g01_d1 g01_d11 g01_d12 g01_d13 g01_d2 g01_d22 g01_d23 g01_d3 g10 g10_d1 g10_d11 g10_d12 g10_d13 g10_d2 g10_d22 g10_d23 g10_d3 g11 g11_d1 g11_d11 g11_d12 g11_d13 g11_d2 g11_d22 g11_d23 g11_d3 t0 t2 dt y0_0_0 y0_0_1 theta v_0_0 v_0_1 dW0_0_0 dW0_0_1 U0_0_0 U0_0_1 A0_0_0_0 A0_0_0_1 A0_0_1_0 A0_0_1_1 = a12
-  generalize Gen.grad_log_ode_s_general_22_g01_77642728581d f0 f0_d1 f0_d2 f0_d3 f1 f1_d1 f1_d2 f1_d3 g00 g00_d1 g00_d11 g00_d12 g00_d13 g00_d2 g00_d22 g00_d23 g00_d3 g01 g01_d1 g01_d11 g01_d12 g01_d13 g01_d2 g01_d22 g01_d23 g01_d3 g10 g10_d1 g10_d11 g10_d12 g10_d13 g10_d2 g10_d22 g10_d23 g10_d3 g11 g11_d1 g11_d11 g11_d12 g11_d13 g11_d2 g11_d22 g11_d23 g11_d3 t0 t2 dt y0_0_0 y0_0_1 theta v_0_0 v_0_1 dW0_0_0 dW0_0_1 U0_0_0 U0_0_1 A0_0_0_0 A0_0_0_1 A0_0_1_0 A0_0_1_1 = a13
-  generalize Gen.grad_log_ode_s_general_22_g01_d11_541c0820b8d1 f0 f0_d1 f0_d2 f0_d3 f1 f1_d1 f1_d2 f1_d3 g00 g00_d1 g00_d11 g00_d12 g00_d13 g00_d2 g00_d22 g00_d23 g00_d3 g01 g01_d1 g01_d11 g01_d12 g01_d13 g01_d2 g01_d22 g01_d23 g01_d3 g10 g10_d1 g10_d11 g10_d12 g10_d13 g10_d2 g10_d22 g10_d23 g10_d3 g11 g11_d1 g11_d11 g11_d12 g11_d13 g11_d2 g11_d22 g11_d23 g11_d3 t0 t2 dt y0_0_0 y0_0_1 theta v_0_0 v_0_1 dW0_0_0 dW0_0_1 U0_0_0 U0_0_1 A0_0_0_0 A0_0_0_1 A0_0_1_0 A0_0_1_1 = a14
-  generalize Gen.grad_log_ode_s_general_22_g01_d12_bae8c03cdf80 f0 f0_d1 f0_d2 f0_d3 f1 f1_d1 f1_d2 f1_d3 g00 g00_d1 g00_d11 g00_d12 g00_d13 g00_d2 g00_d22 g00_d23 g00_d3 g01 g01_d1 g01_d11 g01_d12 g01_d13 g01_d2 g01_d22 g01_d23 g01_d3 g10 g10_d1 g10_d11 g10_d12 g10_d13 g10_d2 g10_d22 g10_d23 g10_d3 g11 g11_d1 g11_d11 g11_d12 g11_d13 g11_d2 g11_d22 g11_d23 g11_d3 t0 t2 dt y0_0_0 y0_0_1 theta v_0_0 v_0_1 dW0_0_0 dW0_0_1 U0_0_0 U0_0_1 A0_0_0_0 A0_0_0_1 A0_0_1_0 A0_0_1_1 = a15
-  generalize Gen.grad_log_ode_s_general_22_g01_d1_7592549b1609 f0 f0_d1 f0_d2 f0_d3 f1 f1_d1 f1_d2 f1_d3 g00 g00_d1 g00_d11 g00_d12 g00_d13 g00_d2 g00_d22 g00_d23 g00_d3 g01 g01_d1 g01_d11 g01_d12 g01_d13 g01_d2 g01_d22 g01_d23 g01_d3 g10 g10_d1 g10_d11 g10_d12 g10_d13 g10_d2 g10_d22 g10_d23 g10_d3 g11 g11_d1 g11_d11 g11_d12 g11_d13 g11_d2 g11_d22 g11_d23 g11_d3 t0 t2 dt y0_0_0 y0_0_1 theta v_0_0 v_0_1 dW0_0_0 dW0_0_1 U0_0_0 U0_0_1 A0_0_0_0 A0_0_0_1 A0_0_1_0 A0_0_1_1 = a16
-  generalize Gen.grad_log_ode_s_general_22_g01_d1_f108b1b386dd f0 f0_d1 f0_d2 f0_d3 f1 f1_d1 f1_d2 f1_d3 g00 g00_d1 g00_d11 g00_d12 g00_d13 g00_d2 g00_d22 g00_d23 g00_d3 g01 g01_d1 g01_d11 g01_d12 g01_d13 g01_d2 g01_d22 g01_d23 g01_d3 g10 g10_d1 g10_d11 g10_d12 g10_d13 g10_d2 g10_d22 g10_d23 g10_d3 g11 g11_d1 g11_d11 g11_d12 g11_d13 g11_d2 g11_d22 g11_d23 g11_d3 t0 t2 dt y0_0_0 y0_0_1 theta v_0_0 v_0_1 dW0_0_0 dW0_0_1 U0_0_0 U0_0_1 A0_0_0_0 A0_0_0_1 A0_0_1_0 A0_0_1_1 = a17
-  generalize Gen.grad_log_ode_s_general_22_g01_d22_5b620a87e2e9 f0 f0_d1 f0_d2 f0_d3 f1 f1_d1 f1_d2 f1_d3 g00 g00_d1 g00_d11 g00_d12 g00_d13 g00_d2 g00_d22 g00_d23 g00_d3 g01 g01_d1 g01_d11 g01_d12 g01_d13 g01_d2 g01_d22 g01_d23 g01_d3 g10 g10_d1 g10_d11 g10_d12 g10_d13 g10_d2 g10_d22 g10_d23 g10_d3 g11 g11_d1 g11_d11 g11_d12 g11_d13 g11_d2 g11_d22 g11_d23 g11_d3 t0 t2 dt y0_0_0 y0_0_1 theta v_0_0 v_0_1 dW0_0_0 dW0_0_1 U0_0_0 U0_0_1 A0_0_0_0 A0_0_0_1 A0_0_1_0 A0_0_1_1 = a18
-  generalize Gen.grad_log_ode_s_general_22_g01_d2_78d001620003 f0 f0_d1 f0_d2 f0_d3 f1 f1_d1 f1_d2 f1_d3 g00 g00_d1 g00_d11 g00_d12 g00_d13 g00_d2 g00_d22 g00_d23 g00_d3 g01 g01_d1 g01_d11 g01_d12 g01_d13 g01_d2 g01_d22 g01_d23 g01_d3 g10 g10_d1 g10_d11 g10_d12 g10_d13 g10_d2 g10_d22 g10_d23 g10_d3 g11 g11_d1 g11_d11 g11_d12 g11_d13 g11_d2 g11_d22 g11_d23 g11_d3 t0 t2 dt y0_0_0 y0_0_1 theta v_0_0 v_0_1 dW0_0_0 dW0_0_1 U0_0_0 U0_0_1 A0_0_0_0 A0_0_0_1 A0_0_1_0 A0_0_1_1 = a19
-  generalize Gen.grad_log_ode_s_general_22_g10_6981f9c71902 f0 f0_d1 f0_d2 f0_d3 f1 f1_d1 f1_d2 f1_d3 g00 g00_d1 g00_d11 g00_d12 g00_d13 g00_d2 g00_d22 g00_d23 g00_d3 g01 g01_d1 g01_d11 g01_d12 g01_d13 g01_d2 g01_d22 g01_d23 g01_d3 g10 g10_d1 g10_d11 g10_d12 g10_d13 g10_d2 g10_d22 g10_d23 g10_d3 g11 g11_d1 g11_d11 g11_d12 g11_d13 g11_d2 g11_d22 g11_d23 g11_d3 t0 t2 dt y0_0_0 y0_0_1 theta v_0_0 v_0_1 dW0_0_0 dW0_0_1 U0_0_0 U0_0_1 A0_0_0_0 A0_0_0_1 A0_0_1_0 A0_0_1_1 = a20
-  generalize Gen.grad_log_ode_s_general_22_g10_d11_2393d41128ff f0 f0_d1 f0_d2 f0_d3 f1 f1_d1 f1_d2 f1_d3 g00 g00_d1 g00_d11 g00_d12 g00_d13 g00_d2 g00_d22 g00_d23 g00_d3 g01 g01_d1 g01_d11 g01_d12 g01_d13 g01_d2 g01_d22 g01_d23 g01_d3 g10 g10_d1 g10_d11 g10_d12 g10_d13 g10_d2 g10_d22 g10_d23 g10_d3 g11 g11_d1 g11_d11 g11_d12 g11_d13 g11_d2 g11_d22 g11_d23 g11_d3 t0 t2 dt y0_0_0 y0_0_1 theta v_0_0 v_0_1 dW0_0_0 dW0_0_1 U0_0_0 U0_0_1 A0_0_0_0 A0_0_0_1 A0_0_1_0 A0_0_1_1 = a21
-  generalize Gen.grad_log_ode_s_general_22_g10_d12_394aee8c727d f0 f0_d1 f0_d2 f0_d3 f1 f1_d1 f1_d2 f1_d3 g00 g00_d1 g00_d11 g00_d12 g00_d13 g00_d2 g00_d22 g00_d23 g00_d3 g01 g01_d1 g01_d11 g01_d12 g01_d13 g01_d2 g01_d22 g01_d23 g01_d3 g10 g10_d1 g10_d11 g10_d12 g10_d13 g10_d2 g10_d22 g10_d23 g10_d3 g11 g11_d1 g11_d11 g11_d12 g11_d13 g11_d2 g11_d22 g11_d23 g11_d3 t0 t2 dt y0_0_0 y0_0_1 theta v_0_0 v_0_1 dW0_0_0 dW0_0_1 U0_0_0 U0_0_1 A0_0_0_0 A0_0_0_1 A0_0_1_0 A0_0_1_1 = a22
-  generalize Gen.grad_log_ode_s_general_22_g10_d1_59805037ed9a f0 f0_d1 f0_d2 f0_d3 f1 f1_d1 f1_d2 f1_d3 g00 g00_d1 g00_d11 g00_d12 g00_d13 g00_d2 g00_d22 g00_d23 g00_d3 g01 g01_d1 g01_d11 g01_d12 g01_d13 g01_d2 g01_d22 g01_d23 g01_d3 g10 g10_d1 g10_d11 g10_d12 g10_d13 g10_d2 g10_d22 g10_d23 g10_d3 g11 g11_d1 g11_d11 g11_d12 g11_d13 g11_d2 g11_d22 g11_d23 g11_d3 t0 t2 dt y0_0_0 y0_0_1 theta v_0_0 v_0_1 dW0_0_0 dW0_0_1 U0_0_0 U0_0_1 A0_0_0_0 A0_0_0_1 A0_0_1_0 A0_0_1_1 = a23
-  generalize Gen.grad_log_ode_s_general_22_g10_d1_f0eb93c6fec4 f0 f0_d1 f0_d2 f0_d3 f1 f1_d1 f1_d2 f1_d3 g00 g00_d1 g00_d11 g00_d12 g00_d13 g00_d2 g00_d22 g00_d23 g00_d3 g01 g01_d1 g01_d11 g01_d12 g01_d13 g01_d2 g01_d22 g01_d23 g01_d3 g10 g10_d1 g10_d11 g10_d12 g10_d13 g10_d2 g10_d22 g10_d23 g10_d3 g11 g11_d1 g11_d11 g11_d12 g11_d13 g11_d2 g11_d22 g11_d23 g11_d3 t0 t2 dt y0_0_0 y0_0_1 theta v_0_0 v_0_1 dW0_0_0 dW0_0_1 U0_0_0 U0_0_1 A0_0_0_0 A0_0_0_1 A0_0_1_0 A0_0_1_1 = a24
-  generalize Gen.grad_log_ode_s_general_22_g10_d22_b5a976e386a2 f0 f0_d1 f0_d2 f0_d3 f1 f1_d1 f1_d2 f1_d3 g00 g00_d1 g00_d11 g00_d12 g00_d13 g00_d2 g00_d22 g00_d23 g00_d3 g01 g01_d1 g01_d11 g01_d12 g01_d13 g01_d2 g01_d22 g01_d23 g01_d3 g10 g10_d1 g10_d11 g10_d12 g10_d13 g10_d2 g10_d22 g10_d23 g10_d3 g11 g11_d1 g11_d11 g11_d12 g11_d13 g11_d2 g11_d22 g11_d23 g11_d3 t0 t2 dt y0_0_0 y0_0_1 theta v_0_0 v_0_1 dW0_0_0 dW0_0_1 U0_0_0 U0_0_1 A0_0_0_0 A0_0_0_1 A0_0_1_0 A0_0_1_1 = a25
-  generalize Gen.grad_log_ode_s_general_22_g10_d2_c2c7900b2942 f0 f0_d1 f0_d2 f0_d3 f1 f1_d1 f1_d2 f1_d3 g00 g00_d1 g00_d11 g00_d12 g00_d13 g00_d2 g00_d22 g00_d23 g00_d3 g01 g01_d1 g01_d11 g01_d12 g01_d13 g01_d2 g01_d22 g01_d23 g01_d3 g10 g10_d1 g10_d11 g10_d12 g10_d13 g10_d2 g10_d22 g10_d23 g10_d3 g11 g11_d1 g11_d11 g11_d12 g11_d13 g11_d2 g11_d22 g11_d23 g11_d3 t0 t2 dt y0_0_0 y0_0_1 theta v_0_0 v_0_1 dW0_0_0 dW0_0_1 U0_0_0 U0_0_1 A0_0_0_0 A0_0_0_1 A0_0_1_0 A0_0_1_1 = a26
-  generalize Gen.grad_log_ode_s_general_22_g11_3083a6fb8787 f0 f0_d1 f0_d2 f0_d3 f1 f1_d1 f1_d2 f1_d3 g00 g00_d1 g00_d11 g00_d12 g00_d13 g00_d2 g00_d22 g00_d23 g00_d3 g01 g01_d1 g01_d11 g01_d12 g01_d13 g01_d2 g01_d22 g01_d23 g01_d3 g10 g10_d1 g10_d11 g10_d12 g10_d13 g10_d2 g10_d22 g10_d23 g10_d3 g11 g11_d1 g11_d11 g11_d12 g11_d13 g11_d2 g11_d22 g11_d23 g11_d3 t0 t2 dt y0_0_0 y0_0_1 theta v_0_0 v_0_1 dW0_0_0 dW0_0_1 U0_0_0 U0_0_1 A0_0_0_0 A0_0_0_1 A0_0_1_0 A0_0_1_1 = a27
-  generalize Gen.grad_log_ode_s_general_22_g11_d11_b27d6217a6ec f0 f0_d1 f0_d2 f0_d3 f1 f1_d1 f1_d2 f1_d3 g00 g00_d1 g00_d11 g00_d12 g00_d13 g00_d2 g00_d22 g00_d23 g00_d3 g01 g01_d1 g01_d11 g01_d12 g01_d13 g01_d2 g01_d22 g01_d23 g01_d3 g10 g10_d1 g10_d11 g10_d12 g10_d13 g10_d2 g10_d22 g10_d23 g10_d3 g11 g11_d1 g11_d11 g11_d12 g11_d13 g11_d2 g11_d22 g11_d23 g11_d3 t0 t2 dt y0_0_0 y0_0_1 theta v_0_0 v_0_1 dW0_0_0 dW0_0_1 U0_0_0 U0_0_1 A0_0_0_0 A0_0_0_1 A0_0_1_0 A0_0_1_1 = a28
-  generalize Gen.grad_log_ode_s_general_22_g11_d12_848b81a0050b f0 f0_d1 f0_d2 f0_d3 f1 f1_d1 f1_d2 f1_d3 g00 g00_d1 g00_d11 g00_d12 g00_d13 g00_d2 g00_d22 g00_d23 g00_d3 g01 g01_d1 g01_d11 g01_d12 g01_d13 g01_d2 g01_d22 g01_d23 g01_d3 g10 g10_d1 g10_d11 g10_d12 g10_d13 g10_d2 g10_d22 g10_d23 g10_d3 g11 g11_d1 g11_d11 g11_d12 g11_d13 g11_d2 g11_d22 g11_d23 g11_d3 t0 t2 dt y0_0_0 y0_0_1 theta v_0_0 v_0_1 dW0_0_0 dW0_0_1 U0_0_0 U0_0_1 A0_0_0_0 A0_0_0_1 A0_0_1_0 A0_0_1_1 = a29
-  generalize Gen.grad_log_ode_s_general_22_g11_d1_61e386d218d9 f0 f0_d1 f0_d2 f0_d3 f1 f1_d1 f1_d2 f1_d3 g00 g00_d1 g00_d11 g00_d12 g00_d13 g00_d2 g00_d22 g00_d23 g00_d3 g01 g01_d1 g01_d11 g01_d12 g01_d13 g01_d2 g01_d22 g01_d23 g01_d3 g10 g10_d1 g10_d11 g10_d12 g10_d13 g10_d2 g10_d22 g10_d23 g10_d3 g11 g11_d1 g11_d11 g11_d12 g11_d13 g11_d2 g11_d22 g11_d23 g11_d3 t0 t2 dt y0_0_0 y0_0_1 theta v_0_0 v_0_1 dW0_0_0 dW0_0_1 U0_0_0 U0_0_1 A0_0_0_0 A0_0_0_1 A0_0_1_0 A0_0_1_1 = a30
-  generalize Gen.grad_log_ode_s_general_22_g11_d1_88bd16bfc9a4 f0 f0_d1 f0_d2 f0_d3 f1 f1_d1 f1_d2 f1_d3 g00 g00_d1 g00_d11 g00_d12 g00_d13 g00_d2 g00_d22 g00_d23 g00_d3 g01 g01_d1 g01_d11 g01_d12 g01_d13 g01_d2 g01_d22 g01_d23 g01_d3 g10 g10_d1 g10_d11 g10_d12 g10_d13 g10_d2 g10_d22 g10_d23 g10_d3 g11 g11_d1 g11_d11 g11_d12 g11_d13 g11_d2 g11_d22 g11_d23 g11_d3 t0 t2 dt y0_0_0 y0_0_1 theta v_0_0 v_0_1 dW0_0_0 dW0_0_1 U0_0_0 U0_0_1 A0_0_0_0 A0_0_0_1 A0_0_1_0 A0_0_1_1 = a31
-  generalize Gen.grad_log_ode_s_general_22_g11_d22_8e1d4710ef4d f0 f0_d1 f0_d2 f0_d3 f1 f1_d1 f1_d2 f1_d3 g00 g00_d1 g00_d11 g00_d12 g00_d13 g00_d2 g00_d22 g00_d23 g00_d3 g01 g01_d1 g01_d11 g01_d12 g01_d13 g01_d2 g01_d22 g01_d23 g01_d3 g10 g10_d1 g10_d11 g10_d12 g10_d13 g10_d2 g10_d22 g10_d23 g10_d3 g11 g11_d1 g11_d11 g11_d12 g11_d13 g11_d2 g11_d22 g11_d23 g11_d3 t0 t2 dt y0_0_0 y0_0_1 theta v_0_0 v_0_1 dW0_0_0 dW0_0_1 U0_0_0 U0_0_1 A0_0_0_0 A0_0_0_1 A0_0_1_0 A0_0_1_1 = a32
-  generalize Gen.grad_log_ode_s_general_22_g11_d2_1b85f2e726db f0 f0_d1 f0_d2 f0_d3 f1 f1_d1 f1_d2 f1_d3 g00 g00_d1 g00_d11 g00_d12 g00_d13 g00_d2 g00_d22 g00_d23 g00_d3 g01 g01_d1 g01_d11 g01_d12 g01_d13 g01_d2 g01_d22 g01_d23 g01_d3 g10 g10_d1 g10_d11 g10_d12 g10_d13 g10_d2 g10_d22 g10_d23 g10_d3 g11 g11_d1 g11_d11 g11_d12 g11_d13 g11_d2 g11_d22 g11_d23 g11_d3 t0 t2 dt y0_0_0 y0_0_1 theta v_0_0 v_0_1 dW0_0_0 dW0_0_1 U0_0_0 U0_0_1 A0_0_0_0 A0_0_0_1 A0_0_1_0 A0_0_1_1 = a33
+/-- `gradp_reversible_heun_s_diagonal_11`: backprop `gth` = forward derivative `tth` -/
+theorem gradp_reversible_heun_s_diagonal_11_gth  (f : K → K → K → K) (f_d1 : K → K → K → K) (f_d2 : K → K → K → K) (g : K → K → K → K) (g_d1 : K → K → K → K) (g_d2 : K → K → K → K) (t0 t2 dt y0_0_0 theta v_0_0 dW0_0_0 dW1_0_0 : K) :
+    Gen.gradp_reversible_heun_s_diagonal_11_gth f f_d1 f_d2 g g_d1 g_d2 t0 t2 dt y0_0_0 theta v_0_0 dW0_0_0 dW1_0_0 = Gen.gradp_reversible_heun_s_diagonal_11_tth f f_d1 f_d2 g g_d1 g_d2 t0 t2 dt y0_0_0 theta v_0_0 dW0_0_0 dW1_0_0 := by
+  simp only [Gen.gradp_reversible_heun_s_diagonal_11_gth, Gen.gradp_reversible_heun_s_diagonal_11_tth]
+  generalize Gen.gradp_reversible_heun_s_diagonal_11_f_d1_668ff2e067df f f_d1 f_d2 g g_d1 g_d2 t0 t2 dt y0_0_0 theta v_0_0 dW0_0_0 dW1_0_0 = a0
+  generalize Gen.gradp_reversible_heun_s_diagonal_11_f_d1_7d8b6bbb9a6e f f_d1 f_d2 g g_d1 g_d2 t0 t2 dt y0_0_0 theta v_0_0 dW0_0_0 dW1_0_0 = a1
+  generalize Gen.gradp_reversible_heun_s_diagonal_11_f_d2_75ad011491cf f f_d1 f_d2 g g_d1 g_d2 t0 t2 dt y0_0_0 theta v_0_0 dW0_0_0 dW1_0_0 = a2
+  generalize Gen.gradp_reversible_heun_s_diagonal_11_f_d2_aa59138e4563 f f_d1 f_d2 g g_d1 g_d2 t0 t2 dt y0_0_0 theta v_0_0 dW0_0_0 dW1_0_0 = a3
+  generalize Gen.gradp_reversible_heun_s_diagonal_11_f_d2_f85d5dcbccb1 f f_d1 f_d2 g g_d1 g_d2 t0 t2 dt y0_0_0 theta v_0_0 dW0_0_0 dW1_0_0 = a4
+  generalize Gen.gradp_reversible_heun_s_diagonal_11_g_d1_09229750873c f f_d1 f_d2 g g_d1 g_d2 t0 t2 dt y0_0_0 theta v_0_0 dW0_0_0 dW1_0_0 = a5
+  generalize Gen.gradp_reversible_heun_s_diagonal_11_g_d1_18d452194dca f f_d1 f_d2 g g_d1 g_d2 t0 t2 dt y0_0_0 theta v_0_0 dW0_0_0 dW1_0_0 = a6
+  generalize Gen.gradp_reversible_heun_s_diagonal_11_g_d2_722b7a6bbfae f f_d1 f_d2 g g_d1 g_d2 t0 t2 dt y0_0_0 theta v_0_0 dW0_0_0 dW1_0_0 = a7
+  generalize Gen.gradp_reversible_heun_s_diagonal_11_g_d2_72ad817e521d f f_d1 f_d2 g g_d1 g_d2 t0 t2 dt y0_0_0 theta v_0_0 dW0_0_0 dW1_0_0 = a8
+  generalize Gen.gradp_reversible_heun_s_diagonal_11_g_d2_b5ffc99eee28 f f_d1 f_d2 g g_d1 g_d2 t0 t2 dt y0_0_0 theta v_0_0 dW0_0_0 dW1_0_0 = a9
   ring
 
 set_option maxHeartbeats 4000000 in
-/-- `grad_log_ode_s_general_22`: backprop `gy_0_1` = forward derivative `ty_0_1` -/
-theorem grad_log_ode_s_general_22_gy_0_1  (f0 : K → K → K → K → K) (f0_d1 : K → K → K → K → K) (f0_d2 : K → K → K → K → K) (f0_d3 : K → K → K → K → K) (f1 : K → K → K → K → K) (f1_d1 : K → K → K → K → K) (f1_d2 : K → K → K → K → K) (f1_d3 : K → K → K → K → K) (g00 : K → K → K → K → K) (g00_d1 : K → K → K → K → K) (g00_d11 : K → K → K → K → K) (g00_d12 : K → K → K → K → K) (g00_d13 : K → K → K → K → K) (g00_d2 : K → K → K → K → K) (g00_d22 : K → K → K → K → K) (g00_d23 : K → K → K → K → K) (g00_d3 : K → K → K → K → K) (g01 : K → K → K → K → K) (g01_d1 : K → K → K → K → K) (g01_d11 : K → K → K → K → K) (g01_d12 : K → K → K → K → K) (g01_d13 : K → K → K → K → K) (g01_d2 : K → K → K → K → K) (g01_d22 : K → K → K → K → K) (g01_d23 : K → K → K → K → K) (g01_d3 : K → K → K → K → K) (g10 : K → K → K → K → K) (g10_d1 : K → K → K → K → K) (g10_d11 : K → K → K → K → K) (g10_d12 : K → K → K → K → K) (g10_d13 : K → K → K → K → K) (g10_d2 : K → K → K → K → K) (g10_d22 : K → K → K → K → K) (g10_d23 : K → K → K → K → K) (g10_d3 : K → K → K → K → K) (g11 : K → K → K → K → K) (g11_d1 : K → K → K → K → K) (g11_d11 : K → K → K → K → K) (g11_d12 : K → K → K → K → K) (g11_d13 : K → K → K → K → K) (g11_d2 : K → K → K → K → K) (g11_d22 : K → K → K → K → K) (g11_d23 : K → K → K → K → K) (g11_d3 : K → K → K → K → K) (t0 t2 dt y0_0_0 y0_0_1 theta v_0_0 v_0_1 dW0_0_0 dW0_0_1 U0_0_0 U0_0_1 A0_0_0_0 A0_0_0_1 A0_0_1_0 A0_0_1_1 : K) :
-    Gen.grad_log_ode_s_general_22_gy_0_1 f0 f0_d1 f0_d2 f0_d3 f1 f1_d1 f1_d2 f1_d3 g00 g00_d1 g00_d11 g00_d12 g00_d13 g00_d2 g00_d22 g00_d23 g00_d3 g01 g01_d1 g01_d11 g01_d12 g01_d13 g01_d2 g01_d22 g01_d23 g01_d3 g10 g10_d1 g10_d11 g10_d12 g10_d13 g10_d2 g10_d22 g10_d23 g10_d3 g11 g11_d1 g11_d11 g11_d12 g11_d13 g11_d2 g11_d22 g11_d23 g11_d3 t0 t2 dt y0_0_0 y0_0_1 theta v_0_0 v_0_1 dW0_0_0 dW0_0_1 U0_0_0 U0_0_1 A0_0_0_0 A0_0_0_1 A0_0_1_0 A0_0_1_1 = Gen.grad_log_ode_s_general_22_ty_0_1 f0 f0_d1 f0_d2 f0_d3 f1 f1_d1 f1_d2 f1_d3 g00 g00_d1 g00_d11 g00_d12 g00_d13 g00_d2 g00_d22 g00_d23 g00_d3 g01 g01_d1 g01_d11 g01_d12 g01_d13 g01_d2 g01_d22 g01_d23 g01_d3 g10 g10_d1 g10_d11 g10_d12 g10_d13 g10_d2 g10_d22 g10_d23 g10_d3 g11 g11_d1 g11_d11 g11_d12 g11_d13 g11_d2 g11_d22 g11_d23 g11_d3 t0 t2 dt y0_0_0 y0_0_1 theta v_0_0 v_0_1 dW0_0_0 dW0_0_1 U0_0_0 U0_0_1 A0_0_0_0 A0_0_0_1 A0_0_1_0 A0_0_1_1 := by
-  simp only [Gen.grad_log_ode_s_general_22_gy_0_1, Gen.grad_log_ode_s_general_22_ty_0_1]
-  generalize Gen.grad_log_ode_s_general_22_f0_d1_96080579f9e2 f0 f0_d1 f0_d2 f0_d3 f1 f1_d1 f1_d2 f1_d3 g00 g00_d1 g00_d11 g00_d12 g00_d13 g00_d2 g00_d22 g00_d23 g00_d3 g01 g01_d1 g01_d11 g01_d12 g01_d13 g01_d2 g01_d22 g01_d23 g01_d3 g10 g10_d1 g10_d11 g10_d12 g10_d13 g10_d2 g10_d22 g10_d23 g10_d3 g11 g11_d1 g11_d11 g11_d12 g11_d13 g11_d2 g11_d22 g11_d23 g11_d3 t0 t2 dt y0_0_0 y0_0_1 theta v_0_0 v_0_1 dW0_0_0 dW0_0_1 U0_0_0 U0_0_1 A0_0_0_0 A0_0_0_1 A0_0_1_0 A0_0_1_1 = a0
-  generalize Gen.grad_log_ode_s_general_22_f0_d2_9891193c3e58 f0 f0_d1 f0_d2 f0_d3 f1 f1_d1 f1_d2 f1_d3 g00 g00_d1 g00_d11 g00_d12 g00_d13 g00_d2 g00_d22 g00_d23 g00_d3 g01 g01_d1 g01_d11 g01_d12 g01_d13 g01_d2 g01_d22 g01_d23 g01_d3 g10 g10_d1 g10_d11 g10_d12 g10_d13 g10_d2 g10_d22 g10_d23 g10_d3 g11 g11_d1 g11_d11 g11_d12 g11_d13 g11_d2 g11_d22 g11_d23 g11_d3 t0 t2 dt y0_0_0 y0_0_1 theta v_0_0 v_0_1 dW0_0_0 dW0_0_1 U0_0_0 U0_0_1 A0_0_0_0 A0_0_0_1 A0_0_1_0 A0_0_1_1 = a1
-  generalize Gen.grad_log_ode_s_general_22_f0_d2_c08f7f271659 f0 f0_d1 f0_d2 f0_d3 f1 f1_d1 f1_d2 f1_d3 g00 g00_d1 g00_d11 g00_d12 g00_d13 g00_d2 g00_d22 g00_d23 g00_d3 g01 g01_d1 g01_d11 g01_d12 g01_d13 g01_d2 g01_d22 g01_d23 g01_d3 g10 g10_d1 g10_d11 g10_d12 g10_d13 g10_d2 g10_d22 g10_d23 g10_d3 g11 g11_d1 g11_d11 g11_d12 g11_d13 g11_d2 g11_d22 g11_d23 g11_d3 t0 t2 dt y0_0_0 y0_0_1 theta v_0_0 v_0_1 dW0_0_0 dW0_0_1 U0_0_0 U0_0_1 A0_0_0_0 A0_0_0_1 A0_0_1_0 A0_0_1_1 = a2
-  generalize Gen.grad_log_ode_s_general_22_f1_d1_d87d0243b310 f0 f0_d1 f0_d2 f0_d3 f1 f1_d1 f1_d2 f1_d3 g00 g00_d1 g00_d11 g00_d12 g00_d13 g00_d2 g00_d22 g00_d23 g00_d3 g01 g01_d1 g01_d11 g01_d12 g01_d13 g01_d2 g01_d22 g01_d23 g01_d3 g10 g10_d1 g10_d11 g10_d12 g10_d13 g10_d2 g10_d22 g10_d23 g10_d3 g11 g11_d1 g11_d11 g11_d12 g11_d13 g11_d2 g11_d22 g11_d23 g11_d3 t0 t2 dt y0_0_0 y0_0_1 theta v_0_0 v_0_1 dW0_0_0 dW0_0_1 U0_0_0 U0_0_1 A0_0_0_0 A0_0_0_1 A0_0_1_0 A0_0_1_1 = a3
-  generalize Gen.grad_log_ode_s_general_22_f1_d2_0cc4972e78ba f0 f0_d1 f0_d2 f0_d3 f1 f1_d1 f1_d2 f1_d3 g00 g00_d1 g00_d11 g00_d12 g00_d13 g00_d2 g00_d22 g00_d23 g00_d3 g01 g01_d1 g01_d11 g01_d12 g01_d13 g01_d2 g01_d22 g01_d23 g01_d3 g10 g10_d1 g10_d11 g10_d12 g10_d13 g10_d2 g10_d22 g10_d23 g10_d3 g11 g11_d1 g11_d11 g11_d12 g11_d13 g11_d2 g11_d22 g11_d23 g11_d3 t0 t2 dt y0_0_0 y0_0_1 theta v_0_0 v_0_1 dW0_0_0 dW0_0_1 U0_0_0 U0_0_1 A0_0_0_0 A0_0_0_1 A0_0_1_0 A0_0_1_1 = a4
-  generalize Gen.grad_log_ode_s_general_22_f1_d2_f5ba8df085b6 f0 f0_d1 f0_d2 f0_d3 f1 f1_d1 f1_d2 f1_d3 g00 g00_d1 g00_d11 g00_d12 g00_d13 g00_d2 g00_d22 g00_d23 g00_d3 g01 g01_d1 g01_d11 g01_d12 g01_d13 g01_d2 g01_d22 g01_d23 g01_d3 g10 g10_d1 g10_d11 g10_d12 g10_d13 g10_d2 g10_d22 g10_d23 g10_d3 g11 g11_d1 g11_d11 g11_d12 g11_d13 g11_d2 g11_d22 g11_d23 g11_d3 t0 t2 dt y0_0_0 y0_0_1 theta v_0_0 v_0_1 dW0_0_0 dW0_0_1 U0_0_0 U0_0_1 A0_0_0_0 A0_0_0_1 A0_0_1_0 A0_0_1_1 = a5
-  generalize Gen.grad_log_ode_s_general_22_g00_9fb370ea77be f0 f0_d1 f0_d2 f0_d3 f1 f1_d1 f1_d2 f1_d3 g00 g00_d1 g00_d11 g00_d12 g00_d13 g00_d2 g00_d22 g00_d23 g00_d3 g01 g01_d1 g01_d11 g01_d12 g01_d13 g01_d2 g01_d22 g01_d23 g01_d3 g10 g10_d1 g10_d11 g10_d12 g10_d13 g10_d2 g10_d22 g10_d23 g10_d3 g11 g11_d1 g11_d11 g11_d12 g11_d13 g11_d2 g11_d22 g11_d23 g11_d3 t0 t2 dt y0_0_0 y0_0_1 theta v_0_0 v_0_1 dW0_0_0 dW0_0_1 U0_0_0 U0_0_1 A0_0_0_0 A0_0_0_1 A0_0_1_0 A0_0_1_1 = a6
-  generalize Gen.grad_log_ode_s_general_22_g00_d11_938651f4d831 f0 f0_d1 f0_d2 f0_d3 f1 f1_d1 f1_d2 f1_d3 g00 g00_d1 g00_d11 g00_d12 g00_d13 g00_d2 g00_d22 g00_d23 g00_d3 g01 g01_d1 g01_d11 g01_d12 g01_d13 g01_d2 g01_d22 g01_d23 g01_d3 g10 g10_d1 g10_d11 g10_d12 g10_d13 g10_d2 g10_d22 g10_d23 g10_d3 g11 g11_d1 g11_d11 g11_d12 g11_d13 g11_d2 g11_d22 g11_d23 g11_d3 t0 t2 dt y0_0_0 y0_0_1 theta v_0_0 v_0_1 dW0_0_0 dW0_0_1 U0_0_0 U0_0_1 A0_0_0_0 A0_0_0_1 A0_0_1_0 A0_0_1_1 = a7
-  generalize Gen.grad_log_ode_s_general_22_g00_d12_569d89c0c3e4 f0 f0_d1 f0_d2 f0_d3 f1 f1_d1 f1_d2 f1_d3 g00 g00_d1 g00_d11 g00_d12 g00_d13 g00_d2 g00_d22 g00_d23 g00_d3 g01 g01_d1 g01_d11 g01_d12 g01_d13 g01_d2 g01_d22 g01_d23 g01_d3 g10 g10_d1 g10_d11 g10_d12 g10_d13 g10_d2 g10_d22 g10_d23 g10_d3 g11 g11_d1 g11_d11 g11_d12 g11_d13 g11_d2 g11_d22 g11_d23 g11_d3 t0 t2 dt y0_0_0 y0_0_1 theta v_0_0 v_0_1 dW0_0_0 dW0_0_1 U0_0_0 U0_0_1 A0_0_0_0 A0_0_0_1 A0_0_1_0 A0_0_1_1 = a8
-  generalize Gen.grad_log_ode_s_general_22_g00_d1_0c1ed2503833 f0 f0_d1 f0_d2 f0_d3 f1 f1_d1 f1_d2 f1_d3 g00 g00_d1 g00_d11 g00_d12 g00_d13 g00_d2 g00_d22 g00_d23 g00_d3 g01 g01_d1 g01_d11 g01_d12 g01_d13 g01_d2 g01_d22 g01_d23 g01_d3 g10 g10_d1 g10_d11 g10_d12 g10_d13 g10_d2 g10_d22 g10_d23 g10_d3 g11 g11_d1 g11_d11 g11_d12 g11_d13 g11_d2 g11_d22 g11_d23 g11_d3 t0 t2 dt y0_0_0 y0_0_1 theta v_0_0 v_0_1 dW0_0_0 dW0_0_1 U0_0_0 U0_0_1 A0_0_0_0 A0_0_0_1 A0_0_1_0 A0_0_1_1 = a9
-  generalize Gen.grad_log_ode_s_general_22_g00_d22_e3a0dc158aed f0 f0_d1 f0_d2 f0_d3 f1 f1_d1 f1_d2 f1_d3 g00 g00_d1 g00_d11 g00_d12 g00_d13 g00_d2 g00_d22 g00_d23 g00_d3 g01 g01_d1 g01_d11 g01_d12 g01_d13 g01_d2 g01_d22 g01_d23 g01_d3 g10 g10_d1 g10_d11 g10_d12 g10_d13 g10_d2 g10_d22 g10_d23 g10_d3 g11 g11_d1 g11_d11 g11_d12 g11_d13 g11_d2 g11_d22 g11_d23 g11_d3 t0 t2 dt y0_0_0 y0_0_1 theta v_0_0 v_0_1 dW0_0_0 dW0_0_1 U0_0_0 U0_0_1 A0_0_0_0 A0_0_0_1 A0_0_1_0 A0_0_1_1 = a10
-  generalize Gen.grad_log_ode_s_general_22_g00_d2_42da16d43f61 f0 f0_d1 f0_d2 f0_d3 f1 f1_d1 f1_d2 f1_d3 g00 g00_d1 g00_d11 g00_d12 g00_d13 g00_d2 g00_d22 g00_d23 g00_d3 g01 g01_d1 g01_d11 g01_d12 g01_d13 g01_d2 g01_d22 g01_d23 g01_d3 g10 g10_d1 g10_d11 g10_d12 g10_d13 g10_d2 g10_d22 g10_d23 g10_d3 g11 g11_d1 g11_d11 g11_d12 g11_d13 g11_d2 g11_d22 g11_d23 g11_d3 t0 t2 dt y0_0_0 y0_0_1 theta v_0_0 v_0_1 dW0_0_0 dW0_0_1 U0_0_0 U0_0_1 A0_0_0_0 A0_0_0_1 A0_0_1_0 A0_0_1_1 = a11
-  generalize Gen.grad_log_ode_s_general_22_g00_d2_923f70e91096 f0 f0_d1 f0_d2 f0_d3 f1 f1_d1 f1_d2 f1_d3 g00 g00_d1 g00_d11 g00_d12 g00_d13 g00_d2 g00_d22 g00_d23 g00_d3 g01 g01_d1 g01_d11 g01_d12 g01_d13 g01_d2 g01_d22 g01_d23 g01_d3 g10 g10_d1 g10_d11 g10_d12 g10_d13 g10_d2 g10_d22 g10_d23 g10_d3 g11 g11_d1 g11_d11 g11_d12 g11_d13 g11_d2 g11_d22 g11_d23 g11_d3 t0 t2 dt y0_0_0 y0_0_1 theta v_0_0 v_0_1 dW0_0_0 dW0_0_1 U0_0_0 U0_0_1 A0_0_0_0 A0_0_0_1 A0_0_1_0 A0_0_1_1 = a12
-  generalize Gen.grad_log_ode_s_general_22_g01_77642728581d f0 f0_d1 f0_d2 f0_d3 f1 f1_d1 f1_d2 f1_d3 g00 g00_d1 g00_d11 g00_d12 g00_d13 g00_d2 g00_d22 g00_d23 g00_d3 g01 g01_d1 g01_d11 g01_d12 g01_d13 g01_d2 g01_d22 g01_d23 g01_d3 g10 g10_d1 g10_d11 g10_d12 g10_d13 g10_d2 g10_d22 g10_d23 g10_d3 g11 g11_d1 g11_d11 g11_d12 g11_d13 g11_d2 g11_d22 g11_d23 g11_d3 t0 t2 dt y0_0_0 y0_0_1 theta v_0_0 v_0_1 dW0_0_0 dW0_0_1 U0_0_0 U0_0_1 A0_0_0_0 A0_0_0_1 A0_0_1_0 A0_0_1_1 = a13
-  generalize Gen.grad_log_ode_s_general_22_g01_d11_541c0820b8d1 f0 f0_d1 f0_d2 f0_d3 f1 f1_d1 f1_d2 f1_d3 g00 g00_d1 g00_d11 g00_d12 g00_d13 g00_d2 g00_d22 g00_d23 g00_d3 g01 g01_d1 g01_d11 g01_d12 g01_d13 g01_d2 g01_d22 g01_d23 g01_d3 g10 g10_d1 g10_d11 g10_d12 g10_d13 g10_d2 g10_d22 g10_d23 g10_d3 g11 g11_d1 g11_d11 g11_d12 g11_d13 g11_d2 g11_d22 g11_d23 g11_d3 t0 t2 dt y0_0_0 y0_0_1 theta v_0_0 v_0_1 dW0_0_0 dW0_0_1 U0_0_0 U0_0_1 A0_0_0_0 A0_0_0_1 A0_0_1_0 A0_0_1_1 = a14
-  generalize Gen.grad_log_ode_s_general_22_g01_d12_bae8c03cdf80 f0 f0_d1 f0_d2 f0_d3 f1 f1_d1 f1_d2 f1_d3 g00 g00_d1 g00_d11 g00_d12 g00_d13 g00_d2 g00_d22 g00_d23 g00_d3 g01 g01_d1 g01_d11 g01_d12 g01_d13 g01_d2 g01_d22 g01_d23 g01_d3 g10 g10_d1 g10_d11 g10_d12 g10_d13 g10_d2 g10_d22 g10_d23 g10_d3 g11 g11_d1 g11_d11 g11_d12 g11_d13 g11_d2 g11_d22 g11_d23 g11_d3 t0 t2 dt y0_0_0 y0_0_1 theta v_0_0 v_0_1 dW0_0_0 dW0_0_1 U0_0_0 U0_0_1 A0_0_0_0 A0_0_0_1 A0_0_1_0 A0_0_1_1 = a15
-  generalize Gen.grad_log_ode_s_general_22_g01_d1_f108b1b386dd f0 f0_d1 f0_d2 f0_d3 f1 f1_d1 f1_d2 f1_d3 g00 g00_d1 g00_d11 g00_d12 g00_d13 g00_d2 g00_d22 g00_d23 g00_d3 g01 g01_d1 g01_d11 g01_d12 g01_d13 g01_d2 g01_d22 g01_d23 g01_d3 g10 g10_d1 g10_d11 g10_d12 g10_d13 g10_d2 g10_d22 g10_d23 g10_d3 g11 g11_d1 g11_d11 g11_d12 g11_d13 g11_d2 g11_d22 g11_d23 g11_d3 t0 t2 dt y0_0_0 y0_0_1 theta v_0_0 v_0_1 dW0_0_0 dW0_0_1 U0_0_0 U0_0_1 A0_0_0_0 A0_0_0_1 A0_0_1_0 A0_0_1_1 = a16
-  generalize Gen.grad_log_ode_s_general_22_g01_d22_5b620a87e2e9 f0 f0_d1 f0_d2 f0_d3 f1 f1_d1 f1_d2 f1_d3 g00 g00_d1 g00_d11 g00_d12 g00_d13 g00_d2 g00_d22 g00_d23 g00_d3 g01 g01_d1 g01_d11 g01_d12 g01_d13 g01_d2 g01_d22 g01_d23 g01_d3 g10 g10_d1 g10_d11 g10_d12 g10_d13 g10_d2 g10_d22 g10_d23 g10_d3 g11 g11_d1 g11_d11 g11_d12 g11_d13 g11_d2 g11_d22 g11_d23 g11_d3 t0 t2 dt y0_0_0 y0_0_1 theta v_0_0 v_0_1 dW0_0_0 dW0_0_1 U0_0_0 U0_0_1 A0_0_0_0 A0_0_0_1 A0_0_1_0 A0_0_1_1 = a17
-  generalize Gen.grad_log_ode_s_general_22_g01_d2_78d001620003 f0 f0_d1 f0_d2 f0_d3 f1 f1_d1 f1_d2 f1_d3 g00 g00_d1 g00_d11 g00_d12 g00_d13 g00_d2 g00_d22 g00_d23 g00_d3 g01 g01_d1 g01_d11 g01_d12 g01_d13 g01_d2 g01_d22 g01_d23 g01_d3 g10 g10_d1 g10_d11 g10_d12 g10_d13 g10_d2 g10_d22 g10_d23 g10_d3 g11 g11_d1 g11_d11 g11_d12 g11_d13 g11_d2 g11_d22 g11_d23 g11_d3 t0 t2 dt y0_0_0 y0_0_1 theta v_0_0 v_0_1 dW0_0_0 dW0_0_1 U0_0_0 U0_0_1 A0_0_0_0 A0_0_0_1 A0_0_1_0 A0_0_1_1 = a18
-  generalize Gen.grad_log_ode_s_general_22_g01_d2_962a65f646b5 f0 f0_d1 f0_d2 f0_d3 f1 f1_d1 f1_d2 f1_d3 g00 g00_d1 g00_d11 g00_d12 g00_d13 g00_d2 g00_d22 g00_d23 g00_d3 g01 g01_d1 g01_d11 g01_d12 g01_d13 g01_d2 g01_d22 g01_d23 g01_d3 g10 g10_d1 g10_d11 g10_d12 g10_d13 g10_d2 g10_d22 g10_d23 g10_d3 g11 g11_d1 g11_d11 g11_d12 g11_d13 g11_d2 g11_d22 g11_d23 g11_d3 t0 t2 dt y0_0_0 y0_0_1 theta v_0_0 v_0_1 dW0_0_0 dW0_0_1 U0_0_0 U0_0_1 A0_0_0_0 A0_0_0_1 A0_0_1_0 A0_0_1_1 = a19
-  generalize Gen.grad_log_ode_s_general_22_g10_6981f9c71902 f0 f0_d1 f0_d2 f0_d3 f1 f1_d1 f1_d2 f1_d3 g00 g00_d1 g00_d11 g00_d12 g00_d13 g00_d2 g00_d22 g00_d23 g00_d3 g01 g01_d1 g01_d11 g01_d12 g01_d13 g01_d2 g01_d22 g01_d23 g01_d3 g10 g10_d1 g10_d11 g10_d12 g10_d13 g10_d2 g10_d22 g10_d23 g10_d3 g11 g11_d1 g11_d11 g11_d12 g11_d13 g11_d2 g11_d22 g11_d23 g11_d3 t0 t2 dt y0_0_0 y0_0_1 theta v_0_0 v_0_1 dW0_0_0 dW0_0_1 U0_0_0 U0_0_1 A0_0_0_0 A0_0_0_1 A0_0_1_0 A0_0_1_1 = a20
-  generalize Gen.grad_log_ode_s_general_22_g10_d11_2393d41128ff f0 f0_d1 f0_d2 f0_d3 f1 f1_d1 f1_d2 f1_d3 g00 g00_d1 g00_d11 g00_d12 g00_d13 g00_d2 g00_d22 g00_d23 g00_d3 g01 g01_d1 g01_d11 g01_d12 g01_d13 g01_d2 g01_d22 g01_d23 g01_d3 g10 g10_d1 g10_d11 g10_d12 g10_d13 g10_d2 g10_d22 g10_d23 g10_d3 g11 g11_d1 g11_d11 g11_d12 g11_d13 g11_d2 g11_d22 g11_d23 g11_d3 t0 t2 dt y0_0_0 y0_0_1 theta v_0_0 v_0_1 dW0_0_0 dW0_0_1 U0_0_0 U0_0_1 A0_0_0_0 A0_0_0_1 A0_0_1_0 A0_0_1_1 = a21
-  generalize Gen.grad_log_ode_s_general_22_g10_d12_394aee8c727d f0 f0_d1 f0_d2 f0_d3 f1 f1_d1 f1_d2 f1_d3 g00 g00_d1 g00_d11 g00_d12 g00_d13 g00_d2 g00_d22 g00_d23 g00_d3 g01 g01_d1 g01_d11 g01_d12 g01_d13 g01_d2 g01_d22 g01_d23 g01_d3 g10 g10_d1 g10_d11 g10_d12 g10_d13 g10_d2 g10_d22 g10_d23 g10_d3 g11 g11_d1 g11_d11 g11_d12 g11_d13 g11_d2 g11_d22 g11_d23 g11_d3 t0 t2 dt y0_0_0 y0_0_1 theta v_0_0 v_0_1 dW0_0_0 dW0_0_1 U0_0_0 U0_0_1 A0_0_0_0 A0_0_0_1 A0_0_1_0 A0_0_1_1 = a22
-  generalize Gen.grad_log_ode_s_general_22_g10_d1_f0eb93c6fec4 f0 f0_d1 f0_d2 f0_d3 f1 f1_d1 f1_d2 f1_d3 g00 g00_d1 g00_d11 g00_d12 g00_d13 g00_d2 g00_d22 g00_d23 g00_d3 g01 g01_d1 g01_d11 g01_d12 g01_d13 g01_d2 g01_d22 g01_d23 g01_d3 g10 g10_d1 g10_d11 g10_d12 g10_d13 g10_d2 g10_d22 g10_d23 g10_d3 g11 g11_d1 g11_d11 g11_d12 g11_d13 g11_d2 g11_d22 g11_d23 g11_d3 t0 t2 dt y0_0_0 y0_0_1 theta v_0_0 v_0_1 dW0_0_0 dW0_0_1 U0_0_0 U0_0_1 A0_0_0_0 A0_0_0_1 A0_0_1_0 A0_0_1_1 = a23
-  generalize Gen.grad_log_ode_s_general_22_g10_d22_b5a976e386a2 f0 f0_d1 f0_d2 f0_d3 f1 f1_d1 f1_d2 f1_d3 g00 g00_d1 g00_d11 g00_d12 g00_d13 g00_d2 g00_d22 g00_d23 g00_d3 g01 g01_d1 g01_d11 g01_d12 g01_d13 g01_d2 g01_d22 g01_d23 g01_d3 g10 g10_d1 g10_d11 g10_d12 g10_d13 g10_d2 g10_d22 g10_d23 g10_d3 g11 g11_d1 g11_d11 g11_d12 g11_d13 g11_d2 g11_d22 g11_d23 g11_d3 t0 t2 dt y0_0_0 y0_0_1 theta v_0_0 v_0_1 dW0_0_0 dW0_0_1 U0_0_0 U0_0_1 A0_0_0_0 A0_0_0_1 A0_0_1_0 A0_0_1_1 = a24
-  generalize Gen.grad_log_ode_s_general_22_g10_d2_bf171d2ca00a f0 f0_d1 f0_d2 f0_d3 f1 f1_d1 f1_d2 f1_d3 g00 g00_d1 g00_d11 g00_d12 g00_d13 g00_d2 g00_d22 g00_d23 g00_d3 g01 g01_d1 g01_d11 g01_d12 g01_d13 g01_d2 g01_d22 g01_d23 g01_d3 g10 g10_d1 g10_d11 g10_d12 g10_d13 g10_d2 g10_d22 g10_d23 g10_d3 g11 g11_d1 g11_d11 g11_d12 g11_d13 g11_d2 g11_d22 g11_d23 g11_d3 t0 t2 dt y0_0_0 y0_0_1 theta v_0_0 v_0_1 dW0_0_0 dW0_0_1 U0_0_0 U0_0_1 A0_0_0_0 A0_0_0_1 A0_0_1_0 A0_0_1_1 = a25
-  generalize Gen.grad_log_ode_s_general_22_g10_d2_c2c7900b2942 f0 f0_d1 f0_d2 f0_d3 f1 f1_d1 f1_d2 f1_d3 g00 g00_d1 g00_d11 g00_d12 g00_d13 g00_d2 g00_d22 g00_d23 g00_d3 g01 g01_d1 g01_d11 g01_d12 g01_d13 g01_d2 g01_d22 g01_d23 g01_d3 g10 g10_d1 g10_d11 g10_d12 g10_d13 g10_d2 g10_d22 g10_d23 g10_d3 g11 g11_d1 g11_d11 g11_d12 g11_d13 g11_d2 g11_d22 g11_d23 g11_d3 t0 t2 dt y0_0_0 y0_0_1 theta v_0_0 v_0_1 dW0_0_0 dW0_0_1 U0_0_0 U0_0_1 A0_0_0_0 A0_0_0_1 A0_0_1_0 A0_0_1_1 = a26
-  generalize Gen.grad_log_ode_s_general_22_g11_3083a6fb8787 f0 f0_d1 f0_d2 f0_d3 f1 f1_d1 f1_d2 f1_d3 g00 g00_d1 g00_d11 g00_d12 g00_d13 g00_d2 g00_d22 g00_d23 g00_d3 g01 g01_d1 g01_d11 g01_d12 g01_d13 g01_d2 g01_d22 g01_d23 g01_d3 g10 g10_d1 g10_d11 g10_d12 g10_d13 g10_d2 g10_d22 g10_d23 g10_d3 g11 g11_d1 g11_d11 g11_d12 g11_d13 g11_d2 g11_d22 g11_d23 g11_d3 t0 t2 dt y0_0_0 y0_0_1 theta v_0_0 v_0_1 dW0_0_0 dW0_0_1 U0_0_0 U0_0_1 A0_0_0_0 A0_0_0_1 A0_0_1_0 A0_0_1_1 = a27
-  generalize Gen.grad_log_ode_s_general_22_g11_d11_b27d6217a6ec f0 f0_d1 f0_d2 f0_d3 f1 f1_d1 f1_d2 f1_d3 g00 g00_d1 g00_d11 g00_d12 g00_d13 g00_d2 g00_d22 g00_d23 g00_d3 g01 g01_d1 g01_d11 g01_d12 g01_d13 g01_d2 g01_d22 g01_d23 g01_d3 g10 g10_d1 g10_d11 g10_d12 g10_d13 g10_d2 g10_d22 g10_d23 g10_d3 g11 g11_d1 g11_d11 g11_d12 g11_d13 g11_d2 g11_d22 g11_d23 g11_d3 t0 t2 dt y0_0_0 y0_0_1 theta v_0_0 v_0_1 dW0_0_0 dW0_0_1 U0_0_0 U0_0_1 A0_0_0_0 A0_0_0_1 A0_0_1_0 A0_0_1_1 = a28
-  generalize Gen.grad_log_ode_s_general_22_g11_d12_848b81a0050b f0 f0_d1 f0_d2 f0_d3 f1 f1_d1 f1_d2 f1_d3 g00 g00_d1 g00_d11 g00_d12 g00_d13 g00_d2 g00_d22 g00_d23 g00_d3 g01 g01_d1 g01_d11 g01_d12 g01_d13 g01_d2 g01_d22 g01_d23 g01_d3 g10 g10_d1 g10_d11 g10_d12 g10_d13 g10_d2 g10_d22 g10_d23 g10_d3 g11 g11_d1 g11_d11 g11_d12 g11_d13 g11_d2 g11_d22 g11_d23 g11_d3 t0 t2 dt y0_0_0 y0_0_1 theta v_0_0 v_0_1 dW0_0_0 dW0_0_1 U0_0_0 U0_0_1 A0_0_0_0 A0_0_0_1 A0_0_1_0 A0_0_1_1 = a29
-  generalize Gen.grad_log_ode_s_general_22_g11_d1_61e386d218d9 f0 f0_d1 f0_d2 f0_d3 f1 f1_d1 f1_d2 f1_d3 g00 g00_d1 g00_d11 g00_d12 g00_d13 g00_d2 g00_d22 g00_d23 g00_d3 g01 g01_d1 g01_d11 g01_d12 g01_d13 g01_d2 g01_d22 g01_d23 g01_d3 g10 g10_d1 g10_d11 g10_d12 g10_d13 g10_d2 g10_d22 g10_d23 g10_d3 g11 g11_d1 g11_d11 g11_d12 g11_d13 g11_d2 g11_d22 g11_d23 g11_d3 t0 t2 dt y0_0_0 y0_0_1 theta v_0_0 v_0_1 dW0_0_0 dW0_0_1 U0_0_0 U0_0_1 A0_0_0_0 A0_0_0_1 A0_0_1_0 A0_0_1_1 = a30
-  generalize Gen.grad_log_ode_s_general_22_g11_d22_8e1d4710ef4d f0 f0_d1 f0_d2 f0_d3 f1 f1_d1 f1_d2 f1_d3 g00 g00_d1 g00_d11 g00_d12 g00_d13 g00_d2 g00_d22 g00_d23 g00_d3 g01 g01_d1 g01_d11 g01_d12 g01_d13 g01_d2 g01_d22 g01_d23 g01_d3 g10 g10_d1 g10_d11 g10_d12 g10_d13 g10_d2 g10_d22 g10_d23 g10_d3 g11 g11_d1 g11_d11 g11_d12 g11_d13 g11_d2 g11_d22 g11_d23 g11_d3 t0 t2 dt y0_0_0 y0_0_1 theta v_0_0 v_0_1 dW0_0_0 dW0_0_1 U0_0_0 U0_0_1 A0_0_0_0 A0_0_0_1 A0_0_1_0 A0_0_1_1 = a31
-  generalize Gen.grad_log_ode_s_general_22_g11_d2_1b85f2e726db f0 f0_d1 f0_d2 f0_d3 f1 f1_d1 f1_d2 f1_d3 g00 g00_d1 g00_d11 g00_d12 g00_d13 g00_d2 g00_d22 g00_d23 g00_d3 g01 g01_d1 g01_d11 g01_d12 g01_d13 g01_d2 g01_d22 g01_d23 g01_d3 g10 g10_d1 g10_d11 g10_d12 g10_d13 g10_d2 g10_d22 g10_d23 g10_d3 g11 g11_d1 g11_d11 g11_d12 g11_d13 g11_d2 g11_d22 g11_d23 g11_d3 t0 t2 dt y0_0_0 y0_0_1 theta v_0_0 v_0_1 dW0_0_0 dW0_0_1 U0_0_0 U0_0_1 A0_0_0_0 A0_0_0_1 A0_0_1_0 A0_0_1_1 = a32
-  generalize Gen.grad_log_ode_s_general_22_g11_d2_4d3c1fb23696 f0 f0_d1 f0_d2 f0_d3 f1 f1_d1 f1_d2 f1_d3 g00 g00_d1 g00_d11 g00_d12 g00_d13 g00_d2 g00_d22 g00_d23 g00_d3 g01 g01_d1 g01_d11 g01_d12 g01_d13 g01_d2 g01_d22 g01_d23 g01_d3 g10 g10_d1 g10_d11 g10_d12 g10_d13 g10_d2 g10_d22 g10_d23 g10_d3 g11 g11_d1 g11_d11 g11_d12 g11_d13 g11_d2 g11_d22 g11_d23 g11_d3 t0 t2 dt y0_0_0 y0_0_1 theta v_0_0 v_0_1 dW0_0_0 dW0_0_1 U0_0_0 U0_0_1 A0_0_0_0 A0_0_0_1 A0_0_1_0 A0_0_1_1 = a33
+/-- `gradp_reversible_heun_s_general_11`: backprop `gth` = forward derivative `tth` -/
+theorem gradp_reversible_heun_s_general_11_gth  (f : K → K → K → K) (f_d1 : K → K → K → K) (f_d2 : K → K → K → K) (g : K → K → K → K) (g_d1 : K → K → K → K) (g_d2 : K → K → K → K) (t0 t2 dt y0_0_0 theta v_0_0 dW0_0_0 dW1_0_0 : K) :
+    Gen.gradp_reversible_heun_s_general_11_gth f f_d1 f_d2 g g_d1 g_d2 t0 t2 dt y0_0_0 theta v_0_0 dW0_0_0 dW1_0_0 = Gen.gradp_reversible_heun_s_general_11_tth f f_d1 f_d2 g g_d1 g_d2 t0 t2 dt y0_0_0 theta v_0_0 dW0_0_0 dW1_0_0 := by
+  simp only [Gen.gradp_reversible_heun_s_general_11_gth, Gen.gradp_reversible_heun_s_general_11_tth]
+  generalize Gen.gradp_reversible_heun_s_general_11_f_d1_668ff2e067df f f_d1 f_d2 g g_d1 g_d2 t0 t2 dt y0_0_0 theta v_0_0 dW0_0_0 dW1_0_0 = a0
+  generalize Gen.gradp_reversible_heun_s_general_11_f_d1_7d8b6bbb9a6e f f_d1 f_d2 g g_d1 g_d2 t0 t2 dt y0_0_0 theta v_0_0 dW0_0_0 dW1_0_0 = a1
+  generalize Gen.gradp_reversible_heun_s_general_11_f_d2_75ad011491cf f f_d1 f_d2 g g_d1 g_d2 t0 t2 dt y0_0_0 theta v_0_0 dW0_0_0 dW1_0_0 = a2
+  generalize Gen.gradp_reversible_heun_s_general_11_f_d2_aa59138e4563 f f_d1 f_d2 g g_d1 g_d2 t0 t2 dt y0_0_0 theta v_0_0 dW0_0_0 dW1_0_0 = a3
+  generalize Gen.gradp_reversible_heun_s_general_11_f_d2_f85d5dcbccb1 f f_d1 f_d2 g g_d1 g_d2 t0 t2 dt y0_0_0 theta v_0_0 dW0_0_0 dW1_0_0 = a4
+  generalize Gen.gradp_reversible_heun_s_general_11_g_d1_09229750873c f f_d1 f_d2 g g_d1 g_d2 t0 t2 dt y0_0_0 theta v_0_0 dW0_0_0 dW1_0_0 = a5
+  generalize Gen.gradp_reversible_heun_s_general_11_g_d1_18d452194dca f f_d1 f_d2 g g_d1 g_d2 t0 t2 dt y0_0_0 theta v_0_0 dW0_0_0 dW1_0_0 = a6
+  generalize Gen.gradp_reversible_heun_s_general_11_g_d2_722b7a6bbfae f f_d1 f_d2 g g_d1 g_d2 t0 t2 dt y0_0_0 theta v_0_0 dW0_0_0 dW1_0_0 = a7
+  generalize Gen.gradp_reversible_heun_s_general_11_g_d2_72ad817e521d f f_d1 f_d2 g g_d1 g_d2 t0 t2 dt y0_0_0 theta v_0_0 dW0_0_0 dW1_0_0 = a8
+  generalize Gen.gradp_reversible_heun_s_general_11_g_d2_b5ffc99eee28 f f_d1 f_d2 g g_d1 g_d2 t0 t2 dt y0_0_0 theta v_0_0 dW0_0_0 dW1_0_0 = a9
   ring
 
 set_option maxHeartbeats 4000000 in
-/-- `grad_log_ode_s_general_22`: backprop `gth` = forward derivative `tth` -/
-theorem grad_log_ode_s_general_22_gth  (f0 : K → K → K → K → K) (f0_d1 : K → K → K → K → K) (f0_d2 : K → K → K → K → K) (f0_d3 : K → K → K → K → K) (f1 : K → K → K → K → K) (f1_d1 : K → K → K → K → K) (f1_d2 : K → K → K → K → K) (f1_d3 : K → K → K → K → K) (g00 : K → K → K → K → K) (g00_d1 : K → K → K → K → K) (g00_d11 : K → K → K → K → K) (g00_d12 : K → K → K → K → K) (g00_d13 : K → K → K → K → K) (g00_d2 : K → K → K → K → K) (g00_d22 : K → K → K → K → K) (g00_d23 : K → K → K → K → K) (g00_d3 : K → K → K → K → K) (g01 : K → K → K → K → K) (g01_d1 : K → K → K → K → K) (g01_d11 : K → K → K → K → K) (g01_d12 : K → K → K → K → K) (g01_d13 : K → K → K → K → K) (g01_d2 : K → K → K → K → K) (g01_d22 : K → K → K → K → K) (g01_d23 : K → K → K → K → K) (g01_d3 : K → K → K → K → K) (g10 : K → K → K → K → K) (g10_d1 : K → K → K → K → K) (g10_d11 : K → K → K → K → K) (g10_d12 : K → K → K → K → K) (g10_d13 : K → K → K → K → K) (g10_d2 : K → K → K → K → K) (g10_d22 : K → K → K → K → K) (g10_d23 : K → K → K → K → K) (g10_d3 : K → K → K → K → K) (g11 : K → K → K → K → K) (g11_d1 : K → K → K → K → K) (g11_d11 : K → K → K → K → K) (g11_d12 : K → K → K → K → K) (g11_d13 : K → K → K → K → K) (g11_d2 : K → K → K → K → K) (g11_d22 : K → K → K → K → K) (g11_d23 : K → K → K → K → K) (g11_d3 : K → K → K → K → K) (t0 t2 dt y0_0_0 y0_0_1 theta v_0_0 v_0_1 dW0_0_0 dW0_0_1 U0_0_0 U0_0_1 A0_0_0_0 A0_0_0_1 A0_0_1_0 A0_0_1_1 : K) :
-    Gen.grad_log_ode_s_general_22_gth f0 f0_d1 f0_d2 f0_d3 f1 f1_d1 f1_d2 f1_d3 g00 g00_d1 g00_d11 g00_d12 g00_d13 g00_d2 g00_d22 g00_d23 g00_d3 g01 g01_d1 g01_d11 g01_d12 g01_d13 g01_d2 g01_d22 g01_d23 g01_d3 g10 g10_d1 g10_d11 g10_d12 g10_d13 g10_d2 g10_d22 g10_d23 g10_d3 g11 g11_d1 g11_d11 g11_d12 g11_d13 g11_d2 g11_d22 g11_d23 g11_d3 t0 t2 dt y0_0_0 y0_0_1 theta v_0_0 v_0_1 dW0_0_0 dW0_0_1 U0_0_0 U0_0_1 A0_0_0_0 A0_0_0_1 A0_0_1_0 A0_0_1_1 = Gen.grad_log_ode_s_general_22_tth f0 f0_d1 f0_d2 f0_d3 f1 f1_d1 f1_d2 f1_d3 g00 g00_d1 g00_d11 g00_d12 g00_d13 g00_d2 g00_d22 g00_d23 g00_d3 g01 g01_d1 g01_d11 g01_d12 g01_d13 g01_d2 g01_d22 g01_d23 g01_d3 g10 g10_d1 g10_d11 g10_d12 g10_d13 g10_d2 g10_d22 g10_d23 g10_d3 g11 g11_d1 g11_d11 g11_d12 g11_d13 g11_d2 g11_d22 g11_d23 g11_d3 t0 t2 dt y0_0_0 y0_0_1 theta v_0_0 v_0_1 dW0_0_0 dW0_0_1 U0_0_0 U0_0_1 A0_0_0_0 A0_0_0_1 A0_0_1_0 A0_0_1_1 := by
-  simp only [Gen.grad_log_ode_s_general_22_gth, Gen.grad_log_ode_s_general_22_tth]
-  generalize Gen.grad_log_ode_s_general_22_f0_d1_96080579f9e2 f0 f0_d1 f0_d2 f0_d3 f1 f1_d1 f1_d2 f1_d3 g00 g00_d1 g00_d11 g00_d12 g00_d13 g00_d2 g00_d22 g00_d23 g00_d3 g01 g01_d1 g01_d11 g01_d12 g01_d13 g01_d2 g01_d22 g01_d23 g01_d3 g10 g10_d1 g10_d11 g10_d12 g10_d13 g10_d2 g10_d22 g10_d23 g10_d3 g11 g11_d1 g11_d11 g11_d12 g11_d13 g11_d2 g11_d22 g11_d23 g11_d3 t0 t2 dt y0_0_0 y0_0_1 theta v_0_0 v_0_1 dW0_0_0 dW0_0_1 U0_0_0 U0_0_1 A0_0_0_0 A0_0_0_1 A0_0_1_0 A0_0_1_1 = a0
-  generalize Gen.grad_log_ode_s_general_22_f0_d2_9891193c3e58 f0 f0_d1 f0_d2 f0_d3 f1 f1_d1 f1_d2 f1_d3 g00 g00_d1 g00_d11 g00_d12 g00_d13 g00_d2 g00_d22 g00_d23 g00_d3 g01 g01_d1 g01_d11 g01_d12 g01_d13 g01_d2 g01_d22 g01_d23 g01_d3 g10 g10_d1 g10_d11 g10_d12 g10_d13 g10_d2 g10_d22 g10_d23 g10_d3 g11 g11_d1 g11_d11 g11_d12 g11_d13 g11_d2 g11_d22 g11_d23 g11_d3 t0 t2 dt y0_0_0 y0_0_1 theta v_0_0 v_0_1 dW0_0_0 dW0_0_1 U0_0_0 U0_0_1 A0_0_0_0 A0_0_0_1 A0_0_1_0 A0_0_1_1 = a1
-  generalize Gen.grad_log_ode_s_general_22_f0_d3_117f0ace4604 f0 f0_d1 f0_d2 f0_d3 f1 f1_d1 f1_d2 f1_d3 g00 g00_d1 g00_d11 g00_d12 g00_d13 g00_d2 g00_d22 g00_d23 g00_d3 g01 g01_d1 g01_d11 g01_d12 g01_d13 g01_d2 g01_d22 g01_d23 g01_d3 g10 g10_d1 g10_d11 g10_d12 g10_d13 g10_d2 g10_d22 g10_d23 g10_d3 g11 g11_d1 g11_d11 g11_d12 g11_d13 g11_d2 g11_d22 g11_d23 g11_d3 t0 t2 dt y0_0_0 y0_0_1 theta v_0_0 v_0_1 dW0_0_0 dW0_0_1 U0_0_0 U0_0_1 A0_0_0_0 A0_0_0_1 A0_0_1_0 A0_0_1_1 = a2
-  generalize Gen.grad_log_ode_s_general_22_f0_d3_b553ac89b4ce f0 f0_d1 f0_d2 f0_d3 f1 f1_d1 f1_d2 f1_d3 g00 g00_d1 g00_d11 g00_d12 g00_d13 g00_d2 g00_d22 g00_d23 g00_d3 g01 g01_d1 g01_d11 g01_d12 g01_d13 g01_d2 g01_d22 g01_d23 g01_d3 g10 g10_d1 g10_d11 g10_d12 g10_d13 g10_d2 g10_d22 g10_d23 g10_d3 g11 g11_d1 g11_d11 g11_d12 g11_d13 g11_d2 g11_d22 g11_d23 g11_d3 t0 t2 dt y0_0_0 y0_0_1 theta v_0_0 v_0_1 dW0_0_0 dW0_0_1 U0_0_0 U0_0_1 A0_0_0_0 A0_0_0_1 A0_0_1_0 A0_0_1_1 = a3
-  generalize Gen.grad_log_ode_s_general_22_f1_d1_d87d0243b310 f0 f0_d1 f0_d2 f0_d3 f1 f1_d1 f1_d2 f1_d3 g00 g00_d1 g00_d11 g00_d12 g00_d13 g00_d2 g00_d22 g00_d23 g00_d3 g01 g01_d1 g01_d11 g01_d12 g01_d13 g01_d2 g01_d22 g01_d23 g01_d3 g10 g10_d1 g10_d11 g10_d12 g10_d13 g10_d2 g10_d22 g10_d23 g10_d3 g11 g11_d1 g11_d11 g11_d12 g11_d13 g11_d2 g11_d22 g11_d23 g11_d3 t0 t2 dt y0_0_0 y0_0_1 theta v_0_0 v_0_1 dW0_0_0 dW0_0_1 U0_0_0 U0_0_1 A0_0_0_0 A0_0_0_1 A0_0_1_0 A0_0_1_1 = a4
-  generalize Gen.grad_log_ode_s_general_22_f1_d2_f5ba8df085b6 f0 f0_d1 f0_d2 f0_d3 f1 f1_d1 f1_d2 f1_d3 g00 g00_d1 g00_d11 g00_d12 g00_d13 g00_d2 g00_d22 g00_d23 g00_d3 g01 g01_d1 g01_d11 g01_d12 g01_d13 g01_d2 g01_d22 g01_d23 g01_d3 g10 g10_d1 g10_d11 g10_d12 g10_d13 g10_d2 g10_d22 g10_d23 g10_d3 g11 g11_d1 g11_d11 g11_d12 g11_d13 g11_d2 g11_d22 g11_d23 g11_d3 t0 t2 dt y0_0_0 y0_0_1 theta v_0_0 v_0_1 dW0_0_0 dW0_0_1 U0_0_0 U0_0_1 A0_0_0_0 A0_0_0_1 A0_0_1_0 A0_0_1_1 = a5
-  generalize Gen.grad_log_ode_s_general_22_f1_d3_2a1724b67cde f0 f0_d1 f0_d2 f0_d3 f1 f1_d1 f1_d2 f1_d3 g00 g00_d1 g00_d11 g00_d12 g00_d13 g00_d2 g00_d22 g00_d23 g00_d3 g01 g01_d1 g01_d11 g01_d12 g01_d13 g01_d2 g01_d22 g01_d23 g01_d3 g10 g10_d1 g10_d11 g10_d12 g10_d13 g10_d2 g10_d22 g10_d23 g10_d3 g11 g11_d1 g11_d11 g11_d12 g11_d13 g11_d2 g11_d22 g11_d23 g11_d3 t0 t2 dt y0_0_0 y0_0_1 theta v_0_0 v_0_1 dW0_0_0 dW0_0_1 U0_0_0 U0_0_1 A0_0_0_0 A0_0_0_1 A0_0_1_0 A0_0_1_1 = a6
-  generalize Gen.grad_log_ode_s_general_22_f1_d3_711269134f9c f0 f0_d1 f0_d2 f0_d3 f1 f1_d1 f1_d2 f1_d3 g00 g00_d1 g00_d11 g00_d12 g00_d13 g00_d2 g00_d22 g00_d23 g00_d3 g01 g01_d1 g01_d11 g01_d12 g01_d13 g01_d2 g01_d22 g01_d23 g01_d3 g10 g10_d1 g10_d11 g10_d12 g10_d13 g10_d2 g10_d22 g10_d23 g10_d3 g11 g11_d1 g11_d11 g11_d12 g11_d13 g11_d2 g11_d22 g11_d23 g11_d3 t0 t2 dt y0_0_0 y0_0_1 theta v_0_0 v_0_1 dW0_0_0 dW0_0_1 U0_0_0 U0_0_1 A0_0_0_0 A0_0_0_1 A0_0_1_0 A0_0_1_1 = a7
-  generalize Gen.grad_log_ode_s_general_22_g00_9fb370ea77be f0 f0_d1 f0_d2 f0_d3 f1 f1_d1 f1_d2 f1_d3 g00 g00_d1 g00_d11 g00_d12 g00_d13 g00_d2 g00_d22 g00_d23 g00_d3 g01 g01_d1 g01_d11 g01_d12 g01_d13 g01_d2 g01_d22 g01_d23 g01_d3 g10 g10_d1 g10_d11 g10_d12 g10_d13 g10_d2 g10_d22 g10_d23 g10_d3 g11 g11_d1 g11_d11 g11_d12 g11_d13 g11_d2 g11_d22 g11_d23 g11_d3 t0 t2 dt y0_0_0 y0_0_1 theta v_0_0 v_0_1 dW0_0_0 dW0_0_1 U0_0_0 U0_0_1 A0_0_0_0 A0_0_0_1 A0_0_1_0 A0_0_1_1 = a8
-  generalize Gen.grad_log_ode_s_general_22_g00_d11_938651f4d831 f0 f0_d1 f0_d2 f0_d3 f1 f1_d1 f1_d2 f1_d3 g00 g00_d1 g00_d11 g00_d12 g00_d13 g00_d2 g00_d22 g00_d23 g00_d3 g01 g01_d1 g01_d11 g01_d12 g01_d13 g01_d2 g01_d22 g01_d23 g01_d3 g10 g10_d1 g10_d11 g10_d12 g10_d13 g10_d2 g10_d22 g10_d23 g10_d3 g11 g11_d1 g11_d11 g11_d12 g11_d13 g11_d2 g11_d22 g11_d23 g11_d3 t0 t2 dt y0_0_0 y0_0_1 theta v_0_0 v_0_1 dW0_0_0 dW0_0_1 U0_0_0 U0_0_1 A0_0_0_0 A0_0_0_1 A0_0_1_0 A0_0_1_1 = a9
-  generalize Gen.grad_log_ode_s_general_22_g00_d12_569d89c0c3e4 f0 f0_d1 f0_d2 f0_d3 f1 f1_d1 f1_d2 f1_d3 g00 g00_d1 g00_d11 g00_d12 g00_d13 g00_d2 g00_d22 g00_d23 g00_d3 g01 g01_d1 g01_d11 g01_d12 g01_d13 g01_d2 g01_d22 g01_d23 g01_d3 g10 g10_d1 g10_d11 g10_d12 g10_d13 g10_d2 g10_d22 g10_d23 g10_d3 g11 g11_d1 g11_d11 g11_d12 g11_d13 g11_d2 g11_d22 g11_d23 g11_d3 t0 t2 dt y0_0_0 y0_0_1 theta v_0_0 v_0_1 dW0_0_0 dW0_0_1 U0_0_0 U0_0_1 A0_0_0_0 A0_0_0_1 A0_0_1_0 A0_0_1_1 = a10
-  generalize Gen.grad_log_ode_s_general_22_g00_d13_08d029e73cce f0 f0_d1 f0_d2 f0_d3 f1 f1_d1 f1_d2 f1_d3 g00 g00_d1 g00_d11 g00_d12 g00_d13 g00_d2 g00_d22 g00_d23 g00_d3 g01 g01_d1 g01_d11 g01_d12 g01_d13 g01_d2 g01_d22 g01_d23 g01_d3 g10 g10_d1 g10_d11 g10_d12 g10_d13 g10_d2 g10_d22 g10_d23 g10_d3 g11 g11_d1 g11_d11 g11_d12 g11_d13 g11_d2 g11_d22 g11_d23 g11_d3 t0 t2 dt y0_0_0 y0_0_1 theta v_0_0 v_0_1 dW0_0_0 dW0_0_1 U0_0_0 U0_0_1 A0_0_0_0 A0_0_0_1 A0_0_1_0 A0_0_1_1 = a11
-  generalize Gen.grad_log_ode_s_general_22_g00_d1_0c1ed2503833 f0 f0_d1 f0_d2 f0_d3 f1 f1_d1 f1_d2 f1_d3 g00 g00_d1 g00_d11 g00_d12 g00_d13 g00_d2 g00_d22 g00_d23 g00_d3 g01 g01_d1 g01_d11 g01_d12 g01_d13 g01_d2 g01_d22 g01_d23 g01_d3 g10 g10_d1 g10_d11 g10_d12 g10_d13 g10_d2 g10_d22 g10_d23 g10_d3 g11 g11_d1 g11_d11 g11_d12 g11_d13 g11_d2 g11_d22 g11_d23 g11_d3 t0 t2 dt y0_0_0 y0_0_1 theta v_0_0 v_0_1 dW0_0_0 dW0_0_1 U0_0_0 U0_0_1 A0_0_0_0 A0_0_0_1 A0_0_1_0 A0_0_1_1 = a12
-  generalize Gen.grad_log_ode_s_general_22_g00_d22_e3a0dc158aed f0 f0_d1 f0_d2 f0_d3 f1 f1_d1 f1_d2 f1_d3 g00 g00_d1 g00_d11 g00_d12 g00_d13 g00_d2 g00_d22 g00_d23 g00_d3 g01 g01_d1 g01_d11 g01_d12 g01_d13 g01_d2 g01_d22 g01_d23 g01_d3 g10 g10_d1 g10_d11 g10_d12 g10_d13 g10_d2 g10_d22 g10_d23 g10_d3 g11 g11_d1 g11_d11 g11_d12 g11_d13 g11_d2 g11_d22 g11_d23 g11_d3 t0 t2 dt y0_0_0 y0_0_1 theta v_0_0 v_0_1 dW0_0_0 dW0_0_1 U0_0_0 U0_0_1 A0_0_0_0 A0_0_0_1 A0_0_1_0 A0_0_1_1 = a13
-  generalize Gen.grad_log_ode_s_general_22_g00_d23_5afb7ee7f17b f0 f0_d1 f0_d2 f0_d3 f1 f1_d1 f1_d2 f1_d3 g00 g00_d1 g00_d11 g00_d12 g00_d13 g00_d2 g00_d22 g00_d23 g00_d3 g01 g01_d1 g01_d11 g01_d12 g01_d13 g01_d2 g01_d22 g01_d23 g01_d3 g10 g10_d1 g10_d11 g10_d12 g10_d13 g10_d2 g10_d22 g10_d23 g10_d3 g11 g11_d1 g11_d11 g11_d12 g11_d13 g11_d2 g11_d22 g11_d23 g11_d3 t0 t2 dt y0_0_0 y0_0_1 theta v_0_0 v_0_1 dW0_0_0 dW0_0_1 U0_0_0 U0_0_1 A0_0_0_0 A0_0_0_1 A0_0_1_0 A0_0_1_1 = a14
-  generalize Gen.grad_log_ode_s_general_22_g00_d2_42da16d43f61 f0 f0_d1 f0_d2 f0_d3 f1 f1_d1 f1_d2 f1_d3 g00 g00_d1 g00_d11 g00_d12 g00_d13 g00_d2 g00_d22 g00_d23 g00_d3 g01 g01_d1 g01_d11 g01_d12 g01_d13 g01_d2 g01_d22 g01_d23 g01_d3 g10 g10_d1 g10_d11 g10_d12 g10_d13 g10_d2 g10_d22 g10_d23 g10_d3 g11 g11_d1 g11_d11 g11_d12 g11_d13 g11_d2 g11_d22 g11_d23 g11_d3 t0 t2 dt y0_0_0 y0_0_1 theta v_0_0 v_0_1 dW0_0_0 dW0_0_1 U0_0_0 U0_0_1 A0_0_0_0 A0_0_0_1 A0_0_1_0 A0_0_1_1 = a15
-  generalize Gen.grad_log_ode_s_general_22_g00_d3_b94e31578305 f0 f0_d1 f0_d2 f0_d3 f1 f1_d1 f1_d2 f1_d3 g00 g00_d1 g00_d11 g00_d12 g00_d13 g00_d2 g00_d22 g00_d23 g00_d3 g01 g01_d1 g01_d11 g01_d12 g01_d13 g01_d2 g01_d22 g01_d23 g01_d3 g10 g10_d1 g10_d11 g10_d12 g10_d13 g10_d2 g10_d22 g10_d23 g10_d3 g11 g11_d1 g11_d11 g11_d12 g11_d13 g11_d2 g11_d22 g11_d23 g11_d3 t0 t2 dt y0_0_0 y0_0_1 theta v_0_0 v_0_1 dW0_0_0 dW0_0_1 U0_0_0 U0_0_1 A0_0_0_0 A0_0_0_1 A0_0_1_0 A0_0_1_1 = a16
-  generalize Gen.grad_log_ode_s_general_22_g00_d3_dfb908c2ad49 f0 f0_d1 f0_d2 f0_d3 f1 f1_d1 f1_d2 f1_d3 g00 g00_d1 g00_d11 g00_d12 g00_d13 g00_d2 g00_d22 g00_d23 g00_d3 g01 g01_d1 g01_d11 g01_d12 g01_d13 g01_d2 g01_d22 g01_d23 g01_d3 g10 g10_d1 g10_d11 g10_d12 g10_d13 g10_d2 g10_d22 g10_d23 g10_d3 g11 g11_d1 g11_d11 g11_d12 g11_d13 g11_d2 g11_d22 g11_d23 g11_d3 t0 t2 dt y0_0_0 y0_0_1 theta v_0_0 v_0_1 dW0_0_0 dW0_0_1 U0_0_0 U0_0_1 A0_0_0_0 A0_0_0_1 A0_0_1_0 A0_0_1_1 = a17
-  generalize Gen.grad_log_ode_s_general_22_g01_77642728581d f0 f0_d1 f0_d2 f0_d3 f1 f1_d1 f1_d2 f1_d3 g00 g00_d1 g00_d11 g00_d12 g00_d13 g00_d2 g00_d22 g00_d23 g00_d3 g01 g01_d1 g01_d11 g01_d12 g01_d13 g01_d2 g01_d22 g01_d23 g01_d3 g10 g10_d1 g10_d11 g10_d12 g10_d13 g10_d2 g10_d22 g10_d23 g10_d3 g11 g11_d1 g11_d11 g11_d12 g11_d13 g11_d2 g11_d22 g11_d23 g11_d3 t0 t2 dt y0_0_0 y0_0_1 theta v_0_0 v_0_1 dW0_0_0 dW0_0_1 U0_0_0 U0_0_1 A0_0_0_0 A0_0_0_1 A0_0_1_0 A0_0_1_1 = a18
-  generalize Gen.grad_log_ode_s_general_22_g01_d11_541c0820b8d1 f0 f0_d1 f0_d2 f0_d3 f1 f1_d1 f1_d2 f1_d3 g00 g00_d1 g00_d11 g00_d12 g00_d13 g00_d2 g00_d22 g00_d23 g00_d3 g01 g01_d1 g01_d11 g01_d12 g01_d13 g01_d2 g01_d22 g01_d23 g01_d3 g10 g10_d1 g10_d11 g10_d12 g10_d13 g10_d2 g10_d22 g10_d23 g10_d3 g11 g11_d1 g11_d11 g11_d12 g11_d13 g11_d2 g11_d22 g11_d23 g11_d3 t0 t2 dt y0_0_0 y0_0_1 theta v_0_0 v_0_1 dW0_0_0 dW0_0_1 U0_0_0 U0_0_1 A0_0_0_0 A0_0_0_1 A0_0_1_0 A0_0_1_1 = a19
-  generalize Gen.grad_log_ode_s_general_22_g01_d12_bae8c03cdf80 f0 f0_d1 f0_d2 f0_d3 f1 f1_d1 f1_d2 f1_d3 g00 g00_d1 g00_d11 g00_d12 g00_d13 g00_d2 g00_d22 g00_d23 g00_d3 g01 g01_d1 g01_d11 g01_d12 g01_d13 g01_d2 g01_d22 g01_d23 g01_d3 g10 g10_d1 g10_d11 g10_d12 g10_d13 g10_d2 g10_d22 g10_d23 g10_d3 g11 g11_d1 g11_d11 g11_d12 g11_d13 g11_d2 g11_d22 g11_d23 g11_d3 t0 t2 dt y0_0_0 y0_0_1 theta v_0_0 v_0_1 dW0_0_0 dW0_0_1 U0_0_0 U0_0_1 A0_0_0_0 A0_0_0_1 A0_0_1_0 A0_0_1_1 = a20
-  generalize Gen.grad_log_ode_s_general_22_g01_d13_3f6da25a419d f0 f0_d1 f0_d2 f0_d3 f1 f1_d1 f1_d2 f1_d3 g00 g00_d1 g00_d11 g00_d12 g00_d13 g00_d2 g00_d22 g00_d23 g00_d3 g01 g01_d1 g01_d11 g01_d12 g01_d13 g01_d2 g01_d22 g01_d23 g01_d3 g10 g10_d1 g10_d11 g10_d12 g10_d13 g10_d2 g10_d22 g10_d23 g10_d3 g11 g11_d1 g11_d11 g11_d12 g11_d13 g11_d2 g11_d22 g11_d23 g11_d3 t0 t2 dt y0_0_0 y0_0_1 theta v_0_0 v_0_1 dW0_0_0 dW0_0_1 U0_0_0 U0_0_1 A0_0_0_0 A0_0_0_1 A0_0_1_0 A0_0_1_1 = a21
-  generalize Gen.grad_log_ode_s_general_22_g01_d1_f108b1b386dd f0 f0_d1 f0_d2 f0_d3 f1 f1_d1 f1_d2 f1_d3 g00 g00_d1 g00_d11 g00_d12 g00_d13 g00_d2 g00_d22 g00_d23 g00_d3 g01 g01_d1 g01_d11 g01_d12 g01_d13 g01_d2 g01_d22 g01_d23 g01_d3 g10 g10_d1 g10_d11 g10_d12 g10_d13 g10_d2 g10_d22 g10_d23 g10_d3 g11 g11_d1 g11_d11 g11_d12 g11_d13 g11_d2 g11_d22 g11_d23 g11_d3 t0 t2 dt y0_0_0 y0_0_1 theta v_0_0 v_0_1 dW0_0_0 dW0_0_1 U0_0_0 U0_0_1 A0_0_0_0 A0_0_0_1 A0_0_1_0 A0_0_1_1 = a22
-  generalize Gen.grad_log_ode_s_general_22_g01_d22_5b620a87e2e9 f0 f0_d1 f0_d2 f0_d3 f1 f1_d1 f1_d2 f1_d3 g00 g00_d1 g00_d11 g00_d12 g00_d13 g00_d2 g00_d22 g00_d23 g00_d3 g01 g01_d1 g01_d11 g01_d12 g01_d13 g01_d2 g01_d22 g01_d23 g01_d3 g10 g10_d1 g10_d11 g10_d12 g10_d13 g10_d2 g10_d22 g10_d23 g10_d3 g11 g11_d1 g11_d11 g11_d12 g11_d13 g11_d2 g11_d22 g11_d23 g11_d3 t0 t2 dt y0_0_0 y0_0_1 theta v_0_0 v_0_1 dW0_0_0 dW0_0_1 U0_0_0 U0_0_1 A0_0_0_0 A0_0_0_1 A0_0_1_0 A0_0_1_1 = a23
-  generalize Gen.grad_log_ode_s_general_22_g01_d23_f5983a9c7048 f0 f0_d1 f0_d2 f0_d3 f1 f1_d1 f1_d2 f1_d3 g00 g00_d1 g00_d11 g00_d12 g00_d13 g00_d2 g00_d22 g00_d23 g00_d3 g01 g01_d1 g01_d11 g01_d12 g01_d13 g01_d2 g01_d22 g01_d23 g01_d3 g10 g10_d1 g10_d11 g10_d12 g10_d13 g10_d2 g10_d22 g10_d23 g10_d3 g11 g11_d1 g11_d11 g11_d12 g11_d13 g11_d2 g11_d22 g11_d23 g11_d3 t0 t2 dt y0_0_0 y0_0_1 theta v_0_0 v_0_1 dW0_0_0 dW0_0_1 U0_0_0 U0_0_1 A0_0_0_0 A0_0_0_1 A0_0_1_0 A0_0_1_1 = a24
-  generalize Gen.grad_log_ode_s_general_22_g01_d2_78d001620003 f0 f0_d1 f0_d2 f0_d3 f1 f1_d1 f1_d2 f1_d3 g00 g00_d1 g00_d11 g00_d12 g00_d13 g00_d2 g00_d22 g00_d23 g00_d3 g01 g01_d1 g01_d11 g01_d12 g01_d13 g01_d2 g01_d22 g01_d23 g01_d3 g10 g10_d1 g10_d11 g10_d12 g10_d13 g10_d2 g10_d22 g10_d23 g10_d3 g11 g11_d1 g11_d11 g11_d12 g11_d13 g11_d2 g11_d22 g11_d23 g11_d3 t0 t2 dt y0_0_0 y0_0_1 theta v_0_0 v_0_1 dW0_0_0 dW0_0_1 U0_0_0 U0_0_1 A0_0_0_0 A0_0_0_1 A0_0_1_0 A0_0_1_1 = a25
-  generalize Gen.grad_log_ode_s_general_22_g01_d3_078ee3c5a265 f0 f0_d1 f0_d2 f0_d3 f1 f1_d1 f1_d2 f1_d3 g00 g00_d1 g00_d11 g00_d12 g00_d13 g00_d2 g00_d22 g00_d23 g00_d3 g01 g01_d1 g01_d11 g01_d12 g01_d13 g01_d2 g01_d22 g01_d23 g01_d3 g10 g10_d1 g10_d11 g10_d12 g10_d13 g10_d2 g10_d22 g10_d23 g10_d3 g11 g11_d1 g11_d11 g11_d12 g11_d13 g11_d2 g11_d22 g11_d23 g11_d3 t0 t2 dt y0_0_0 y0_0_1 theta v_0_0 v_0_1 dW0_0_0 dW0_0_1 U0_0_0 U0_0_1 A0_0_0_0 A0_0_0_1 A0_0_1_0 A0_0_1_1 = a26
-  generalize Gen.grad_log_ode_s_general_22_g01_d3_36b2116c1fe6 f0 f0_d1 f0_d2 f0_d3 f1 f1_d1 f1_d2 f1_d3 g00 g00_d1 g00_d11 g00_d12 g00_d13 g00_d2 g00_d22 g00_d23 g00_d3 g01 g01_d1 g01_d11 g01_d12 g01_d13 g01_d2 g01_d22 g01_d23 g01_d3 g10 g10_d1 g10_d11 g10_d12 g10_d13 g10_d2 g10_d22 g10_d23 g10_d3 g11 g11_d1 g11_d11 g11_d12 g11_d13 g11_d2 g11_d22 g11_d23 g11_d3 t0 t2 dt y0_0_0 y0_0_1 theta v_0_0 v_0_1 dW0_0_0 dW0_0_1 U0_0_0 U0_0_1 A0_0_0_0 A0_0_0_1 A0_0_1_0 A0_0_1_1 = a27
-  generalize Gen.grad_log_ode_s_general_22_g10_6981f9c71902 f0 f0_d1 f0_d2 f0_d3 f1 f1_d1 f1_d2 f1_d3 g00 g00_d1 g00_d11 g00_d12 g00_d13 g00_d2 g00_d22 g00_d23 g00_d3 g01 g01_d1 g01_d11 g01_d12 g01_d13 g01_d2 g01_d22 g01_d23 g01_d3 g10 g10_d1 g10_d11 g10_d12 g10_d13 g10_d2 g10_d22 g10_d23 g10_d3 g11 g11_d1 g11_d11 g11_d12 g11_d13 g11_d2 g11_d22 g11_d23 g11_d3 t0 t2 dt y0_0_0 y0_0_1 theta v_0_0 v_0_1 dW0_0_0 dW0_0_1 U0_0_0 U0_0_1 A0_0_0_0 A0_0_0_1 A0_0_1_0 A0_0_1_1 = a28
-  generalize Gen.grad_log_ode_s_general_22_g10_d11_2393d41128ff f0 f0_d1 f0_d2 f0_d3 f1 f1_d1 f1_d2 f1_d3 g00 g00_d1 g00_d11 g00_d12 g00_d13 g00_d2 g00_d22 g00_d23 g00_d3 g01 g01_d1 g01_d11 g01_d12 g01_d13 g01_d2 g01_d22 g01_d23 g01_d3 g10 g10_d1 g10_d11 g10_d12 g10_d13 g10_d2 g10_d22 g10_d23 g10_d3 g11 g11_d1 g11_d11 g11_d12 g11_d13 g11_d2 g11_d22 g11_d23 g11_d3 t0 t2 dt y0_0_0 y0_0_1 theta v_0_0 v_0_1 dW0_0_0 dW0_0_1 U0_0_0 U0_0_1 A0_0_0_0 A0_0_0_1 A0_0_1_0 A0_0_1_1 = a29
-  generalize Gen.grad_log_ode_s_general_22_g10_d12_394aee8c727d f0 f0_d1 f0_d2 f0_d3 f1 f1_d1 f1_d2 f1_d3 g00 g00_d1 g00_d11 g00_d12 g00_d13 g00_d2 g00_d22 g00_d23 g00_d3 g01 g01_d1 g01_d11 g01_d12 g01_d13 g01_d2 g01_d22 g01_d23 g01_d3 g10 g10_d1 g10_d11 g10_d12 g10_d13 g10_d2 g10_d22 g10_d23 g10_d3 g11 g11_d1 g11_d11 g11_d12 g11_d13 g11_d2 g11_d22 g11_d23 g11_d3 t0 t2 dt y0_0_0 y0_0_1 theta v_0_0 v_0_1 dW0_0_0 dW0_0_1 U0_0_0 U0_0_1 A0_0_0_0 A0_0_0_1 A0_0_1_0 A0_0_1_1 = a30
-  generalize Gen.grad_log_ode_s_general_22_g10_d13_1044106ceb4c f0 f0_d1 f0_d2 f0_d3 f1 f1_d1 f1_d2 f1_d3 g00 g00_d1 g00_d11 g00_d12 g00_d13 g00_d2 g00_d22 g00_d23 g00_d3 g01 g01_d1 g01_d11 g01_d12 g01_d13 g01_d2 g01_d22 g01_d23 g01_d3 g10 g10_d1 g10_d11 g10_d12 g10_d13 g10_d2 g10_d22 g10_d23 g10_d3 g11 g11_d1 g11_d11 g11_d12 g11_d13 g11_d2 g11_d22 g11_d23 g11_d3 t0 t2 dt y0_0_0 y0_0_1 theta v_0_0 v_0_1 dW0_0_0 dW0_0_1 U0_0_0 U0_0_1 A0_0_0_0 A0_0_0_1 A0_0_1_0 A0_0_1_1 = a31
-  generalize Gen.grad_log_ode_s_general_22_g10_d1_f0eb93c6fec4 f0 f0_d1 f0_d2 f0_d3 f1 f1_d1 f1_d2 f1_d3 g00 g00_d1 g00_d11 g00_d12 g00_d13 g00_d2 g00_d22 g00_d23 g00_d3 g01 g01_d1 g01_d11 g01_d12 g01_d13 g01_d2 g01_d22 g01_d23 g01_d3 g10 g10_d1 g10_d11 g10_d12 g10_d13 g10_d2 g10_d22 g10_d23 g10_d3 g11 g11_d1 g11_d11 g11_d12 g11_d13 g11_d2 g11_d22 g11_d23 g11_d3 t0 t2 dt y0_0_0 y0_0_1 theta v_0_0 v_0_1 dW0_0_0 dW0_0_1 U0_0_0 U0_0_1 A0_0_0_0 A0_0_0_1 A0_0_1_0 A0_0_1_1 = a32
-  generalize Gen.grad_log_ode_s_general_22_g10_d22_b5a976e386a2 f0 f0_d1 f0_d2 f0_d3 f1 f1_d1 f1_d2 f1_d3 g00 g00_d1 g00_d11 g00_d12 g00_d13 g00_d2 g00_d22 g00_d23 g00_d3 g01 g01_d1 g01_d11 g01_d12 g01_d13 g01_d2 g01_d22 g01_d23 g01_d3 g10 g10_d1 g10_d11 g10_d12 g10_d13 g10_d2 g10_d22 g10_d23 g10_d3 g11 g11_d1 g11_d11 g11_d12 g11_d13 g11_d2 g11_d22 g11_d23 g11_d3 t0 t2 dt y0_0_0 y0_0_1 theta v_0_0 v_0_1 dW0_0_0 dW0_0_1 U0_0_0 U0_0_1 A0_0_0_0 A0_0_0_1 A0_0_1_0 A0_0_1_1 = a33
-  generalize Gen.grad_log_ode_s_general_22_g10_d23_9758118a06f6 f0 f0_d1 f0_d2 f0_d3 f1 f1_d1 f1_d2 f1_d3 g00 g00_d1 g00_d11 g00_d12 g00_d13 g00_d2 g00_d22 g00_d23 g00_d3 g01 g01_d1 g01_d11 g01_d12 g01_d13 g01_d2 g01_d22 g01_d23 g01_d3 g10 g10_d1 g10_d11 g10_d12 g10_d13 g10_d2 g10_d22 g10_d23 g10_d3 g11 g11_d1 g11_d11 g11_d12 g11_d13 g11_d2 g11_d22 g11_d23 g11_d3 t0 t2 dt y0_0_0 y0_0_1 theta v_0_0 v_0_1 dW0_0_0 dW0_0_1 U0_0_0 U0_0_1 A0_0_0_0 A0_0_0_1 A0_0_1_0 A0_0_1_1 = a34
-  generalize Gen.grad_log_ode_s_general_22_g10_d2_c2c7900b2942 f0 f0_d1 f0_d2 f0_d3 f1 f1_d1 f1_d2 f1_d3 g00 g00_d1 g00_d11 g00_d12 g00_d13 g00_d2 g00_d22 g00_d23 g00_d3 g01 g01_d1 g01_d11 g01_d12 g01_d13 g01_d2 g01_d22 g01_d23 g01_d3 g10 g10_d1 g10_d11 g10_d12 g10_d13 g10_d2 g10_d22 g10_d23 g10_d3 g11 g11_d1 g11_d11 g11_d12 g11_d13 g11_d2 g11_d22 g11_d23 g11_d3 t0 t2 dt y0_0_0 y0_0_1 theta v_0_0 v_0_1 dW0_0_0 dW0_0_1 U0_0_0 U0_0_1 A0_0_0_0 A0_0_0_1 A0_0_1_0 A0_0_1_1 = a35
-  generalize Gen.grad_log_ode_s_general_22_g10_d3_a099a6cba352 f0 f0_d1 f0_d2 f0_d3 f1 f1_d1 f1_d2 f1_d3 g00 g00_d1 g00_d11 g00_d12 g00_d13 g00_d2 g00_d22 g00_d23 g00_d3 g01 g01_d1 g01_d11 g01_d12 g01_d13 g01_d2 g01_d22 g01_d23 g01_d3 g10 g10_d1 g10_d11 g10_d12 g10_d13 g10_d2 g10_d22 g10_d23 g10_d3 g11 g11_d1 g11_d11 g11_d12 g11_d13 g11_d2 g11_d22 g11_d23 g11_d3 t0 t2 dt y0_0_0 y0_0_1 theta v_0_0 v_0_1 dW0_0_0 dW0_0_1 U0_0_0 U0_0_1 A0_0_0_0 A0_0_0_1 A0_0_1_0 A0_0_1_1 = a36
-  generalize Gen.grad_log_ode_s_general_22_g10_d3_f3c762927fb5 f0 f0_d1 f0_d2 f0_d3 f1 f1_d1 f1_d2 f1_d3 g00 g00_d1 g00_d11 g00_d12 g00_d13 g00_d2 g00_d22 g00_d23 g00_d3 g01 g01_d1 g01_d11 g01_d12 g01_d13 g01_d2 g01_d22 g01_d23 g01_d3 g10 g10_d1 g10_d11 g10_d12 g10_d13 g10_d2 g10_d22 g10_d23 g10_d3 g11 g11_d1 g11_d11 g11_d12 g11_d13 g11_d2 g11_d22 g11_d23 g11_d3 t0 t2 dt y0_0_0 y0_0_1 theta v_0_0 v_0_1 dW0_0_0 dW0_0_1 U0_0_0 U0_0_1 A0_0_0_0 A0_0_0_1 A0_0_1_0 A0_0_1_1 = a37
-  generalize Gen.grad_log_ode_s_general_22_g11_3083a6fb8787 f0 f0_d1 f0_d2 f0_d3 f1 f1_d1 f1_d2 f1_d3 g00 g00_d1 g00_d11 g00_d12 g00_d13 g00_d2 g00_d22 g00_d23 g00_d3 g01 g01_d1 g01_d11 g01_d12 g01_d13 g01_d2 g01_d22 g01_d23 g01_d3 g10 g10_d1 g10_d11 g10_d12 g10_d13 g10_d2 g10_d22 g10_d23 g10_d3 g11 g11_d1 g11_d11 g11_d12 g11_d13 g11_d2 g11_d22 g11_d23 g11_d3 t0 t2 dt y0_0_0 y0_0_1 theta v_0_0 v_0_1 dW0_0_0 dW0_0_1 U0_0_0 U0_0_1 A0_0_0_0 A0_0_0_1 A0_0_1_0 A0_0_1_1 = a38
-  generalize Gen.grad_log_ode_s_general_22_g11_d11_b27d6217a6ec f0 f0_d1 f0_d2 f0_d3 f1 f1_d1 f1_d2 f1_d3 g00 g00_d1 g00_d11 g00_d12 g00_d13 g00_d2 g00_d22 g00_d23 g00_d3 g01 g01_d1 g01_d11 g01_d12 g01_d13 g01_d2 g01_d22 g01_d23 g01_d3 g10 g10_d1 g10_d11 g10_d12 g10_d13 g10_d2 g10_d22 g10_d23 g10_d3 g11 g11_d1 g11_d11 g11_d12 g11_d13 g11_d2 g11_d22 g11_d23 g11_d3 t0 t2 dt y0_0_0 y0_0_1 theta v_0_0 v_0_1 dW0_0_0 dW0_0_1 U0_0_0 U0_0_1 A0_0_0_0 A0_0_0_1 A0_0_1_0 A0_0_1_1 = a39
-  generalize Gen.grad_log_ode_s_general_22_g11_d12_848b81a0050b f0 f0_d1 f0_d2 f0_d3 f1 f1_d1 f1_d2 f1_d3 g00 g00_d1 g00_d11 g00_d12 g00_d13 g00_d2 g00_d22 g00_d23 g00_d3 g01 g01_d1 g01_d11 g01_d12 g01_d13 g01_d2 g01_d22 g01_d23 g01_d3 g10 g10_d1 g10_d11 g10_d12 g10_d13 g10_d2 g10_d22 g10_d23 g10_d3 g11 g11_d1 g11_d11 g11_d12 g11_d13 g11_d2 g11_d22 g11_d23 g11_d3 t0 t2 dt y0_0_0 y0_0_1 theta v_0_0 v_0_1 dW0_0_0 dW0_0_1 U0_0_0 U0_0_1 A0_0_0_0 A0_0_0_1 A0_0_1_0 A0_0_1_1 = a40
-  generalize Gen.grad_log_ode_s_general_22_g11_d13_6b9fb3429d66 f0 f0_d1 f0_d2 f0_d3 f1 f1_d1 f1_d2 f1_d3 g00 g00_d1 g00_d11 g00_d12 g00_d13 g00_d2 g00_d22 g00_d23 g00_d3 g01 g01_d1 g01_d11 g01_d12 g01_d13 g01_d2 g01_d22 g01_d23 g01_d3 g10 g10_d1 g10_d11 g10_d12 g10_d13 g10_d2 g10_d22 g10_d23 g10_d3 g11 g11_d1 g11_d11 g11_d12 g11_d13 g11_d2 g11_d22 g11_d23 g11_d3 t0 t2 dt y0_0_0 y0_0_1 theta v_0_0 v_0_1 dW0_0_0 dW0_0_1 U0_0_0 U0_0_1 A0_0_0_0 A0_0_0_1 A0_0_1_0 A0_0_1_1 = a41
-  generalize Gen.grad_log_ode_s_general_22_g11_d1_61e386d218d9 f0 f0_d1 f0_d2 f0_d3 f1 f1_d1 f1_d2 f1_d3 g00 g00_d1 g00_d11 g00_d12 g00_d13 g00_d2 g00_d22 g00_d23 g00_d3 g01 g01_d1 g01_d11 g01_d12 g01_d13 g01_d2 g01_d22 g01_d23 g01_d3 g10 g10_d1 g10_d11 g10_d12 g10_d13 g10_d2 g10_d22 g10_d23 g10_d3 g11 g11_d1 g11_d11 g11_d12 g11_d13 g11_d2 g11_d22 g11_d23 g11_d3 t0 t2 dt y0_0_0 y0_0_1 theta v_0_0 v_0_1 dW0_0_0 dW0_0_1 U0_0_0 U0_0_1 A0_0_0_0 A0_0_0_1 A0_0_1_0 A0_0_1_1 = a42
-  generalize Gen.grad_log_ode_s_general_22_g11_d22_8e1d4710ef4d f0 f0_d1 f0_d2 f0_d3 f1 f1_d1 f1_d2 f1_d3 g00 g00_d1 g00_d11 g00_d12 g00_d13 g00_d2 g00_d22 g00_d23 g00_d3 g01 g01_d1 g01_d11 g01_d12 g01_d13 g01_d2 g01_d22 g01_d23 g01_d3 g10 g10_d1 g10_d11 g10_d12 g10_d13 g10_d2 g10_d22 g10_d23 g10_d3 g11 g11_d1 g11_d11 g11_d12 g11_d13 g11_d2 g11_d22 g11_d23 g11_d3 t0 t2 dt y0_0_0 y0_0_1 theta v_0_0 v_0_1 dW0_0_0 dW0_0_1 U0_0_0 U0_0_1 A0_0_0_0 A0_0_0_1 A0_0_1_0 A0_0_1_1 = a43
-  generalize Gen.grad_log_ode_s_general_22_g11_d23_dc933cf96778 f0 f0_d1 f0_d2 f0_d3 f1 f1_d1 f1_d2 f1_d3 g00 g00_d1 g00_d11 g00_d12 g00_d13 g00_d2 g00_d22 g00_d23 g00_d3 g01 g01_d1 g01_d11 g01_d12 g01_d13 g01_d2 g01_d22 g01_d23 g01_d3 g10 g10_d1 g10_d11 g10_d12 g10_d13 g10_d2 g10_d22 g10_d23 g10_d3 g11 g11_d1 g11_d11 g11_d12 g11_d13 g11_d2 g11_d22 g11_d23 g11_d3 t0 t2 dt y0_0_0 y0_0_1 theta v_0_0 v_0_1 dW0_0_0 dW0_0_1 U0_0_0 U0_0_1 A0_0_0_0 A0_0_0_1 A0_0_1_0 A0_0_1_1 = a44
-  generalize Gen.grad_log_ode_s_general_22_g11_d2_1b85f2e726db f0 f0_d1 f0_d2 f0_d3 f1 f1_d1 f1_d2 f1_d3 g00 g00_d1 g00_d11 g00_d12 g00_d13 g00_d2 g00_d22 g00_d23 g00_d3 g01 g01_d1 g01_d11 g01_d12 g01_d13 g01_d2 g01_d22 g01_d23 g01_d3 g10 g10_d1 g10_d11 g10_d12 g10_d13 g10_d2 g10_d22 g10_d23 g10_d3 g11 g11_d1 g11_d11 g11_d12 g11_d13 g11_d2 g11_d22 g11_d23 g11_d3 t0 t2 dt y0_0_0 y0_0_1 theta v_0_0 v_0_1 dW0_0_0 dW0_0_1 U0_0_0 U0_0_1 A0_0_0_0 A0_0_0_1 A0_0_1_0 A0_0_1_1 = a45
-  generalize Gen.grad_log_ode_s_general_22_g11_d3_a15e18a17a26 f0 f0_d1 f0_d2 f0_d3 f1 f1_d1 f1_d2 f1_d3 g00 g00_d1 g00_d11 g00_d12 g00_d13 g00_d2 g00_d22 g00_d23 g00_d3 g01 g01_d1 g01_d11 g01_d12 g01_d13 g01_d2 g01_d22 g01_d23 g01_d3 g10 g10_d1 g10_d11 g10_d12 g10_d13 g10_d2 g10_d22 g10_d23 g10_d3 g11 g11_d1 g11_d11 g11_d12 g11_d13 g11_d2 g11_d22 g11_d23 g11_d3 t0 t2 dt y0_0_0 y0_0_1 theta v_0_0 v_0_1 dW0_0_0 dW0_0_1 U0_0_0 U0_0_1 A0_0_0_0 A0_0_0_1 A0_0_1_0 A0_0_1_1 = a46
-  generalize Gen.grad_log_ode_s_general_22_g11_d3_ab1341c1765c f0 f0_d1 f0_d2 f0_d3 f1 f1_d1 f1_d2 f1_d3 g00 g00_d1 g00_d11 g00_d12 g00_d13 g00_d2 g00_d22 g00_d23 g00_d3 g01 g01_d1 g01_d11 g01_d12 g01_d13 g01_d2 g01_d22 g01_d23 g01_d3 g10 g10_d1 g10_d11 g10_d12 g10_d13 g10_d2 g10_d22 g10_d23 g10_d3 g11 g11_d1 g11_d11 g11_d12 g11_d13 g11_d2 g11_d22 g11_d23 g11_d3 t0 t2 dt y0_0_0 y0_0_1 theta v_0_0 v_0_1 dW0_0_0 dW0_0_1 U0_0_0 U0_0_1 A0_0_0_0 A0_0_0_1 A0_0_1_0 A0_0_1_1 = a47
+/-- `grad_srk_i_scalar_21`: backprop `gth` = forward derivative `tth` -/
+theorem grad_srk_i_scalar_21_gth (sqrt : K → K) (f0 : K → K → K → K → K) (f0_d1 : K → K → K → K → K) (f0_d2 : K → K → K → K → K) (f0_d3 : K → K → K → K → K) (f1 : K → K → K → K → K) (f1_d1 : K → K → K → K → K) (f1_d2 : K → K → K → K → K) (f1_d3 : K → K → K → K → K) (g00 : K → K → K → K → K) (g00_d1 : K → K → K → K → K) (g00_d2 : K → K → K → K → K) (g00_d3 : K → K → K → K → K) (g10 : K → K → K → K → K) (g10_d1 : K → K → K → K → K) (g10_d2 : K → K → K → K → K) (g10_d3 : K → K → K → K → K) (t0 t2 dt y0_0_0 y0_0_1 theta v_0_0 v_0_1 dW0_0_0 U0_0_0 : K) :
+    Gen.grad_srk_i_scalar_21_gth sqrt f0 f0_d1 f0_d2 f0_d3 f1 f1_d1 f1_d2 f1_d3 g00 g00_d1 g00_d2 g00_d3 g10 g10_d1 g10_d2 g10_d3 t0 t2 dt y0_0_0 y0_0_1 theta v_0_0 v_0_1 dW0_0_0 U0_0_0 = Gen.grad_srk_i_scalar_21_tth sqrt f0 f0_d1 f0_d2 f0_d3 f1 f1_d1 f1_d2 f1_d3 g00 g00_d1 g00_d2 g00_d3 g10 g10_d1 g10_d2 g10_d3 t0 t2 dt y0_0_0 y0_0_1 theta v_0_0 v_0_1 dW0_0_0 U0_0_0 := by
+  simp only [Gen.grad_srk_i_scalar_21_gth, Gen.grad_srk_i_scalar_21_tth]
+  generalize Gen.grad_srk_i_scalar_21_f0_d1_048a3ae647bb sqrt f0 f0_d1 f0_d2 f0_d3 f1 f1_d1 f1_d2 f1_d3 g00 g00_d1 g00_d2 g00_d3 g10 g10_d1 g10_d2 g10_d3 t0 t2 dt y0_0_0 y0_0_1 theta v_0_0 v_0_1 dW0_0_0 U0_0_0 = a0
+  generalize Gen.grad_srk_i_scalar_21_f0_d1_0d6da03f05d2 sqrt f0 f0_d1 f0_d2 f0_d3 f1 f1_d1 f1_d2 f1_d3 g00 g00_d1 g00_d2 g00_d3 g10 g10_d1 g10_d2 g10_d3 t0 t2 dt y0_0_0 y0_0_1 theta v_0_0 v_0_1 dW0_0_0 U0_0_0 = a1
+  generalize Gen.grad_srk_i_scalar_21_f0_d1_ec181339d940 sqrt f0 f0_d1 f0_d2 f0_d3 f1 f1_d1 f1_d2 f1_d3 g00 g00_d1 g00_d2 g00_d3 g10 g10_d1 g10_d2 g10_d3 t0 t2 dt y0_0_0 y0_0_1 theta v_0_0 v_0_1 dW0_0_0 U0_0_0 = a2
+  generalize Gen.grad_srk_i_scalar_21_f0_d2_325fb4cfeeb2 sqrt f0 f0_d1 f0_d2 f0_d3 f1 f1_d1 f1_d2 f1_d3 g00 g00_d1 g00_d2 g00_d3 g10 g10_d1 g10_d2 g10_d3 t0 t2 dt y0_0_0 y0_0_1 theta v_0_0 v_0_1 dW0_0_0 U0_0_0 = a3
+  generalize Gen.grad_srk_i_scalar_21_f0_d2_78a5f58013c7 sqrt f0 f0_d1 f0_d2 f0_d3 f1 f1_d1 f1_d2 f1_d3 g00 g00_d1 g00_d2 g00_d3 g10 g10_d1 g10_d2 g10_d3 t0 t2 dt y0_0_0 y0_0_1 theta v_0_0 v_0_1 dW0_0_0 U0_0_0 = a4
+  generalize Gen.grad_srk_i_scalar_21_f0_d2_ccf1535f12fd sqrt f0 f0_d1 f0_d2 f0_d3 f1 f1_d1 f1_d2 f1_d3 g00 g00_d1 g00_d2 g00_d3 g10 g10_d1 g10_d2 g10_d3 t0 t2 dt y0_0_0 y0_0_1 theta v_0_0 v_0_1 dW0_0_0 U0_0_0 = a5
+  generalize Gen.grad_srk_i_scalar_21_f0_d3_1033d7204803 sqrt f0 f0_d1 f0_d2 f0_d3 f1 f1_d1 f1_d2 f1_d3 g00 g00_d1 g00_d2 g00_d3 g10 g10_d1 g10_d2 g10_d3 t0 t2 dt y0_0_0 y0_0_1 theta v_0_0 v_0_1 dW0_0_0 U0_0_0 = a6
+  generalize Gen.grad_srk_i_scalar_21_f0_d3_7056f1fba1f4 sqrt f0 f0_d1 f0_d2 f0_d3 f1 f1_d1 f1_d2 f1_d3 g00 g00_d1 g00_d2 g00_d3 g10 g10_d1 g10_d2 g10_d3 t0 t2 dt y0_0_0 y0_0_1 theta v_0_0 v_0_1 dW0_0_0 U0_0_0 = a7
+  generalize Gen.grad_srk_i_scalar_21_f0_d3_99cae4af778e sqrt f0 f0_d1 f0_d2 f0_d3 f1 f1_d1 f1_d2 f1_d3 g00 g00_d1 g00_d2 g00_d3 g10 g10_d1 g10_d2 g10_d3 t0 t2 dt y0_0_0 y0_0_1 theta v_0_0 v_0_1 dW0_0_0 U0_0_0 = a8
+  generalize Gen.grad_srk_i_scalar_21_f0_d3_c42a43897dac sqrt f0 f0_d1 f0_d2 f0_d3 f1 f1_d1 f1_d2 f1_d3 g00 g00_d1 g00_d2 g00_d3 g10 g10_d1 g10_d2 g10_d3 t0 t2 dt y0_0_0 y0_0_1 theta v_0_0 v_0_1 dW0_0_0 U0_0_0 = a9
+  generalize Gen.grad_srk_i_scalar_21_f1_d1_11f8b33c18d7 sqrt f0 f0_d1 f0_d2 f0_d3 f1 f1_d1 f1_d2 f1_d3 g00 g00_d1 g00_d2 g00_d3 g10 g10_d1 g10_d2 g10_d3 t0 t2 dt y0_0_0 y0_0_1 theta v_0_0 v_0_1 dW0_0_0 U0_0_0 = a10
+  generalize Gen.grad_srk_i_scalar_21_f1_d1_7db86f6d49e8 sqrt f0 f0_d1 f0_d2 f0_d3 f1 f1_d1 f1_d2 f1_d3 g00 g00_d1 g00_d2 g00_d3 g10 g10_d1 g10_d2 g10_d3 t0 t2 dt y0_0_0 y0_0_1 theta v_0_0 v_0_1 dW0_0_0 U0_0_0 = a11
+  generalize Gen.grad_srk_i_scalar_21_f1_d1_bf7375131e55 sqrt f0 f0_d1 f0_d2 f0_d3 f1 f1_d1 f1_d2 f1_d3 g00 g00_d1 g00_d2 g00_d3 g10 g10_d1 g10_d2 g10_d3 t0 t2 dt y0_0_0 y0_0_1 theta v_0_0 v_0_1 dW0_0_0 U0_0_0 = a12
+  generalize Gen.grad_srk_i_scalar_21_f1_d2_25f7e10acdf7 sqrt f0 f0_d1 f0_d2 f0_d3 f1 f1_d1 f1_d2 f1_d3 g00 g00_d1 g00_d2 g00_d3 g10 g10_d1 g10_d2 g10_d3 t0 t2 dt y0_0_0 y0_0_1 theta v_0_0 v_0_1 dW0_0_0 U0_0_0 = a13
+  generalize Gen.grad_srk_i_scalar_21_f1_d2_79b001e662ef sqrt f0 f0_d1 f0_d2 f0_d3 f1 f1_d1 f1_d2 f1_d3 g00 g00_d1 g00_d2 g00_d3 g10 g10_d1 g10_d2 g10_d3 t0 t2 dt y0_0_0 y0_0_1 theta v_0_0 v_0_1 dW0_0_0 U0_0_0 = a14
+  generalize Gen.grad_srk_i_scalar_21_f1_d2_b5abe77cecb9 sqrt f0 f0_d1 f0_d2 f0_d3 f1 f1_d1 f1_d2 f1_d3 g00 g00_d1 g00_d2 g00_d3 g10 g10_d1 g10_d2 g10_d3 t0 t2 dt y0_0_0 y0_0_1 theta v_0_0 v_0_1 dW0_0_0 U0_0_0 = a15
+  generalize Gen.grad_srk_i_scalar_21_f1_d3_3fd6413ad5c0 sqrt f0 f0_d1 f0_d2 f0_d3 f1 f1_d1 f1_d2 f1_d3 g00 g00_d1 g00_d2 g00_d3 g10 g10_d1 g10_d2 g10_d3 t0 t2 dt y0_0_0 y0_0_1 theta v_0_0 v_0_1 dW0_0_0 U0_0_0 = a16
+  generalize Gen.grad_srk_i_scalar_21_f1_d3_fbd4c7a7e22f sqrt f0 f0_d1 f0_d2 f0_d3 f1 f1_d1 f1_d2 f1_d3 g00 g00_d1 g00_d2 g00_d3 g10 g10_d1 g10_d2 g10_d3 t0 t2 dt y0_0_0 y0_0_1 theta v_0_0 v_0_1 dW0_0_0 U0_0_0 = a17
+  generalize Gen.grad_srk_i_scalar_21_f1_d3_fcf23ed257d8 sqrt f0 f0_d1 f0_d2 f0_d3 f1 f1_d1 f1_d2 f1_d3 g00 g00_d1 g00_d2 g00_d3 g10 g10_d1 g10_d2 g10_d3 t0 t2 dt y0_0_0 y0_0_1 theta v_0_0 v_0_1 dW0_0_0 U0_0_0 = a18
+  generalize Gen.grad_srk_i_scalar_21_f1_d3_fe887f6a6eb8 sqrt f0 f0_d1 f0_d2 f0_d3 f1 f1_d1 f1_d2 f1_d3 g00 g00_d1 g00_d2 g00_d3 g10 g10_d1 g10_d2 g10_d3 t0 t2 dt y0_0_0 y0_0_1 theta v_0_0 v_0_1 dW0_0_0 U0_0_0 = a19
+  generalize Gen.grad_srk_i_scalar_21_g00_d1_5b89d28c8a03 sqrt f0 f0_d1 f0_d2 f0_d3 f1 f1_d1 f1_d2 f1_d3 g00 g00_d1 g00_d2 g00_d3 g10 g10_d1 g10_d2 g10_d3 t0 t2 dt y0_0_0 y0_0_1 theta v_0_0 v_0_1 dW0_0_0 U0_0_0 = a20
+  generalize Gen.grad_srk_i_scalar_21_g00_d1_71f3c5419243 sqrt f0 f0_d1 f0_d2 f0_d3 f1 f1_d1 f1_d2 f1_d3 g00 g00_d1 g00_d2 g00_d3 g10 g10_d1 g10_d2 g10_d3 t0 t2 dt y0_0_0 y0_0_1 theta v_0_0 v_0_1 dW0_0_0 U0_0_0 = a21
+  generalize Gen.grad_srk_i_scalar_21_g00_d1_e647a8af9478 sqrt f0 f0_d1 f0_d2 f0_d3 f1 f1_d1 f1_d2 f1_d3 g00 g00_d1 g00_d2 g00_d3 g10 g10_d1 g10_d2 g10_d3 t0 t2 dt y0_0_0 y0_0_1 theta v_0_0 v_0_1 dW0_0_0 U0_0_0 = a22
+  generalize Gen.grad_srk_i_scalar_21_g00_d2_5d2631134daf sqrt f0 f0_d1 f0_d2 f0_d3 f1 f1_d1 f1_d2 f1_d3 g00 g00_d1 g00_d2 g00_d3 g10 g10_d1 g10_d2 g10_d3 t0 t2 dt y0_0_0 y0_0_1 theta v_0_0 v_0_1 dW0_0_0 U0_0_0 = a23
+  generalize Gen.grad_srk_i_scalar_21_g00_d2_766f52bd2357 sqrt f0 f0_d1 f0_d2 f0_d3 f1 f1_d1 f1_d2 f1_d3 g00 g00_d1 g00_d2 g00_d3 g10 g10_d1 g10_d2 g10_d3 t0 t2 dt y0_0_0 y0_0_1 theta v_0_0 v_0_1 dW0_0_0 U0_0_0 = a24
+  generalize Gen.grad_srk_i_scalar_21_g00_d2_d550fb212b3b sqrt f0 f0_d1 f0_d2 f0_d3 f1 f1_d1 f1_d2 f1_d3 g00 g00_d1 g00_d2 g00_d3 g10 g10_d1 g10_d2 g10_d3 t0 t2 dt y0_0_0 y0_0_1 theta v_0_0 v_0_1 dW0_0_0 U0_0_0 = a25
+  generalize Gen.grad_srk_i_scalar_21_g00_d3_02cc4c085fdc sqrt f0 f0_d1 f0_d2 f0_d3 f1 f1_d1 f1_d2 f1_d3 g00 g00_d1 g00_d2 g00_d3 g10 g10_d1 g10_d2 g10_d3 t0 t2 dt y0_0_0 y0_0_1 theta v_0_0 v_0_1 dW0_0_0 U0_0_0 = a26
+  generalize Gen.grad_srk_i_scalar_21_g00_d3_047697ab8737 sqrt f0 f0_d1 f0_d2 f0_d3 f1 f1_d1 f1_d2 f1_d3 g00 g00_d1 g00_d2 g00_d3 g10 g10_d1 g10_d2 g10_d3 t0 t2 dt y0_0_0 y0_0_1 theta v_0_0 v_0_1 dW0_0_0 U0_0_0 = a27
+  generalize Gen.grad_srk_i_scalar_21_g00_d3_148212df3a1d sqrt f0 f0_d1 f0_d2 f0_d3 f1 f1_d1 f1_d2 f1_d3 g00 g00_d1 g00_d2 g00_d3 g10 g10_d1 g10_d2 g10_d3 t0 t2 dt y0_0_0 y0_0_1 theta v_0_0 v_0_1 dW0_0_0 U0_0_0 = a28
+  generalize Gen.grad_srk_i_scalar_21_g00_d3_ccd0a8aaf4e7 sqrt f0 f0_d1 f0_d2 f0_d3 f1 f1_d1 f1_d2 f1_d3 g00 g00_d1 g00_d2 g00_d3 g10 g10_d1 g10_d2 g10_d3 t0 t2 dt y0_0_0 y0_0_1 theta v_0_0 v_0_1 dW0_0_0 U0_0_0 = a29
+  generalize Gen.grad_srk_i_scalar_21_g10_d1_0e530e08d236 sqrt f0 f0_d1 f0_d2 f0_d3 f1 f1_d1 f1_d2 f1_d3 g00 g00_d1 g00_d2 g00_d3 g10 g10_d1 g10_d2 g10_d3 t0 t2 dt y0_0_0 y0_0_1 theta v_0_0 v_0_1 dW0_0_0 U0_0_0 = a30
+  generalize Gen.grad_srk_i_scalar_21_g10_d1_38c89ae5f8a2 sqrt f0 f0_d1 f0_d2 f0_d3 f1 f1_d1 f1_d2 f1_d3 g00 g00_d1 g00_d2 g00_d3 g10 g10_d1 g10_d2 g10_d3 t0 t2 dt y0_0_0 y0_0_1 theta v_0_0 v_0_1 dW0_0_0 U0_0_0 = a31
+  generalize Gen.grad_srk_i_scalar_21_g10_d1_d2eea7216866 sqrt f0 f0_d1 f0_d2 f0_d3 f1 f1_d1 f1_d2 f1_d3 g00 g00_d1 g00_d2 g00_d3 g10 g10_d1 g10_d2 g10_d3 t0 t2 dt y0_0_0 y0_0_1 theta v_0_0 v_0_1 dW0_0_0 U0_0_0 = a32
+  generalize Gen.grad_srk_i_scalar_21_g10_d2_726c7164929d sqrt f0 f0_d1 f0_d2 f0_d3 f1 f1_d1 f1_d2 f1_d3 g00 g00_d1 g00_d2 g00_d3 g10 g10_d1 g10_d2 g10_d3 t0 t2 dt y0_0_0 y0_0_1 theta v_0_0 v_0_1 dW0_0_0 U0_0_0 = a33
+  generalize Gen.grad_srk_i_scalar_21_g10_d2_c0c312618872 sqrt f0 f0_d1 f0_d2 f0_d3 f1 f1_d1 f1_d2 f1_d3 g00 g00_d1 g00_d2 g00_d3 g10 g10_d1 g10_d2 g10_d3 t0 t2 dt y0_0_0 y0_0_1 theta v_0_0 v_0_1 dW0_0_0 U0_0_0 = a34
+  generalize Gen.grad_srk_i_scalar_21_g10_d2_cb354e0b2055 sqrt f0 f0_d1 f0_d2 f0_d3 f1 f1_d1 f1_d2 f1_d3 g00 g00_d1 g00_d2 g00_d3 g10 g10_d1 g10_d2 g10_d3 t0 t2 dt y0_0_0 y0_0_1 theta v_0_0 v_0_1 dW0_0_0 U0_0_0 = a35
+  generalize Gen.grad_srk_i_scalar_21_g10_d3_050ff5f1c731 sqrt f0 f0_d1 f0_d2 f0_d3 f1 f1_d1 f1_d2 f1_d3 g00 g00_d1 g00_d2 g00_d3 g10 g10_d1 g10_d2 g10_d3 t0 t2 dt y0_0_0 y0_0_1 theta v_0_0 v_0_1 dW0_0_0 U0_0_0 = a36
+  generalize Gen.grad_srk_i_scalar_21_g10_d3_39dfe1c8a239 sqrt f0 f0_d1 f0_d2 f0_d3 f1 f1_d1 f1_d2 f1_d3 g00 g00_d1 g00_d2 g00_d3 g10 g10_d1 g10_d2 g10_d3 t0 t2 dt y0_0_0 y0_0_1 theta v_0_0 v_0_1 dW0_0_0 U0_0_0 = a37
+  generalize Gen.grad_srk_i_scalar_21_g10_d3_4444ea53b757 sqrt f0 f0_d1 f0_d2 f0_d3 f1 f1_d1 f1_d2 f1_d3 g00 g00_d1 g00_d2 g00_d3 g10 g10_d1 g10_d2 g10_d3 t0 t2 dt y0_0_0 y0_0_1 theta v_0_0 v_0_1 dW0_0_0 U0_0_0 = a38
+  generalize Gen.grad_srk_i_scalar_21_g10_d3_fc1302f501df sqrt f0 f0_d1 f0_d2 f0_d3 f1 f1_d1 f1_d2 f1_d3 g00 g00_d1 g00_d2 g00_d3 g10 g10_d1 g10_d2 g10_d3 t0 t2 dt y0_0_0 y0_0_1 theta v_0_0 v_0_1 dW0_0_0 U0_0_0 = a39
+  ring
+
+set_option maxHeartbeats 4000000 in
+/-- `grad_srk_i_scalar_21`: backprop `gy_0_0` = forward derivative `ty_0_0` -/
+theorem grad_srk_i_scalar_21_gy_0_0 (sqrt : K → K) (f0 : K → K → K → K → K) (f0_d1 : K → K → K → K → K) (f0_d2 : K → K → K → K → K) (f0_d3 : K → K → K → K → K) (f1 : K → K → K → K → K) (f1_d1 : K → K → K → K → K) (f1_d2 : K → K → K → K → K) (f1_d3 : K → K → K → K → K) (g00 : K → K → K → K → K) (g00_d1 : K → K → K → K → K) (g00_d2 : K → K → K → K → K) (g00_d3 : K → K → K → K → K) (g10 : K → K → K → K → K) (g10_d1 : K → K → K → K → K) (g10_d2 : K → K → K → K → K) (g10_d3 : K → K → K → K → K) (t0 t2 dt y0_0_0 y0_0_1 theta v_0_0 v_0_1 dW0_0_0 U0_0_0 : K) :
+    Gen.grad_srk_i_scalar_21_gy_0_0 sqrt f0 f0_d1 f0_d2 f0_d3 f1 f1_d1 f1_d2 f1_d3 g00 g00_d1 g00_d2 g00_d3 g10 g10_d1 g10_d2 g10_d3 t0 t2 dt y0_0_0 y0_0_1 theta v_0_0 v_0_1 dW0_0_0 U0_0_0 = Gen.grad_srk_i_scalar_21_ty_0_0 sqrt f0 f0_d1 f0_d2 f0_d3 f1 f1_d1 f1_d2 f1_d3 g00 g00_d1 g00_d2 g00_d3 g10 g10_d1 g10_d2 g10_d3 t0 t2 dt y0_0_0 y0_0_1 theta v_0_0 v_0_1 dW0_0_0 U0_0_0 := by
+  simp only [Gen.grad_srk_i_scalar_21_gy_0_0, Gen.grad_srk_i_scalar_21_ty_0_0]
+  generalize Gen.grad_srk_i_scalar_21_f0_d1_048a3ae647bb sqrt f0 f0_d1 f0_d2 f0_d3 f1 f1_d1 f1_d2 f1_d3 g00 g00_d1 g00_d2 g00_d3 g10 g10_d1 g10_d2 g10_d3 t0 t2 dt y0_0_0 y0_0_1 theta v_0_0 v_0_1 dW0_0_0 U0_0_0 = a0
+  generalize Gen.grad_srk_i_scalar_21_f0_d1_0d6da03f05d2 sqrt f0 f0_d1 f0_d2 f0_d3 f1 f1_d1 f1_d2 f1_d3 g00 g00_d1 g00_d2 g00_d3 g10 g10_d1 g10_d2 g10_d3 t0 t2 dt y0_0_0 y0_0_1 theta v_0_0 v_0_1 dW0_0_0 U0_0_0 = a1
+  generalize Gen.grad_srk_i_scalar_21_f0_d1_ad04c4cfc9dc sqrt f0 f0_d1 f0_d2 f0_d3 f1 f1_d1 f1_d2 f1_d3 g00 g00_d1 g00_d2 g00_d3 g10 g10_d1 g10_d2 g10_d3 t0 t2 dt y0_0_0 y0_0_1 theta v_0_0 v_0_1 dW0_0_0 U0_0_0 = a2
+  generalize Gen.grad_srk_i_scalar_21_f0_d1_ec181339d940 sqrt f0 f0_d1 f0_d2 f0_d3 f1 f1_d1 f1_d2 f1_d3 g00 g00_d1 g00_d2 g00_d3 g10 g10_d1 g10_d2 g10_d3 t0 t2 dt y0_0_0 y0_0_1 theta v_0_0 v_0_1 dW0_0_0 U0_0_0 = a3
+  generalize Gen.grad_srk_i_scalar_21_f0_d2_325fb4cfeeb2 sqrt f0 f0_d1 f0_d2 f0_d3 f1 f1_d1 f1_d2 f1_d3 g00 g00_d1 g00_d2 g00_d3 g10 g10_d1 g10_d2 g10_d3 t0 t2 dt y0_0_0 y0_0_1 theta v_0_0 v_0_1 dW0_0_0 U0_0_0 = a4
+  generalize Gen.grad_srk_i_scalar_21_f0_d2_78a5f58013c7 sqrt f0 f0_d1 f0_d2 f0_d3 f1 f1_d1 f1_d2 f1_d3 g00 g00_d1 g00_d2 g00_d3 g10 g10_d1 g10_d2 g10_d3 t0 t2 dt y0_0_0 y0_0_1 theta v_0_0 v_0_1 dW0_0_0 U0_0_0 = a5
+  generalize Gen.grad_srk_i_scalar_21_f0_d2_ccf1535f12fd sqrt f0 f0_d1 f0_d2 f0_d3 f1 f1_d1 f1_d2 f1_d3 g00 g00_d1 g00_d2 g00_d3 g10 g10_d1 g10_d2 g10_d3 t0 t2 dt y0_0_0 y0_0_1 theta v_0_0 v_0_1 dW0_0_0 U0_0_0 = a6
+  generalize Gen.grad_srk_i_scalar_21_f1_d1_11f8b33c18d7 sqrt f0 f0_d1 f0_d2 f0_d3 f1 f1_d1 f1_d2 f1_d3 g00 g00_d1 g00_d2 g00_d3 g10 g10_d1 g10_d2 g10_d3 t0 t2 dt y0_0_0 y0_0_1 theta v_0_0 v_0_1 dW0_0_0 U0_0_0 = a7
+  generalize Gen.grad_srk_i_scalar_21_f1_d1_7db86f6d49e8 sqrt f0 f0_d1 f0_d2 f0_d3 f1 f1_d1 f1_d2 f1_d3 g00 g00_d1 g00_d2 g00_d3 g10 g10_d1 g10_d2 g10_d3 t0 t2 dt y0_0_0 y0_0_1 theta v_0_0 v_0_1 dW0_0_0 U0_0_0 = a8
+  generalize Gen.grad_srk_i_scalar_21_f1_d1_b5359770c025 sqrt f0 f0_d1 f0_d2 f0_d3 f1 f1_d1 f1_d2 f1_d3 g00 g00_d1 g00_d2 g00_d3 g10 g10_d1 g10_d2 g10_d3 t0 t2 dt y0_0_0 y0_0_1 theta v_0_0 v_0_1 dW0_0_0 U0_0_0 = a9
+  generalize Gen.grad_srk_i_scalar_21_f1_d1_bf7375131e55 sqrt f0 f0_d1 f0_d2 f0_d3 f1 f1_d1 f1_d2 f1_d3 g00 g00_d1 g00_d2 g00_d3 g10 g10_d1 g10_d2 g10_d3 t0 t2 dt y0_0_0 y0_0_1 theta v_0_0 v_0_1 dW0_0_0 U0_0_0 = a10
+  generalize Gen.grad_srk_i_scalar_21_f1_d2_25f7e10acdf7 sqrt f0 f0_d1 f0_d2 f0_d3 f1 f1_d1 f1_d2 f1_d3 g00 g00_d1 g00_d2 g00_d3 g10 g10_d1 g10_d2 g10_d3 t0 t2 dt y0_0_0 y0_0_1 theta v_0_0 v_0_1 dW0_0_0 U0_0_0 = a11
+  generalize Gen.grad_srk_i_scalar_21_f1_d2_79b001e662ef sqrt f0 f0_d1 f0_d2 f0_d3 f1 f1_d1 f1_d2 f1_d3 g00 g00_d1 g00_d2 g00_d3 g10 g10_d1 g10_d2 g10_d3 t0 t2 dt y0_0_0 y0_0_1 theta v_0_0 v_0_1 dW0_0_0 U0_0_0 = a12
+  generalize Gen.grad_srk_i_scalar_21_f1_d2_b5abe77cecb9 sqrt f0 f0_d1 f0_d2 f0_d3 f1 f1_d1 f1_d2 f1_d3 g00 g00_d1 g00_d2 g00_d3 g10 g10_d1 g10_d2 g10_d3 t0 t2 dt y0_0_0 y0_0_1 theta v_0_0 v_0_1 dW0_0_0 U0_0_0 = a13
+  generalize Gen.grad_srk_i_scalar_21_g00_d1_5b89d28c8a03 sqrt f0 f0_d1 f0_d2 f0_d3 f1 f1_d1 f1_d2 f1_d3 g00 g00_d1 g00_d2 g00_d3 g10 g10_d1 g10_d2 g10_d3 t0 t2 dt y0_0_0 y0_0_1 theta v_0_0 v_0_1 dW0_0_0 U0_0_0 = a14
+  generalize Gen.grad_srk_i_scalar_21_g00_d1_71f3c5419243 sqrt f0 f0_d1 f0_d2 f0_d3 f1 f1_d1 f1_d2 f1_d3 g00 g00_d1 g00_d2 g00_d3 g10 g10_d1 g10_d2 g10_d3 t0 t2 dt y0_0_0 y0_0_1 theta v_0_0 v_0_1 dW0_0_0 U0_0_0 = a15
+  generalize Gen.grad_srk_i_scalar_21_g00_d1_b079f164c7e7 sqrt f0 f0_d1 f0_d2 f0_d3 f1 f1_d1 f1_d2 f1_d3 g00 g00_d1 g00_d2 g00_d3 g10 g10_d1 g10_d2 g10_d3 t0 t2 dt y0_0_0 y0_0_1 theta v_0_0 v_0_1 dW0_0_0 U0_0_0 = a16
+  generalize Gen.grad_srk_i_scalar_21_g00_d1_e647a8af9478 sqrt f0 f0_d1 f0_d2 f0_d3 f1 f1_d1 f1_d2 f1_d3 g00 g00_d1 g00_d2 g00_d3 g10 g10_d1 g10_d2 g10_d3 t0 t2 dt y0_0_0 y0_0_1 theta v_0_0 v_0_1 dW0_0_0 U0_0_0 = a17
+  generalize Gen.grad_srk_i_scalar_21_g00_d2_5d2631134daf sqrt f0 f0_d1 f0_d2 f0_d3 f1 f1_d1 f1_d2 f1_d3 g00 g00_d1 g00_d2 g00_d3 g10 g10_d1 g10_d2 g10_d3 t0 t2 dt y0_0_0 y0_0_1 theta v_0_0 v_0_1 dW0_0_0 U0_0_0 = a18
+  generalize Gen.grad_srk_i_scalar_21_g00_d2_766f52bd2357 sqrt f0 f0_d1 f0_d2 f0_d3 f1 f1_d1 f1_d2 f1_d3 g00 g00_d1 g00_d2 g00_d3 g10 g10_d1 g10_d2 g10_d3 t0 t2 dt y0_0_0 y0_0_1 theta v_0_0 v_0_1 dW0_0_0 U0_0_0 = a19
+  generalize Gen.grad_srk_i_scalar_21_g00_d2_d550fb212b3b sqrt f0 f0_d1 f0_d2 f0_d3 f1 f1_d1 f1_d2 f1_d3 g00 g00_d1 g00_d2 g00_d3 g10 g10_d1 g10_d2 g10_d3 t0 t2 dt y0_0_0 y0_0_1 theta v_0_0 v_0_1 dW0_0_0 U0_0_0 = a20
+  generalize Gen.grad_srk_i_scalar_21_g10_d1_0e530e08d236 sqrt f0 f0_d1 f0_d2 f0_d3 f1 f1_d1 f1_d2 f1_d3 g00 g00_d1 g00_d2 g00_d3 g10 g10_d1 g10_d2 g10_d3 t0 t2 dt y0_0_0 y0_0_1 theta v_0_0 v_0_1 dW0_0_0 U0_0_0 = a21
+  generalize Gen.grad_srk_i_scalar_21_g10_d1_38c89ae5f8a2 sqrt f0 f0_d1 f0_d2 f0_d3 f1 f1_d1 f1_d2 f1_d3 g00 g00_d1 g00_d2 g00_d3 g10 g10_d1 g10_d2 g10_d3 t0 t2 dt y0_0_0 y0_0_1 theta v_0_0 v_0_1 dW0_0_0 U0_0_0 = a22
+  generalize Gen.grad_srk_i_scalar_21_g10_d1_61f9a6123158 sqrt f0 f0_d1 f0_d2 f0_d3 f1 f1_d1 f1_d2 f1_d3 g00 g00_d1 g00_d2 g00_d3 g10 g10_d1 g10_d2 g10_d3 t0 t2 dt y0_0_0 y0_0_1 theta v_0_0 v_0_1 dW0_0_0 U0_0_0 = a23
+  generalize Gen.grad_srk_i_scalar_21_g10_d1_d2eea7216866 sqrt f0 f0_d1 f0_d2 f0_d3 f1 f1_d1 f1_d2 f1_d3 g00 g00_d1 g00_d2 g00_d3 g10 g10_d1 g10_d2 g10_d3 t0 t2 dt y0_0_0 y0_0_1 theta v_0_0 v_0_1 dW0_0_0 U0_0_0 = a24
+  generalize Gen.grad_srk_i_scalar_21_g10_d2_726c7164929d sqrt f0 f0_d1 f0_d2 f0_d3 f1 f1_d1 f1_d2 f1_d3 g00 g00_d1 g00_d2 g00_d3 g10 g10_d1 g10_d2 g10_d3 t0 t2 dt y0_0_0 y0_0_1 theta v_0_0 v_0_1 dW0_0_0 U0_0_0 = a25
+  generalize Gen.grad_srk_i_scalar_21_g10_d2_c0c312618872 sqrt f0 f0_d1 f0_d2 f0_d3 f1 f1_d1 f1_d2 f1_d3 g00 g00_d1 g00_d2 g00_d3 g10 g10_d1 g10_d2 g10_d3 t0 t2 dt y0_0_0 y0_0_1 theta v_0_0 v_0_1 dW0_0_0 U0_0_0 = a26
+  generalize Gen.grad_srk_i_scalar_21_g10_d2_cb354e0b2055 sqrt f0 f0_d1 f0_d2 f0_d3 f1 f1_d1 f1_d2 f1_d3 g00 g00_d1 g00_d2 g00_d3 g10 g10_d1 g10_d2 g10_d3 t0 t2 dt y0_0_0 y0_0_1 theta v_0_0 v_0_1 dW0_0_0 U0_0_0 = a27
+  ring
+
+set_option maxHeartbeats 4000000 in
+/-- `grad_srk_i_scalar_21`: backprop `gy_0_1` = forward derivative `ty_0_1` -/
+theorem grad_srk_i_scalar_21_gy_0_1 (sqrt : K → K) (f0 : K → K → K → K → K) (f0_d1 : K → K → K → K → K) (f0_d2 : K → K → K → K → K) (f0_d3 : K → K → K → K → K) (f1 : K → K → K → K → K) (f1_d1 : K → K → K → K → K) (f1_d2 : K → K → K → K → K) (f1_d3 : K → K → K → K → K) (g00 : K → K → K → K → K) (g00_d1 : K → K → K → K → K) (g00_d2 : K → K → K → K → K) (g00_d3 : K → K → K → K → K) (g10 : K → K → K → K → K) (g10_d1 : K → K → K → K → K) (g10_d2 : K → K → K → K → K) (g10_d3 : K → K → K → K → K) (t0 t2 dt y0_0_0 y0_0_1 theta v_0_0 v_0_1 dW0_0_0 U0_0_0 : K) :
+    Gen.grad_srk_i_scalar_21_gy_0_1 sqrt f0 f0_d1 f0_d2 f0_d3 f1 f1_d1 f1_d2 f1_d3 g00 g00_d1 g00_d2 g00_d3 g10 g10_d1 g10_d2 g10_d3 t0 t2 dt y0_0_0 y0_0_1 theta v_0_0 v_0_1 dW0_0_0 U0_0_0 = Gen.grad_srk_i_scalar_21_ty_0_1 sqrt f0 f0_d1 f0_d2 f0_d3 f1 f1_d1 f1_d2 f1_d3 g00 g00_d1 g00_d2 g00_d3 g10 g10_d1 g10_d2 g10_d3 t0 t2 dt y0_0_0 y0_0_1 theta v_0_0 v_0_1 dW0_0_0 U0_0_0 := by
+  simp only [Gen.grad_srk_i_scalar_21_gy_0_1, Gen.grad_srk_i_scalar_21_ty_0_1]
+  generalize Gen.grad_srk_i_scalar_21_f0_d1_048a3ae647bb sqrt f0 f0_d1 f0_d2 f0_d3 f1 f1_d1 f1_d2 f1_d3 g00 g00_d1 g00_d2 g00_d3 g10 g10_d1 g10_d2 g10_d3 t0 t2 dt y0_0_0 y0_0_1 theta v_0_0 v_0_1 dW0_0_0 U0_0_0 = a0
+  generalize Gen.grad_srk_i_scalar_21_f0_d1_0d6da03f05d2 sqrt f0 f0_d1 f0_d2 f0_d3 f1 f1_d1 f1_d2 f1_d3 g00 g00_d1 g00_d2 g00_d3 g10 g10_d1 g10_d2 g10_d3 t0 t2 dt y0_0_0 y0_0_1 theta v_0_0 v_0_1 dW0_0_0 U0_0_0 = a1
+  generalize Gen.grad_srk_i_scalar_21_f0_d1_ec181339d940 sqrt f0 f0_d1 f0_d2 f0_d3 f1 f1_d1 f1_d2 f1_d3 g00 g00_d1 g00_d2 g00_d3 g10 g10_d1 g10_d2 g10_d3 t0 t2 dt y0_0_0 y0_0_1 theta v_0_0 v_0_1 dW0_0_0 U0_0_0 = a2
+  generalize Gen.grad_srk_i_scalar_21_f0_d2_325fb4cfeeb2 sqrt f0 f0_d1 f0_d2 f0_d3 f1 f1_d1 f1_d2 f1_d3 g00 g00_d1 g00_d2 g00_d3 g10 g10_d1 g10_d2 g10_d3 t0 t2 dt y0_0_0 y0_0_1 theta v_0_0 v_0_1 dW0_0_0 U0_0_0 = a3
+  generalize Gen.grad_srk_i_scalar_21_f0_d2_78a5f58013c7 sqrt f0 f0_d1 f0_d2 f0_d3 f1 f1_d1 f1_d2 f1_d3 g00 g00_d1 g00_d2 g00_d3 g10 g10_d1 g10_d2 g10_d3 t0 t2 dt y0_0_0 y0_0_1 theta v_0_0 v_0_1 dW0_0_0 U0_0_0 = a4
+  generalize Gen.grad_srk_i_scalar_21_f0_d2_78e8b9d07752 sqrt f0 f0_d1 f0_d2 f0_d3 f1 f1_d1 f1_d2 f1_d3 g00 g00_d1 g00_d2 g00_d3 g10 g10_d1 g10_d2 g10_d3 t0 t2 dt y0_0_0 y0_0_1 theta v_0_0 v_0_1 dW0_0_0 U0_0_0 = a5
+  generalize Gen.grad_srk_i_scalar_21_f0_d2_ccf1535f12fd sqrt f0 f0_d1 f0_d2 f0_d3 f1 f1_d1 f1_d2 f1_d3 g00 g00_d1 g00_d2 g00_d3 g10 g10_d1 g10_d2 g10_d3 t0 t2 dt y0_0_0 y0_0_1 theta v_0_0 v_0_1 dW0_0_0 U0_0_0 = a6
+  generalize Gen.grad_srk_i_scalar_21_f1_d1_11f8b33c18d7 sqrt f0 f0_d1 f0_d2 f0_d3 f1 f1_d1 f1_d2 f1_d3 g00 g00_d1 g00_d2 g00_d3 g10 g10_d1 g10_d2 g10_d3 t0 t2 dt y0_0_0 y0_0_1 theta v_0_0 v_0_1 dW0_0_0 U0_0_0 = a7
+  generalize Gen.grad_srk_i_scalar_21_f1_d1_7db86f6d49e8 sqrt f0 f0_d1 f0_d2 f0_d3 f1 f1_d1 f1_d2 f1_d3 g00 g00_d1 g00_d2 g00_d3 g10 g10_d1 g10_d2 g10_d3 t0 t2 dt y0_0_0 y0_0_1 theta v_0_0 v_0_1 dW0_0_0 U0_0_0 = a8
+  generalize Gen.grad_srk_i_scalar_21_f1_d1_bf7375131e55 sqrt f0 f0_d1 f0_d2 f0_d3 f1 f1_d1 f1_d2 f1_d3 g00 g00_d1 g00_d2 g00_d3 g10 g10_d1 g10_d2 g10_d3 t0 t2 dt y0_0_0 y0_0_1 theta v_0_0 v_0_1 dW0_0_0 U0_0_0 = a9
+  generalize Gen.grad_srk_i_scalar_21_f1_d2_11156d5faf62 sqrt f0 f0_d1 f0_d2 f0_d3 f1 f1_d1 f1_d2 f1_d3 g00 g00_d1 g00_d2 g00_d3 g10 g10_d1 g10_d2 g10_d3 t0 t2 dt y0_0_0 y0_0_1 theta v_0_0 v_0_1 dW0_0_0 U0_0_0 = a10
+  generalize Gen.grad_srk_i_scalar_21_f1_d2_25f7e10acdf7 sqrt f0 f0_d1 f0_d2 f0_d3 f1 f1_d1 f1_d2 f1_d3 g00 g00_d1 g00_d2 g00_d3 g10 g10_d1 g10_d2 g10_d3 t0 t2 dt y0_0_0 y0_0_1 theta v_0_0 v_0_1 dW0_0_0 U0_0_0 = a11
+  generalize Gen.grad_srk_i_scalar_21_f1_d2_79b001e662ef sqrt f0 f0_d1 f0_d2 f0_d3 f1 f1_d1 f1_d2 f1_d3 g00 g00_d1 g00_d2 g00_d3 g10 g10_d1 g10_d2 g10_d3 t0 t2 dt y0_0_0 y0_0_1 theta v_0_0 v_0_1 dW0_0_0 U0_0_0 = a12
+  generalize Gen.grad_srk_i_scalar_21_f1_d2_b5abe77cecb9 sqrt f0 f0_d1 f0_d2 f0_d3 f1 f1_d1 f1_d2 f1_d3 g00 g00_d1 g00_d2 g00_d3 g10 g10_d1 g10_d2 g10_d3 t0 t2 dt y0_0_0 y0_0_1 theta v_0_0 v_0_1 dW0_0_0 U0_0_0 = a13
+  generalize Gen.grad_srk_i_scalar_21_g00_d1_5b89d28c8a03 sqrt f0 f0_d1 f0_d2 f0_d3 f1 f1_d1 f1_d2 f1_d3 g00 g00_d1 g00_d2 g00_d3 g10 g10_d1 g10_d2 g10_d3 t0 t2 dt y0_0_0 y0_0_1 theta v_0_0 v_0_1 dW0_0_0 U0_0_0 = a14
+  generalize Gen.grad_srk_i_scalar_21_g00_d1_71f3c5419243 sqrt f0 f0_d1 f0_d2 f0_d3 f1 f1_d1 f1_d2 f1_d3 g00 g00_d1 g00_d2 g00_d3 g10 g10_d1 g10_d2 g10_d3 t0 t2 dt y0_0_0 y0_0_1 theta v_0_0 v_0_1 dW0_0_0 U0_0_0 = a15
+  generalize Gen.grad_srk_i_scalar_21_g00_d1_e647a8af9478 sqrt f0 f0_d1 f0_d2 f0_d3 f1 f1_d1 f1_d2 f1_d3 g00 g00_d1 g00_d2 g00_d3 g10 g10_d1 g10_d2 g10_d3 t0 t2 dt y0_0_0 y0_0_1 theta v_0_0 v_0_1 dW0_0_0 U0_0_0 = a16
+  generalize Gen.grad_srk_i_scalar_21_g00_d2_5d2631134daf sqrt f0 f0_d1 f0_d2 f0_d3 f1 f1_d1 f1_d2 f1_d3 g00 g00_d1 g00_d2 g00_d3 g10 g10_d1 g10_d2 g10_d3 t0 t2 dt y0_0_0 y0_0_1 theta v_0_0 v_0_1 dW0_0_0 U0_0_0 = a17
+  generalize Gen.grad_srk_i_scalar_21_g00_d2_766f52bd2357 sqrt f0 f0_d1 f0_d2 f0_d3 f1 f1_d1 f1_d2 f1_d3 g00 g00_d1 g00_d2 g00_d3 g10 g10_d1 g10_d2 g10_d3 t0 t2 dt y0_0_0 y0_0_1 theta v_0_0 v_0_1 dW0_0_0 U0_0_0 = a18
+  generalize Gen.grad_srk_i_scalar_21_g00_d2_8021045b73b0 sqrt f0 f0_d1 f0_d2 f0_d3 f1 f1_d1 f1_d2 f1_d3 g00 g00_d1 g00_d2 g00_d3 g10 g10_d1 g10_d2 g10_d3 t0 t2 dt y0_0_0 y0_0_1 theta v_0_0 v_0_1 dW0_0_0 U0_0_0 = a19
+  generalize Gen.grad_srk_i_scalar_21_g00_d2_d550fb212b3b sqrt f0 f0_d1 f0_d2 f0_d3 f1 f1_d1 f1_d2 f1_d3 g00 g00_d1 g00_d2 g00_d3 g10 g10_d1 g10_d2 g10_d3 t0 t2 dt y0_0_0 y0_0_1 theta v_0_0 v_0_1 dW0_0_0 U0_0_0 = a20
+  generalize Gen.grad_srk_i_scalar_21_g10_d1_0e530e08d236 sqrt f0 f0_d1 f0_d2 f0_d3 f1 f1_d1 f1_d2 f1_d3 g00 g00_d1 g00_d2 g00_d3 g10 g10_d1 g10_d2 g10_d3 t0 t2 dt y0_0_0 y0_0_1 theta v_0_0 v_0_1 dW0_0_0 U0_0_0 = a21
+  generalize Gen.grad_srk_i_scalar_21_g10_d1_38c89ae5f8a2 sqrt f0 f0_d1 f0_d2 f0_d3 f1 f1_d1 f1_d2 f1_d3 g00 g00_d1 g00_d2 g00_d3 g10 g10_d1 g10_d2 g10_d3 t0 t2 dt y0_0_0 y0_0_1 theta v_0_0 v_0_1 dW0_0_0 U0_0_0 = a22
+  generalize Gen.grad_srk_i_scalar_21_g10_d1_d2eea7216866 sqrt f0 f0_d1 f0_d2 f0_d3 f1 f1_d1 f1_d2 f1_d3 g00 g00_d1 g00_d2 g00_d3 g10 g10_d1 g10_d2 g10_d3 t0 t2 dt y0_0_0 y0_0_1 theta v_0_0 v_0_1 dW0_0_0 U0_0_0 = a23
+  generalize Gen.grad_srk_i_scalar_21_g10_d2_726c7164929d sqrt f0 f0_d1 f0_d2 f0_d3 f1 f1_d1 f1_d2 f1_d3 g00 g00_d1 g00_d2 g00_d3 g10 g10_d1 g10_d2 g10_d3 t0 t2 dt y0_0_0 y0_0_1 theta v_0_0 v_0_1 dW0_0_0 U0_0_0 = a24
+  generalize Gen.grad_srk_i_scalar_21_g10_d2_a90e0cad5787 sqrt f0 f0_d1 f0_d2 f0_d3 f1 f1_d1 f1_d2 f1_d3 g00 g00_d1 g00_d2 g00_d3 g10 g10_d1 g10_d2 g10_d3 t0 t2 dt y0_0_0 y0_0_1 theta v_0_0 v_0_1 dW0_0_0 U0_0_0 = a25
+  generalize Gen.grad_srk_i_scalar_21_g10_d2_c0c312618872 sqrt f0 f0_d1 f0_d2 f0_d3 f1 f1_d1 f1_d2 f1_d3 g00 g00_d1 g00_d2 g00_d3 g10 g10_d1 g10_d2 g10_d3 t0 t2 dt y0_0_0 y0_0_1 theta v_0_0 v_0_1 dW0_0_0 U0_0_0 = a26
+  generalize Gen.grad_srk_i_scalar_21_g10_d2_cb354e0b2055 sqrt f0 f0_d1 f0_d2 f0_d3 f1 f1_d1 f1_d2 f1_d3 g00 g00_d1 g00_d2 g00_d3 g10 g10_d1 g10_d2 g10_d3 t0 t2 dt y0_0_0 y0_0_1 theta v_0_0 v_0_1 dW0_0_0 U0_0_0 = a27
   ring
 
 end C08
